@@ -1,2206 +1,33 @@
 /-
-  Ark.Proofs.Refine — operation-level specifications and the history machine for the
-  non-relation, observer-free fragment WITH components: `Add`, `Remove`, `NewEntity(ids…)`,
-  `NewEntity()`, `RemoveEntity`, `Set`, `registerComponent`.
+  Ark.Proofs.Refine — the abstract specification and the history machine for the non-relation,
+  observer-free fragment WITH components.
 
-  * `CInv w fl` — the joint invariant of the fragment: `WInv` without the one-table field `tab0`,
-    plus the structural invariant `SInv`, plus "no registered component is a relation"
-    (`noRelKinds`; `CInv.noRelArch`: no archetype has a relation column) and the registry bound
-    (`kinds.length ≤ maxComps ≤ 256`).  `cinv_init`, `CInv.transfer`, `CInv.row_live_id`.
-  * `SInv.findOrCreateTableRemove_spec` / `findOrCreateTableRemove_reject` — the removal analogue
-    of `SInv.findOrCreateTableAdd_spec`; `graphFindAdd_bad` / `graphFindRemove_bad` — the mask
-    walks as decision procedures.
-  * `CInv.move_spec` (the shared tail "add `e` to the new table, `moveRow`"), `addCore_spec`,
+  * the world-level specifications of the operations (`CInv`, `CInv.move_spec`, `addCore_spec`,
     `removeCore_spec`, `opAdd_spec`, `opRemove_spec`, `opNewEntity_spec`, `opNewEntity0_spec`,
-    `opRemoveEntity_spec`, `opSet_spec_c`, `CInv.registerComponent`, `CInv.writeVals`
-    (`valOf_writeVals`: last write wins), `CInv.placed`, `CInv.removed`, and the rejections
-    `addCore_alreadyHas`, `removeCore_missing`, `opNewEntity_dup`, `opSet_missing_c`, `opAdd_dead`,
-    `opRemove_dead` (state unchanged).
-  * `Ark.Refine`: the abstract specification (`Spec`, `specStep`, `pre`), the history machine
-    (`exec`, `guard`, `step`, `reach`), the inductive invariant `HInv` and `reach_hinv`.
+    `opRemoveEntity_spec`, `opSet_spec_c`, …) are in Ark/Proofs/RefineCore.lean, those of
+    `Exchange`, `CopyEntity`, `Shrink`, `Reset` and the agreement of the access paths in
+    Ark/Proofs/RefineOps.lean;
+  * `Ark.Refine`: the abstract specification (`Spec`, `specStep`, `pre`, `XchgOK`), the history
+    machine (`Op` = `reg | new p | new0 | add p | rem p | xchg p | set | del | copy | shrink |
+    reset`, `exec`, `guard`, `issuedAfter`, `step`, `reach`), the inductive invariant `HInv`, one
+    step lemma per operation (`step_reg`, …, `step_reset`, each proving `StepGoal`), `step_goal`,
+    `run_inv`, `reach_hinv`, `reach_bounds`;
+  * `exec_path_indep` / `step_path_indep` (`Op.withPath`): the access path does not matter;
+  * `PoolStep`, `GenBound`, `reach_genBound`: generations are bounded by the length of the
+    history (no issued handle carries the sentinel generation `maxU32`);
+  * `specStep_of_not_pre`, `target`, `specStep_frame`.
     The property theorems are in Ark/Props/C01Refine.lean.
 
   Kernel-only proofs, core Lean only.
 -/
-import Ark.Proofs.WInv
-import Ark.Proofs.SInv
-import Ark.Proofs.PoolHistory
+import Ark.Proofs.RefineCore
+import Ark.Proofs.RefineOps
 
 set_option autoImplicit false
 
 namespace Ark
 
 open World Ark.Props.C01World
-
-/-! ## 0. table metadata: what `SInv` reads of a table -/
-
-namespace Table
-
-/-- `T'` has the same layout / bookkeeping fields as `T` (everything but `len`, `cap`, `ents`,
-    `cols`) -/
-structure SameMeta (T T' : Table) : Prop where
-  id : T'.id = T.id
-  arch : T'.arch = T.arch
-  ids : T'.ids = T.ids
-  isRel : T'.isRel = T.isRel
-  zst : T'.zst = T.zst
-  relIDs : T'.relIDs = T.relIDs
-  isFree : T'.isFree = T.isFree
-  targets : T'.targets = T.targets
-
-theorem SameMeta.refl (T : Table) : SameMeta T T := ⟨rfl, rfl, rfl, rfl, rfl, rfl, rfl, rfl⟩
-
-theorem SameMeta.trans {A B C : Table} (h1 : SameMeta A B) (h2 : SameMeta B C) : SameMeta A C :=
-  ⟨h2.id.trans h1.id, h2.arch.trans h1.arch, h2.ids.trans h1.ids, h2.isRel.trans h1.isRel,
-    h2.zst.trans h1.zst, h2.relIDs.trans h1.relIDs, h2.isFree.trans h1.isFree,
-    h2.targets.trans h1.targets⟩
-
-theorem add_sameMeta (T : Table) (e : Ent) : SameMeta T (T.add e).1 := by
-  simp only [Table.add, Table.alloc, Table.extend]
-  split <;> exact ⟨rfl, rfl, rfl, rfl, rfl, rfl, rfl, rfl⟩
-
-theorem remove_sameMeta (T : Table) (i : Nat) : SameMeta T (T.remove i).1 :=
-  ⟨rfl, rfl, rfl, rfl, rfl, rfl, rfl, rfl⟩
-
-theorem setCell_sameMeta (T : Table) (col row : Nat) (v : Val) : SameMeta T (T.setCell col row v) := by
-  simp only [Table.setCell]
-  split <;> exact ⟨rfl, rfl, rfl, rfl, rfl, rfl, rfl, rfl⟩
-
-theorem setComp_sameMeta (T : Table) (c : Comp) (row : Nat) (v : Val) :
-    SameMeta T (T.setComp c row v) := by
-  simp only [Table.setComp]
-  split
-  · exact setCell_sameMeta T _ row v
-  · exact SameMeta.refl T
-
-theorem foldl_sameMeta {α : Type} (f : Table → α → Table)
-    (hf : ∀ (T : Table) (x : α), SameMeta T (f T x)) :
-    ∀ (l : List α) (T : Table), SameMeta T (l.foldl f T)
-  | [], T => SameMeta.refl T
-  | x :: l, T => (hf T x).trans (foldl_sameMeta f hf l (f T x))
-
-end Table
-
-namespace World
-
-theorem copyRow_sameMeta (O : Table) (row newIndex : Nat) (keep : Mask) (N : Table) :
-    Table.SameMeta N (copyRow O row newIndex keep N) := by
-  apply Table.foldl_sameMeta
-  intro T c
-  split
-  · split
-    · exact Table.setComp_sameMeta T c newIndex _
-    · exact Table.SameMeta.refl T
-  · exact Table.SameMeta.refl T
-
-theorem writeFold_sameMeta (row : Nat) (vals : List (Comp × Val)) (T : Table) :
-    Table.SameMeta T (vals.foldl (fun T (cv : Comp × Val) => T.setComp cv.1 row cv.2) T) :=
-  Table.foldl_sameMeta _ (fun T cv => Table.setComp_sameMeta T cv.1 row cv.2) vals T
-
-end World
-
-/-- `SInv` only reads the metadata of the tables -/
-theorem SInv.of_sameMeta {w w' : World} (h : SInv w) (ha : w'.archetypes = w.archetypes)
-    (hk : w'.kinds = w.kinds) (hlen : w'.tables.length = w.tables.length)
-    (hm : ∀ (t : Nat), t < w.tables.length → Table.SameMeta (w.tbl t) (w'.tbl t)) : SInv w' := by
-  have harch : ∀ a, w'.arch a = w.arch a := fun a => by simp only [arch, ha]
-  have hget : ∀ {t : Nat} {T : Table}, w'.tables[t]? = some T →
-      t < w.tables.length ∧ T = w'.tbl t ∧ w.tables[t]? = some (w.tbl t) := by
-    intro t T hT
-    have hlt : t < w.tables.length := by rw [← hlen]; exact lt_of_get hT
-    exact ⟨hlt, (tbl_of_get hT).symm, get_of_lt hlt⟩
-  have hget' : ∀ {t : Nat} {T : Table}, w.tables[t]? = some T →
-      t < w.tables.length ∧ T = w.tbl t ∧ w'.tables[t]? = some (w'.tbl t) := by
-    intro t T hT
-    have hlt : t < w.tables.length := lt_of_get hT
-    exact ⟨hlt, (tbl_of_get hT).symm, get_of_lt (by rw [hlen]; exact hlt)⟩
-  have hmid : SInvMid w' := by
-    refine ⟨?_, ?_, ?_, ?_, ?_, ?_, ?_, ?_, ?_, ?_, ?_, ?_⟩
-    · rw [ha]; exact h.archId
-    · rw [ha]; exact h.maskUniq
-    · rw [ha, hk]; exact h.maskReg
-    · rw [ha, hk]; exact h.comps
-    · rw [ha, hk]; exact h.kindsOf
-    · intro t T hT
-      obtain ⟨hlt, rfl, hT0⟩ := hget hT
-      have sm := hm t hlt
-      obtain ⟨A, hA, e1, e2, e3, e4⟩ := h.tblArch t _ hT0
-      exact ⟨A, by rw [ha, sm.arch]; exact hA, by rw [sm.ids]; exact e1, by rw [sm.isRel]; exact e2,
-        by rw [sm.zst]; exact e3, by rw [sm.id]; exact e4⟩
-    · intro t T hT r hr
-      obtain ⟨hlt, rfl, hT0⟩ := hget hT
-      have sm := hm t hlt
-      rw [sm.relIDs] at hr
-      obtain ⟨i, h1, h2⟩ := h.relCols t _ hT0 r hr
-      exact ⟨i, by rw [sm.ids]; exact h1, by rw [sm.isRel]; exact h2⟩
-    · intro t T hT
-      obtain ⟨hlt, rfl, hT0⟩ := hget hT
-      have sm := hm t hlt
-      rw [sm.isFree, sm.arch, harch]
-      exact h.member t _ hT0
-    · intro a A t hA hmem
-      rw [ha] at hA
-      obtain ⟨T, hT, hTa⟩ := h.owned a A t hA hmem
-      obtain ⟨hlt, rfl, hT'⟩ := hget' hT
-      exact ⟨_, hT', by rw [(hm t hlt).arch]; exact hTa⟩
-    · rw [ha]; exact h.astruct
-    · rw [ha]; exact h.nonRelLe
-    · obtain ⟨h0, h1, h2⟩ := h.root
-      exact ⟨by rw [hlen]; exact h0, by rw [(hm 0 h0).arch]; exact h1, by rw [harch]; exact h2⟩
-  exact { hmid with settled := fun a => (h.settled a).congr ha }
-
-/-! ## 1. fields no storage operation touches -/
-
-/-- `w'` has the same observers, locks, target flags and registry bound as `w` -/
-structure Untouched (w w' : World) : Prop where
-  obs : w'.obs = w.obs
-  locks : w'.locks = w.locks
-  isTarget : w'.isTarget = w.isTarget
-  maxComps : w'.maxComps = w.maxComps
-
-theorem Untouched.refl (w : World) : Untouched w w := ⟨rfl, rfl, rfl, rfl⟩
-
-theorem Untouched.trans {a b c : World} (h1 : Untouched a b) (h2 : Untouched b c) : Untouched a c :=
-  ⟨h2.obs.trans h1.obs, h2.locks.trans h1.locks, h2.isTarget.trans h1.isTarget,
-    h2.maxComps.trans h1.maxComps⟩
-
-namespace World
-
-theorem createArchetypeW_untouched (w : World) (mask : Mask) :
-    Untouched w (createArchetypeW w mask) :=
-  ⟨createArchetypeW_proj (·.obs) (fun _ _ _ => rfl) (fun _ _ => rfl) w mask,
-    createArchetypeW_proj (·.locks) (fun _ _ _ => rfl) (fun _ _ => rfl) w mask,
-    createArchetypeW_proj (·.isTarget) (fun _ _ _ => rfl) (fun _ _ => rfl) w mask,
-    createArchetypeW_proj (·.maxComps) (fun _ _ _ => rfl) (fun _ _ => rfl) w mask⟩
-
-theorem findOrCreateArch_untouched {w w' : World} {mask : Mask} {a : Nat}
-    (h : findOrCreateArch mask w = .ok a w') : Untouched w w' := by
-  unfold findOrCreateArch at h
-  split at h
-  · injection h with _ h2; subst h2; exact Untouched.refl w
-  · rw [createArchetype_eq] at h
-    injection h with _ h2; subst h2; exact createArchetypeW_untouched w mask
-
-theorem createTableS_untouched (w : World) (a : Nat) (rels : List RelID) :
-    Untouched w (createTableS w a rels).1 := by
-  unfold createTableS
-  split <;> exact ⟨rfl, rfl, rfl, rfl⟩
-
-theorem cacheAddTable_untouched {w w' : World} {T : Table} (h : w.cacheAddTable T = some w') :
-    Untouched w w' := by
-  unfold cacheAddTable at h
-  simp only at h
-  split at h
-  · cases h
-  · injection h with h; subst h; exact ⟨rfl, rfl, rfl, rfl⟩
-
-theorem createTable_untouched {a : Nat} {rels : List RelID} {w w' : World} {t : Nat}
-    (h : createTable a rels w = .ok t w') : Untouched w w' := by
-  obtain ⟨_, _, _, _, h5⟩ := createTable_ok h
-  exact (createTableS_untouched w a rels).trans (cacheAddTable_untouched h5)
-
-/-- `findOrCreateTableAdd` (on success) touches neither observers, locks, target flags nor the
-    registry bound -/
-theorem findOrCreateTableAdd_untouched {oldT : Nat} {startMask : Mask} {add : List Comp}
-    {rels : List RelID} {w w' : World} {r : Nat × Nat × Mask}
-    (hok : findOrCreateTableAdd oldT startMask add rels w = .ok r w') : Untouched w w' := by
-  obtain ⟨t, a, mask⟩ := r
-  have hg : graphFindAdd startMask add w = .ok (add.foldl Mask.set startMask) w := by
-    rcases graphFindAdd_cases startMask add w with hg | ⟨hg, _⟩
-    · exact hg
-    · simp only [World.findOrCreateTableAdd, bind, M.bind, hg] at hok; cases hok
-  cases ha : findOrCreateArch (add.foldl Mask.set startMask) w with
-  | panic k s => simp only [World.findOrCreateTableAdd, bind, M.bind, hg, ha] at hok; cases hok
-  | ok a1 w1 =>
-    obtain ⟨_, _, hbr⟩ := findOrCreateTableAdd_ok_inv hg ha hok
-    have u1 := findOrCreateArch_untouched ha
-    rcases hbr with ⟨_, rfl⟩ | ⟨_, hct⟩
-    · exact u1
-    · exact u1.trans (createTable_untouched hct)
-
-end World
-
-/-! ## 2. the joint invariant of the fragment with components -/
-
-/-- **The joint invariant** for the non-relation, observer-free fragment with components.
-    `fl` is the (ghost) free list of the entity pool.  Relative to `WInv`: the one-table field
-    `tab0` is dropped, the structural invariant `SInv` is added, and the fragment conditions are
-    "no registered component is a relation" (`noRelKinds`, which with `SInv` gives "no archetype
-    has a relation column", see `CInv.noRelArch`) and the registry bound `kindsLe`. -/
-structure CInv (w : World) (fl : List Nat) : Prop where
-  /-- I2: entity index ↔ table rows -/
-  idx : IdxInv w
-  /-- I4/I9/I10: archetypes ↔ tables -/
-  sinv : SInv w
-  /-- I1: the pool's free list -/
-  pool : Pool.PInv w.pool fl
-  stale : w.pool.stale = []
-  lenEq : w.entities.length = w.pool.ents.length
-  tgtLen : w.isTarget.length = w.entities.length
-  freeUnindexed : ∀ i ∈ fl, ∃ r, w.entities[i]? = some (maxU32, r)
-  reservedUnindexed : ∀ i : Nat, i < 2 → ∃ r, w.entities[i]? = some (maxU32, r)
-  liveIndexed : ∀ i : Nat, 2 ≤ i → i < w.entities.length → i ∉ fl →
-    ∃ t r, w.entities[i]? = some (t, r) ∧ t ≠ maxU32
-  /-- table IDs fit `uint32`, `maxU32` is "no table" -/
-  fewTables : w.tables.length ≤ maxU32
-  /-- fragment: no relation component is registered -/
-  noRelKinds : ∀ c : Comp, (w.kinds.getD c {}).isRel = false
-  /-- the registry never exceeds the mask width -/
-  kindsLe : w.kinds.length ≤ w.maxComps ∧ w.maxComps ≤ 256
-  /-- fragment: no relation targets -/
-  noTargets : ∀ i : Nat, w.isTarget.getD i false = false
-  /-- fragment: no observers registered -/
-  noObs : ∀ evt : Nat, w.obs.hasObservers evt = false
-
-namespace CInv
-
-variable {w : World} {fl : List Nat}
-
-/-- no archetype has a relation column -/
-theorem noRelArch (h : CInv w fl) {a : Nat} {A : Archetype} (hA : w.archetypes[a]? = some A) :
-    A.hasRelations = false :=
-  h.sinv.toSInvMid.hasRelations_false_of_kinds hA (fun c _ => h.noRelKinds c)
-
-theorem noRelArch' (h : CInv w fl) {a : Nat} (ha : a < w.archetypes.length) :
-    (w.arch a).hasRelations = false := h.noRelArch (aget_of_lt ha)
-
-/-- no table lists a relation -/
-theorem relIDs_nil (h : CInv w fl) {t : Nat} (ht : t < w.tables.length) : (w.tbl t).relIDs = [] := by
-  have hT := get_of_lt ht
-  obtain ⟨A, hA, _⟩ := h.sinv.tblArch t _ hT
-  apply h.sinv.toSInvMid.relIDs_nil hT
-  rw [arch_of_get hA]; exact h.noRelArch hA
-
-theorem reg_lt_256 (h : CInv w fl) {c : Nat} (hc : c < w.kinds.length) : c < 256 := by
-  have := h.kindsLe; omega
-
-/-- liveness is exact for IDs outside the free list -/
-theorem aliveIff (h : CInv w fl) (e : Ent) (hnf : e.id ∉ fl) :
-    w.alive e = true ↔ w.pool.ents[e.id]? = some e := by
-  simp only [World.alive]
-  exact h.pool.alive_iff h.stale e hnf
-
-/-- a live handle: its index entry and its pool slot -/
-theorem live_entry (h : CInv w fl) {e : Ent} (h2 : 2 ≤ e.id) (hnf : e.id ∉ fl)
-    (ha : w.alive e = true) :
-    ∃ t r, w.entities[e.id]? = some (t, r) ∧ t ≠ maxU32 ∧ w.pool.ents[e.id]? = some e := by
-  have hs := (h.aliveIff e hnf).mp ha
-  have hlt : e.id < w.entities.length := by
-    rw [h.lenEq]; exact (List.getElem?_eq_some_iff.mp hs).1
-  obtain ⟨t, r, hi, ht⟩ := h.liveIndexed e.id h2 hlt hnf
-  exact ⟨t, r, hi, ht, hs⟩
-
-/-- the table of an indexed entity: it exists, its archetype exists, and its column list is the
-    ascending list of the registered bits of the archetype's mask -/
-theorem table_of_entry (h : CInv w fl) {i t r : Nat} (hi : w.entities[i]? = some (t, r))
-    (ht : t ≠ maxU32) :
-    t < w.tables.length ∧ r < (w.tbl t).len ∧ ((w.tbl t).getEntity r).id = i ∧
-    (w.tbl t).arch < w.archetypes.length ∧
-    (w.tbl t).ids = (w.arch (w.tbl t).arch).mask.toList w.kinds.length ∧
-    (w.tbl t).zst = (w.arch (w.tbl t).arch).zst := by
-  obtain ⟨hT, hr, hid⟩ := h.idx.indexed hi ht
-  obtain ⟨A, hA, e1, _, e3, _⟩ := h.sinv.tblArch t _ hT
-  refine ⟨lt_of_get hT, hr, hid, alt_of_get hA, ?_, ?_⟩
-  · rw [e1, arch_of_get hA]; exact (h.sinv.comps _ A hA).1
-  · rw [e3, arch_of_get hA]
-
-/-- **tables → index**: the entity in a live row of a table has a live ID (not reserved, not on
-    the free list) that is indexed to exactly that row.  (That the stored handle also carries
-    the current generation is not a consequence of the other fields: the index knows IDs only.) -/
-theorem row_live_id (h : CInv w fl) {t r : Nat} (ht : t < w.tables.length) (hr : r < (w.tbl t).len) :
-    2 ≤ ((w.tbl t).getEntity r).id ∧ ((w.tbl t).getEntity r).id ∉ fl ∧
-    ((w.tbl t).getEntity r).id < w.entities.length ∧
-    w.entities[((w.tbl t).getEntity r).id]? = some (t, r) := by
-  have hx := h.idx.rowIdx t _ r (get_of_lt ht) hr
-  have htm : t ≠ maxU32 := by have := h.fewTables; omega
-  refine ⟨?_, ?_, (List.getElem?_eq_some_iff.mp hx).1, hx⟩
-  · rcases Nat.lt_or_ge ((w.tbl t).getEntity r).id 2 with h1 | h1
-    · obtain ⟨r', hr'⟩ := h.reservedUnindexed _ h1
-      rw [hr'] at hx
-      exact absurd (Prod.mk.inj (Option.some.inj hx)).1.symm htm
-    · exact h1
-  · intro hm
-    obtain ⟨r', hr'⟩ := h.freeUnindexed _ hm
-    rw [hr'] at hx
-    exact absurd (Prod.mk.inj (Option.some.inj hx)).1.symm htm
-
-end CInv
-
-theorem cinv_init (cap rel : Nat) : CInv (World.init cap rel) [] where
-  idx := IdxInv.init cap rel 256
-  sinv := sinv_init cap rel
-  pool := Pool.pinv_init
-  stale := rfl
-  lenEq := rfl
-  tgtLen := rfl
-  freeUnindexed := by intro i hi; cases hi
-  reservedUnindexed := by
-    intro i hi
-    match i, hi with
-    | 0, _ => exact ⟨0, rfl⟩
-    | 1, _ => exact ⟨0, rfl⟩
-  liveIndexed := by
-    intro i h2 hlt _
-    have : (World.init cap rel).entities.length = 2 := rfl
-    omega
-  fewTables := by
-    show 1 ≤ maxU32
-    decide
-  noRelKinds := by
-    intro c
-    show (([] : List CompKind).getD c {}).isRel = false
-    rfl
-  kindsLe := ⟨Nat.zero_le _, Nat.le_refl _⟩
-  noTargets := by
-    intro i
-    show [false, false].getD i false = false
-    match i with
-    | 0 => rfl
-    | 1 => rfl
-    | n + 2 => rfl
-  noObs := fun _ => rfl
-
-/-- the index after the step agrees with the index before, up to moving indexed entities
-    between (existing) tables -/
-structure IdxSame (w w' : World) : Prop where
-  len : w'.entities.length = w.entities.length
-  entry : ∀ i : Nat, w'.entities[i]? = w.entities[i]? ∨
-    ∃ t r t' r', w.entities[i]? = some (t, r) ∧ t ≠ maxU32 ∧
-      w'.entities[i]? = some (t', r') ∧ t' ≠ maxU32
-
-theorem IdxSame.refl (w : World) : IdxSame w w := ⟨rfl, fun _ => Or.inl rfl⟩
-
-/-- a step that keeps the pool, the registry, the observers and the target flags, and only moves
-    indexed entities between tables, keeps the joint invariant -/
-theorem CInv.transfer {w w' : World} {fl : List Nat} (h : CInv w fl) (hidx : IdxInv w')
-    (hsinv : SInv w') (hpool : w'.pool = w.pool) (hent : IdxSame w w') (hk : w'.kinds = w.kinds)
-    (hu : Untouched w w') (hfew : w'.tables.length ≤ maxU32) : CInv w' fl where
-  idx := hidx
-  sinv := hsinv
-  pool := by rw [hpool]; exact h.pool
-  stale := by rw [hpool]; exact h.stale
-  lenEq := by rw [hent.len, hpool]; exact h.lenEq
-  tgtLen := by rw [hu.isTarget, hent.len]; exact h.tgtLen
-  freeUnindexed := by
-    intro i hi
-    obtain ⟨r, hr⟩ := h.freeUnindexed i hi
-    rcases hent.entry i with he | ⟨t, r1, _, _, h1, h2, _⟩
-    · exact ⟨r, by rw [he]; exact hr⟩
-    · rw [hr] at h1
-      exact absurd (Prod.mk.inj (Option.some.inj h1)).1.symm h2
-  reservedUnindexed := by
-    intro i hi
-    obtain ⟨r, hr⟩ := h.reservedUnindexed i hi
-    rcases hent.entry i with he | ⟨t, r1, _, _, h1, h2, _⟩
-    · exact ⟨r, by rw [he]; exact hr⟩
-    · rw [hr] at h1
-      exact absurd (Prod.mk.inj (Option.some.inj h1)).1.symm h2
-  liveIndexed := by
-    intro i h2 hlt hnf
-    rcases hent.entry i with he | ⟨_, _, t', r', _, _, h3, h4⟩
-    · rw [he]; exact h.liveIndexed i h2 (by rw [← hent.len]; exact hlt) hnf
-    · exact ⟨t', r', h3, h4⟩
-  fewTables := hfew
-  noRelKinds := by rw [hk]; exact h.noRelKinds
-  kindsLe := by rw [hk, hu.maxComps]; exact h.kindsLe
-  noTargets := by rw [hu.isTarget]; exact h.noTargets
-  noObs := by rw [hu.obs]; exact h.noObs
-
-/-! ## 3. `graph.FindRemove` / `graph.FindAdd` as decision procedures -/
-
-namespace Mask
-
-theorem get_foldl_clear (cs : List Nat) (m : Mask) (c : Nat) :
-    (cs.foldl clear m).get c = (m.get c && !decide (c ∈ cs)) := by
-  induction cs generalizing m with
-  | nil => simp
-  | cons x xs ih =>
-    simp only [List.foldl_cons, ih, get_clear, List.mem_cons]
-    by_cases h2 : c = x
-    · subst h2; simp
-    · by_cases h3 : c ∈ xs <;> simp [h2, h3]
-
-end Mask
-
-namespace World
-
-theorem graphFindRemove_go_ok (w : World) : ∀ (rem : List Comp) (m : Mask),
-    (∀ (c : Comp), c ∈ rem → m.get c = true) → rem.Nodup →
-    graphFindRemove.go w m rem = .ok (rem.foldl Mask.clear m) w
-  | [], _, _, _ => rfl
-  | c :: rest, m, hp, hnd => by
-    have hc : m.get c = true := hp c List.mem_cons_self
-    simp only [graphFindRemove.go, hc, Bool.not_true, Bool.false_eq_true, if_false, List.foldl_cons]
-    apply graphFindRemove_go_ok w rest (m.clear c)
-    · intro c' hc'
-      rw [Mask.get_clear, hp c' (List.mem_cons_of_mem _ hc')]
-      have : c' ≠ c := by
-        rintro rfl
-        exact (List.nodup_cons.1 hnd).1 hc'
-      simp [this]
-    · exact (List.nodup_cons.1 hnd).2
-
-/-- removing distinct components all of which are present: the mask walk succeeds -/
-theorem graphFindRemove_ok (m : Mask) (rem : List Comp) (w : World)
-    (hp : ∀ (c : Comp), c ∈ rem → m.get c = true) (hnd : rem.Nodup) :
-    graphFindRemove m rem w = .ok (rem.foldl Mask.clear m) w := graphFindRemove_go_ok w rem m hp hnd
-
-theorem graphFindRemove_go_bad (w : World) : ∀ (rem : List Comp) (m : Mask),
-    ¬ (rem.Nodup ∧ ∀ (c : Comp), c ∈ rem → m.get c = true) →
-    graphFindRemove.go w m rem = .panic .missing w
-  | [], _, h => absurd ⟨List.nodup_nil, fun _ hc => by cases hc⟩ h
-  | c :: rest, m, h => by
-    simp only [graphFindRemove.go]
-    cases hc : m.get c with
-    | false => rfl
-    | true =>
-      simp only [Bool.not_true, Bool.false_eq_true, if_false]
-      apply graphFindRemove_go_bad w rest (m.clear c)
-      rintro ⟨hnd, hall⟩
-      apply h
-      have hne : ∀ c' ∈ rest, c' ≠ c ∧ m.get c' = true := by
-        intro c' hc'
-        have := hall c' hc'
-        rw [Mask.get_clear] at this
-        by_cases he : c' = c
-        · subst he; simp at this
-        · exact ⟨he, by simpa [he] using this⟩
-      refine ⟨List.nodup_cons.2 ⟨fun hm => (hne c hm).1 rfl, hnd⟩, ?_⟩
-      intro c' hc'
-      rcases List.mem_cons.1 hc' with rfl | hm
-      · exact hc
-      · exact (hne c' hm).2
-
-/-- **rejection** of `graph.FindRemove`: a component that is absent (or listed twice) is refused
-    with `missing`, state unchanged -/
-theorem graphFindRemove_bad (m : Mask) (rem : List Comp) (w : World)
-    (h : ¬ (rem.Nodup ∧ ∀ (c : Comp), c ∈ rem → m.get c = true)) :
-    graphFindRemove m rem w = .panic .missing w := graphFindRemove_go_bad w rem m h
-
-theorem graphFindAdd_go_bad (w : World) : ∀ (add : List Comp) (m : Mask),
-    (∀ (c : Comp), c ∈ add → c < 256) →
-    ¬ (add.Nodup ∧ ∀ (c : Comp), c ∈ add → m.get c = false) →
-    graphFindAdd.go w m add = .panic .alreadyHas w
-  | [], _, _, h => absurd ⟨List.nodup_nil, fun _ hc => by cases hc⟩ h
-  | c :: rest, m, hb, h => by
-    simp only [graphFindAdd.go]
-    cases hc : m.get c with
-    | true => rfl
-    | false =>
-      simp only [Bool.false_eq_true, if_false]
-      apply graphFindAdd_go_bad w rest (m.set c) (fun c' hc' => hb c' (List.mem_cons_of_mem _ hc'))
-      rintro ⟨hnd, hall⟩
-      apply h
-      have hne : ∀ c' ∈ rest, c' ≠ c ∧ m.get c' = false := by
-        intro c' hc'
-        have := hall c' hc'
-        rw [Mask.get_set] at this
-        have hlt : c' < 256 := hb c' (List.mem_cons_of_mem _ hc')
-        by_cases he : c' = c
-        · subst he; simp [hlt] at this
-        · exact ⟨he, by simpa [he] using this⟩
-      refine ⟨List.nodup_cons.2 ⟨fun hm => (hne c hm).1 rfl, hnd⟩, ?_⟩
-      intro c' hc'
-      rcases List.mem_cons.1 hc' with rfl | hm
-      · exact hc
-      · exact (hne c' hm).2
-
-/-- **rejection** of `graph.FindAdd`: a component that is present (or listed twice) is refused
-    with `alreadyHas`, state unchanged -/
-theorem graphFindAdd_bad (m : Mask) (add : List Comp) (w : World)
-    (hb : ∀ (c : Comp), c ∈ add → c < 256)
-    (h : ¬ (add.Nodup ∧ ∀ (c : Comp), c ∈ add → m.get c = false)) :
-    graphFindAdd m add w = .panic .alreadyHas w := graphFindAdd_go_bad w add m hb h
-
-theorem findOrCreateArch_tables {w w' : World} {mask : Mask} {a : Nat}
-    (h : findOrCreateArch mask w = .ok a w') : w'.tables = w.tables := by
-  unfold findOrCreateArch at h
-  split at h
-  · injection h with _ h2; subst h2; rfl
-  · obtain ⟨w1, hok, _, ht, _⟩ := createArchetype_ok mask w
-    rw [hok] at h
-    injection h with _ h2; subst h2; exact ht
-
-theorem findOrCreateArch_never_panics (mask : Mask) (w : World) :
-    ∃ a w', findOrCreateArch mask w = .ok a w' := by
-  unfold findOrCreateArch
-  split
-  · exact ⟨_, _, rfl⟩
-  · exact ⟨_, _, createArchetype_eq mask w⟩
-
-/-- when the old table lists no relation, `findOrCreateTableRemove` is the mask walk followed
-    by the tail of `findOrCreateTableAdd` for the cleared mask -/
-theorem findOrCreateTableRemove_eq_add (oldT : Nat) (startMask m : Mask) (rem : List Comp)
-    (w : World) (hg : graphFindRemove startMask rem w = .ok m w)
-    (hrel0 : (w.tbl oldT).relIDs = []) :
-    findOrCreateTableRemove oldT startMask rem w =
-      match findOrCreateTableAdd oldT m [] [] w with
-      | .ok r w' => .ok (r.1, r.2.1, r.2.2, false) w'
-      | .panic k w' => .panic k w' := by
-  obtain ⟨a, w1, ha⟩ := findOrCreateArch_never_panics m w
-  have ht : w1.tbl oldT = w.tbl oldT := by simp only [tbl, findOrCreateArch_tables ha]
-  simp only [findOrCreateTableRemove, findOrCreateTableAdd, bind, M.bind, hg, graphFindAdd,
-    graphFindAdd.go, ha, M.get, ht, hrel0, relsForAdd, List.filter_nil, List.any_nil,
-    List.isEmpty_nil, if_true]
-  cases hgt : getTable a [] w1 with
-  | panic k s => rfl
-  | ok r s =>
-    cases r with
-    | some t => rfl
-    | none =>
-      simp only
-      cases hct : createTable a [] s with
-      | panic k s2 => simp only [M.bind, hct]
-      | ok t s2 => simp only [M.bind, hct, pure, M.pure]
-
-end World
-
-/-! ## 4. the table lookup for a given mask, and `findOrCreateTableRemove_spec` -/
-
-/-- the returned table differs from `oldT` whenever the new mask differs from the mask of
-    `oldT`'s archetype -/
-theorem FoundOrCreated.ne_old {w w' : World} {m : Mask} {t a : Nat} (fc : FoundOrCreated w w' m t a)
-    (h : SInv w) {oldT : Nat} (hold : oldT < w.tables.length)
-    (hm : m ≠ (w.arch (w.tbl oldT).arch).mask) : t ≠ oldT := by
-  intro hto
-  subst hto
-  have harch : (w.tbl t).arch = a := by rw [← (fc.rows t hold).2.2.2.1]; exact fc.tblArch
-  obtain ⟨A, hA, _⟩ := h.tblArch t _ (get_of_lt hold)
-  have halt0 : a < w.archetypes.length := by rw [← harch]; exact alt_of_get hA
-  apply hm
-  rw [← fc.archMask, fc.masks a halt0, harch]
-
-/-- **the lookup tail, total** (relation-free fragment): for a mask `m` of registered components,
-    `findOrCreateTableAdd oldT m [] []` returns the table of the archetype with mask `m`
-    (creating archetype and table as needed); all tables that existed are unchanged. -/
-theorem SInv.foc_nil_spec {w : World} (h : SInv w) (hI : IdxInv w)
-    (hnoRel : ∀ c : Comp, (w.kinds.getD c {}).isRel = false) {oldT : Nat}
-    (hrel0 : (w.tbl oldT).relIDs = []) {m : Mask}
-    (hreg : ∀ c : Nat, m.get c = true → c < w.kinds.length) :
-    ∃ (t a : Nat) (w' : World),
-      World.findOrCreateTableAdd oldT m [] [] w = .ok (t, a, m) w' ∧
-      FoundOrCreated w w' m t a ∧ IdxInv w' ∧
-      (∀ (t' : Nat), t' < w.tables.length → w'.tables[t']? = w.tables[t']?) := by
-  have hg : graphFindAdd m [] w = .ok m w := rfl
-  obtain ⟨a, w1, ha, hmid, hset, halt, hmask, hpre, hlen, ht, hk, he, hp, _, hcase⟩ :=
-    h.findOrCreateArch m hreg
-  have hA1 := aget_of_lt halt
-  have hnr1 : (w1.arch a).hasRelations = false :=
-    hmid.hasRelations_false_of_kinds hA1 (fun c _ => by rw [hk]; exact hnoRel c)
-  have hall : relsForAdd (w1.tbl oldT) [] = [] := by
-    have : w1.tbl oldT = w.tbl oldT := by simp only [tbl, ht]
-    simp [relsForAdd, this, hrel0]
-  have hgt := getTable_noRel (a := a) [] hnr1
-  have hres : ∃ (t : Nat) (w' : World),
-      World.findOrCreateTableAdd oldT m [] [] w = .ok (t, a, m) w' ∧
-      (∀ (t' : Nat), t' < w.tables.length → w'.tables[t']? = w.tables[t']?) := by
-    cases hem : (w1.arch a).tables.tables.isEmpty with
-    | false =>
-      refine ⟨(w1.arch a).tables.tables.getD 0 0, w1, ?_, fun t' _ => by rw [ht]⟩
-      simp only [World.findOrCreateTableAdd, bind, M.bind, hg, ha, M.get, hall, hgt, hem,
-        Bool.false_eq_true, if_false, pure, M.pure]
-    | true =>
-      have hemp : (w1.arch a).tables.tables = [] := List.isEmpty_iff.1 hem
-      have h0 : (w1.arch a).numRel = 0 := by simpa [Archetype.hasRelations] using hnr1
-      have hct0 := createTable_of_valid (a := a) (rels := []) (w := w1) (by omega)
-        (by intro r hr; cases hr) (by intro r hr; cases hr)
-      obtain ⟨A2, Tn, ta, r1, _, _, _⟩ := hmid.createTableS_added hA1 (rels := [])
-        (by intro r hr; cases hr) (by intro r hr; cases hr) (fun _ => hemp)
-      have hTn : (createTableS w1 a []).1.tbl (createTableS w1 a []).2 = Tn := tbl_of_get ta.tget_self
-      obtain ⟨w2, hw2⟩ := cacheAddTable_noRel (createTableS w1 a []).1 Tn
-        (by simp [Table.hasRelations, r1])
-      have hct : World.createTable a [] w1 = .ok (createTableS w1 a []).2 w2 := by
-        rw [hct0, ctFinish, hTn, hw2]
-      have ct := hmid.createTable halt (fun _ => hemp) hct
-      refine ⟨(createTableS w1 a []).2, w2, ?_, ?_⟩
-      · simp only [World.findOrCreateTableAdd, bind, M.bind, hg, ha, M.get, hall, hgt, hem,
-          if_true, hct, pure, M.pure]
-      · intro t' hlt
-        have hne : t' ≠ (createTableS w1 a []).2 := by
-          rcases ct.kind with ⟨k1, _⟩ | ⟨_, _, k3, _⟩
-          · rw [k1, ht]; omega
-          · rw [(hmid.nonRelLe a _ hA1 hnr1).2] at k3; cases k3
-        rw [ct.others t' hne, ht]
-  obtain ⟨t, w', hok, hsame⟩ := hres
-  obtain ⟨_, hfc⟩ := h.findOrCreateTableAdd_of_ok (add := []) hreg (by intro c hc; cases hc) (by
-    intro b B hB _ hr
-    exfalso
-    have := h.toSInvMid.hasRelations_false_of_kinds hB (fun c _ => hnoRel c)
-    rw [this] at hr; cases hr) hok
-  exact ⟨t, a, w', hok, hfc, hfc.idx hI, hsame⟩
-
-/-- **`findOrCreateTableRemove`, total form, relation-free fragment.**  `oldT` is an existing
-    table, `startMask` its archetype's mask; `rem` are distinct components all of which are in
-    `startMask`.  Then `findOrCreateTableRemove` succeeds and returns a table `t` of an archetype
-    `a` with mask `rem.foldl Mask.clear startMask` (no relation was removed) such that
-    `FoundOrCreated` holds; every table that existed before is completely unchanged, and
-    `t ≠ oldT` unless `rem = []`. -/
-theorem SInv.findOrCreateTableRemove_spec {w : World} (h : SInv w) (hI : IdxInv w)
-    (hnoRel : ∀ c : Comp, (w.kinds.getD c {}).isRel = false) {oldT : Nat}
-    (hold : oldT < w.tables.length) {startMask : Mask}
-    (hstart : startMask = (w.arch (w.tbl oldT).arch).mask)
-    {rem : List Comp} (hnd : rem.Nodup) (hpres : ∀ (c : Comp), c ∈ rem → startMask.get c = true) :
-    ∃ (t a : Nat) (w' : World),
-      World.findOrCreateTableRemove oldT startMask rem w =
-        .ok (t, a, rem.foldl Mask.clear startMask, false) w' ∧
-      FoundOrCreated w w' (rem.foldl Mask.clear startMask) t a ∧ IdxInv w' ∧ Untouched w w' ∧
-      (∀ (t' : Nat), t' < w.tables.length → w'.tables[t']? = w.tables[t']?) ∧
-      (rem ≠ [] → t ≠ oldT) := by
-  have hT0 := get_of_lt hold
-  obtain ⟨Aold, hAold, _⟩ := h.tblArch oldT _ hT0
-  have hAoldE := arch_of_get hAold
-  have hnrOld : (w.arch (w.tbl oldT).arch).hasRelations = false := by
-    rw [hAoldE]; exact h.toSInvMid.hasRelations_false_of_kinds hAold (fun c _ => hnoRel c)
-  have hrel0 : (w.tbl oldT).relIDs = [] := h.relIDs_nil hT0 hnrOld
-  have hg := graphFindRemove_ok startMask rem w hpres hnd
-  have hreg : ∀ c : Nat, (rem.foldl Mask.clear startMask).get c = true → c < w.kinds.length := by
-    intro c hc
-    rw [Mask.get_foldl_clear] at hc
-    have hs : startMask.get c = true := by
-      cases hs : startMask.get c with
-      | true => rfl
-      | false => rw [hs] at hc; simp at hc
-    rw [hstart, hAoldE] at hs
-    exact h.maskReg _ Aold hAold c hs
-  obtain ⟨t, a, w', hok, hfc, hI', hsame⟩ := h.foc_nil_spec hI hnoRel hrel0 hreg
-  refine ⟨t, a, w', ?_, hfc, hI', findOrCreateTableAdd_untouched hok, hsame, ?_⟩
-  · rw [findOrCreateTableRemove_eq_add oldT startMask _ rem w hg hrel0, hok]
-  · intro hne
-    apply hfc.ne_old h hold
-    cases rem with
-    | nil => exact absurd rfl hne
-    | cons c rest =>
-      intro heq
-      have h1 : (List.foldl Mask.clear startMask (c :: rest)).get c = false := by
-        rw [Mask.get_foldl_clear]; simp
-      rw [heq, ← hstart, hpres c List.mem_cons_self] at h1
-      cases h1
-
-/-- **rejection** of `findOrCreateTableRemove`: a component that is absent from the start mask
-    (or listed twice) is refused with `missing`, state unchanged -/
-theorem findOrCreateTableRemove_reject (oldT : Nat) (startMask : Mask) (rem : List Comp) (w : World)
-    (h : ¬ (rem.Nodup ∧ ∀ (c : Comp), c ∈ rem → startMask.get c = true)) :
-    World.findOrCreateTableRemove oldT startMask rem w = .panic .missing w := by
-  simp only [World.findOrCreateTableRemove, bind, M.bind, graphFindRemove_bad startMask rem w h]
-
-/-- **rejection** of `findOrCreateTableAdd` (decision form): a component that is present in the
-    start mask (or listed twice) is refused with `alreadyHas`, state unchanged -/
-theorem findOrCreateTableAdd_reject' (oldT : Nat) (startMask : Mask) (add : List Comp)
-    (rels : List RelID) (w : World) (hb : ∀ (c : Comp), c ∈ add → c < 256)
-    (h : ¬ (add.Nodup ∧ ∀ (c : Comp), c ∈ add → startMask.get c = false)) :
-    World.findOrCreateTableAdd oldT startMask add rels w = .panic .alreadyHas w := by
-  simp only [World.findOrCreateTableAdd, bind, M.bind, graphFindAdd_bad startMask add w hb h]
-
-/-! ## 5. the tail of `add` / `remove`: "add `e` to `newT`, then `moveRow`" -/
-
-namespace Table
-
-theorem colIdx_get {T : Table} {c : Comp} {i : Nat} (h : T.colIdx c = some i) :
-    T.ids[i]? = some c := by
-  unfold colIdx at h
-  simp only at h
-  split at h
-  · rename_i hlt
-    injection h with h; subst h
-    rw [List.getElem?_eq_getElem hlt]
-    congr 1
-    exact List.getElem_idxOf hlt
-  · cases h
-
-theorem has_iff_mem {T : Table} {c : Comp} : T.has c = true ↔ c ∈ T.ids := by
-  rw [← colIdx_some_iff_mem]
-  simp only [Table.has, Option.isSome_iff_exists]
-
-end Table
-
-/-- the zero-size flag of a column is the registry's flag of its component -/
-theorem SInvMid.tbl_zst {w : World} (h : SInvMid w) {t : Nat} {T : Table}
-    (hT : w.tables[t]? = some T) {c : Comp} {i : Nat} (hc : T.colIdx c = some i) :
-    T.zst.getD i false = (w.kinds.getD c {}).zst := by
-  obtain ⟨A, hA, e1, _, e3, _⟩ := h.tblArch t T hT
-  have hg := Table.colIdx_get hc
-  rw [e1] at hg
-  rw [e3]
-  exact (h.kindsOf _ A i c hA hg).2
-
-namespace World
-
-theorem addMove_fields (w : World) (e : Ent) (oldT row newT : Nat) (keep : Mask) :
-    (addMove w e oldT row newT keep).pool = w.pool ∧
-    (addMove w e oldT row newT keep).kinds = w.kinds ∧
-    (addMove w e oldT row newT keep).archetypes = w.archetypes ∧
-    Untouched w (addMove w e oldT row newT keep) := by
-  refine ⟨?_, ?_, ?_, ?_, ?_, ?_, ?_⟩ <;>
-  · simp only [addMove, moveRowW]
-    split <;> rfl
-
-theorem addMove_tables (w : World) (e : Ent) (oldT row newT : Nat) (keep : Mask)
-    (hne : oldT ≠ newT) (hnl : newT < w.tables.length) (hel : e.id < w.entities.length) :
-    (addMove w e oldT row newT keep).tables =
-      (w.tables.set oldT ((w.tbl oldT).remove row).1).set newT
-        (copyRow (w.tbl oldT) row (w.tbl newT).len keep ((w.tbl newT).add e).1) := by
-  rw [(addMove_decomp w e oldT row newT keep hne hnl hel).1]
-  simp only [setTbl_tables, place_tables, unplace_tables, List.set_set]
-
-theorem addMove_tbl (w : World) (e : Ent) (oldT row newT : Nat) (keep : Mask)
-    (hne : oldT ≠ newT) (hnl : newT < w.tables.length) (hol : oldT < w.tables.length)
-    (hel : e.id < w.entities.length) :
-    (addMove w e oldT row newT keep).tables.length = w.tables.length ∧
-    (addMove w e oldT row newT keep).tbl oldT = ((w.tbl oldT).remove row).1 ∧
-    (addMove w e oldT row newT keep).tbl newT =
-      copyRow (w.tbl oldT) row (w.tbl newT).len keep ((w.tbl newT).add e).1 ∧
-    ∀ t : Nat, t ≠ oldT → t ≠ newT → (addMove w e oldT row newT keep).tbl t = w.tbl t := by
-  have hT := addMove_tables w e oldT row newT keep hne hnl hel
-  refine ⟨by rw [hT]; simp only [List.length_set], ?_, ?_, ?_⟩
-  · apply tbl_of_get
-    rw [hT, List.getElem?_set_ne (Ne.symm hne)]
-    exact List.getElem?_set_self hol
-  · apply tbl_of_get
-    rw [hT]
-    exact List.getElem?_set_self (by rw [List.length_set]; exact hnl)
-  · intro t h1 h2
-    simp only [tbl, hT, List.getD_eq_getElem?_getD, List.getElem?_set_ne (Ne.symm h2),
-      List.getElem?_set_ne (Ne.symm h1)]
-
-theorem addMove_lookup {w : World} (h : IdxInv w) {e : Ent} {oldT row newT : Nat} (keep : Mask)
-    (hne : oldT ≠ newT) (he : w.entities[e.id]? = some (oldT, row)) (ht : oldT ≠ maxU32)
-    (hnl : newT < w.tables.length) (hb : (w.tbl newT).len + 1 < 2 ^ 32) (i : Nat) :
-    (addMove w e oldT row newT keep).entities[i]? =
-      if i = e.id then some (newT, (w.tbl newT).len)
-      else if row ≠ (w.tbl oldT).len - 1 ∧ i = ((w.tbl oldT).getEntity ((w.tbl oldT).len - 1)).id then
-        some (oldT, row)
-      else w.entities[i]? := by
-  obtain ⟨_, _, hle, _, _, _, _, hune⟩ := h.addMove_steps keep hne he ht hnl hb
-  have hel : e.id < w.entities.length := by
-    rcases Nat.lt_or_ge e.id w.entities.length with h1 | h1
-    · exact h1
-    · rw [List.getElem?_eq_none h1] at he; cases he
-  rw [(addMove_decomp w e oldT row newT keep hne hnl hel).2, setTbl_entities,
-    place_lookup _ e newT hle, hune]
-  by_cases hi : i = e.id
-  · rw [if_pos hi, if_pos hi]
-  · rw [if_neg hi, if_neg hi, unplace_lookup h he ht i, if_neg hi]
-
-theorem addMove_entities_len (w : World) (e : Ent) (oldT row newT : Nat) (keep : Mask) :
-    (addMove w e oldT row newT keep).entities.length = w.entities.length := by
-  rw [addMove, moveRowW_entities]
-  simp only [setTbl_entities, List.length_set]
-  split <;> simp only [List.length_modify]
-
-end World
-
-/-- an extension of the world by new tables (entity index and old tables unchanged) reads the
-    same for every entity -/
-theorem same_of_prefix {w w1 : World} (hI : IdxInv w) (he : w1.entities = w.entities)
-    (hs : ∀ (t' : Nat), t' < w.tables.length → w1.tables[t']? = w.tables[t']?) (j : Nat) :
-    SameEnt w w1 j := by
-  cases hx : w.entities[j]? with
-  | none => exact same_of_entry (by rw [he]) (fun t r hh => by rw [hx] at hh; cases hh)
-  | some p =>
-    obtain ⟨t, r⟩ := p
-    by_cases ht : t = maxU32
-    · exact same_of_entry (by rw [he]) (fun t r hh => by rw [hx] at hh; cases hh; exact ht)
-    · obtain ⟨T, hT, _, _⟩ := hI.idxRow j t r hx ht
-      exact same_of_rows hx (by rw [he]; exact hx) ht ht hT (by rw [hs t (lt_of_get hT)]; exact hT)
-        rfl (fun _ => rfl)
-
-/-- what the move of `e` from its table `oldT` to the table `newT` of the mask `newMask`
-    guarantees -/
-structure MovePost (w : World) (fl : List Nat) (e : Ent) (oldMask newMask : Mask) (w' : World) :
-    Prop where
-  cinv : CInv w' fl
-  unlocked : w'.isLocked = w.isLocked
-  kinds : w'.kinds = w.kinds
-  pool : w'.pool = w.pool
-  maxComps : w'.maxComps = w.maxComps
-  /-- `Alive` is unchanged for every handle -/
-  aliveSame : ∀ x : Ent, w'.alive x = w.alive x
-  /-- the entity has exactly the components of the new mask -/
-  comps : compsOf w' e.id = some (newMask.toList w.kinds.length)
-  /-- a component of the new mask keeps its value if the old mask had it, else reads zero -/
-  vals : ∀ c : Comp, c < w.kinds.length → newMask.get c = true →
-    valOf w' e.id c = if oldMask.get c = true then valOf w e.id c else some 0
-  /-- every other entity is unchanged -/
-  frame : ∀ j : Nat, j ≠ e.id → SameEnt w w' j
-  /-- at most one table is created; no table grows by more than one row -/
-  tablesLen : w'.tables.length ≤ w.tables.length + 1
-  entitiesLen : w'.entities.length = w.entities.length
-
-namespace World
-
-theorem createTableS_tables_len (w : World) (a : Nat) (rels : List RelID) :
-    (createTableS w a rels).1.tables.length ≤ w.tables.length + 1 := by
-  unfold createTableS
-  split
-  · simp [modArch, setArch, modTbl, setTbl]
-  · simp [modArch, setArch]
-
-theorem findOrCreateTableAdd_tables_len {oldT : Nat} {startMask : Mask} {add : List Comp}
-    {rels : List RelID} {w w' : World} {r : Nat × Nat × Mask}
-    (hok : findOrCreateTableAdd oldT startMask add rels w = .ok r w') :
-    w'.tables.length ≤ w.tables.length + 1 := by
-  obtain ⟨t, a, mask⟩ := r
-  have hg : graphFindAdd startMask add w = .ok (add.foldl Mask.set startMask) w := by
-    rcases graphFindAdd_cases startMask add w with hg | ⟨hg, _⟩
-    · exact hg
-    · simp only [World.findOrCreateTableAdd, bind, M.bind, hg] at hok; cases hok
-  cases ha : findOrCreateArch (add.foldl Mask.set startMask) w with
-  | panic k s => simp only [World.findOrCreateTableAdd, bind, M.bind, hg, ha] at hok; cases hok
-  | ok a1 w1 =>
-    obtain ⟨_, _, hbr⟩ := findOrCreateTableAdd_ok_inv hg ha hok
-    have u1 := findOrCreateArch_tables ha
-    rcases hbr with ⟨_, rfl⟩ | ⟨_, hct⟩
-    · rw [u1]; exact Nat.le_succ _
-    · obtain ⟨_, _, _, _, h5⟩ := createTable_ok hct
-      rw [(cacheAddTable_frame h5).2.1, ← u1]
-      exact createTableS_tables_len w1 _ _
-
-end World
-
-/-- **the move**: `e` sits in row `row` of `oldT`; `w1` is the world after the table lookup
-    (`FoundOrCreated`, old tables unchanged) which returned the table `newT ≠ oldT` of the mask
-    `newMask`.  Then "add `e` to `newT`, `moveRow`" keeps the invariant, gives `e` exactly the
-    components of `newMask` with the old values where the old mask had the component and zero
-    otherwise, and leaves every other entity unchanged. -/
-theorem CInv.move_spec {w : World} {fl : List Nat} (h : CInv w fl) {e : Ent} {oldT row : Nat}
-    (he : w.entities[e.id]? = some (oldT, row)) (ht : oldT ≠ maxU32)
-    {w1 : World} {newT a : Nat} {newMask : Mask} (fc : FoundOrCreated w w1 newMask newT a)
-    (hu : Untouched w w1)
-    (hsame : ∀ (t' : Nat), t' < w.tables.length → w1.tables[t']? = w.tables[t']?)
-    (hne : newT ≠ oldT) (hlen1 : w1.tables.length ≤ w.tables.length + 1)
-    (hfew : w.tables.length < maxU32) (hrows : ∀ t : Nat, (w.tbl t).len + 1 < 2 ^ 32) :
-    MovePost w fl e (w.arch (w.tbl oldT).arch).mask newMask (addMove w1 e oldT row newT newMask) ∧
-    ((addMove w1 e oldT row newT newMask).arch a).mask = newMask := by
-  obtain ⟨holdlt, hrow, hid, halt, hids, _⟩ := h.table_of_entry he ht
-  have hI1 : IdxInv w1 := fc.idx h.idx
-  have he1 : w1.entities[e.id]? = some (oldT, row) := by rw [fc.entities]; exact he
-  have hel : e.id < w1.entities.length := by
-    rcases Nat.lt_or_ge e.id w1.entities.length with h1 | h1
-    · exact h1
-    · rw [List.getElem?_eq_none h1] at he1; cases he1
-  have hfew1 : w1.tables.length ≤ maxU32 := by omega
-  have hnl : newT < w1.tables.length := fc.tblLt
-  have hnm : newT ≠ maxU32 := by omega
-  have hold1 : oldT < w1.tables.length := Nat.lt_of_lt_of_le holdlt fc.tablesLen
-  have htbl_old : w1.tbl oldT = w.tbl oldT := by
-    simp only [tbl, List.getD_eq_getElem?_getD, hsame oldT holdlt]
-  have hb : (w1.tbl newT).len + 1 < 2 ^ 32 := by
-    rcases Nat.lt_or_ge newT w.tables.length with h1 | h1
-    · have : w1.tbl newT = w.tbl newT := by
-        simp only [tbl, List.getD_eq_getElem?_getD, hsame newT h1]
-      rw [this]; exact hrows newT
-    · rw [fc.newEmpty h1]; decide
-  have hne' : oldT ≠ newT := Ne.symm hne
-  -- the invariant in `w1`
-  have h1 : CInv w1 fl := h.transfer hI1 fc.sinv fc.pool
-    ⟨by rw [fc.entities], fun i => Or.inl (by rw [fc.entities])⟩ fc.kinds hu hfew1
-  -- the moved world
-  obtain ⟨fpool, fkinds, farchs, fu⟩ := addMove_fields w1 e oldT row newT newMask
-  obtain ⟨tlen, tOld, tNew, tOther⟩ := addMove_tbl w1 e oldT row newT newMask hne' hnl hold1 hel
-  have hL := addMove_lookup hI1 newMask hne' he1 ht hnl hb
-  have hI' : IdxInv (addMove w1 e oldT row newT newMask) := hI1.addMove newMask hne' he1 ht hnl hb
-  have hS' : SInv (addMove w1 e oldT row newT newMask) := by
-    apply fc.sinv.of_sameMeta farchs fkinds tlen
-    intro t _
-    by_cases h1 : t = oldT
-    · subst h1; rw [tOld]; exact Table.remove_sameMeta _ _
-    · by_cases h2 : t = newT
-      · subst h2; rw [tNew]
-        exact (Table.add_sameMeta _ e).trans (copyRow_sameMeta _ _ _ _ _)
-      · rw [tOther t h1 h2]; exact Table.SameMeta.refl _
-  have hIS : IdxSame w1 (addMove w1 e oldT row newT newMask) := by
-    refine ⟨addMove_entities_len _ _ _ _ _ _, fun i => ?_⟩
-    rw [hL i]
-    by_cases hi : i = e.id
-    · rw [if_pos hi, hi]
-      exact Or.inr ⟨oldT, row, newT, _, he1, ht, rfl, hnm⟩
-    · rw [if_neg hi]
-      by_cases hsw : row ≠ (w1.tbl oldT).len - 1 ∧
-          i = ((w1.tbl oldT).getEntity ((w1.tbl oldT).len - 1)).id
-      · rw [if_pos hsw]
-        have hse := hI1.rowIdx oldT _ ((w1.tbl oldT).len - 1) (get_of_lt hold1)
-          (by rw [htbl_old]; omega)
-        rw [← hsw.2] at hse
-        exact Or.inr ⟨oldT, _, oldT, row, hse, ht, rfl, ht⟩
-      · rw [if_neg hsw]; exact Or.inl rfl
-  have hC' : CInv (addMove w1 e oldT row newT newMask) fl :=
-    h1.transfer hI' hS' fpool hIS fkinds fu (by rw [tlen]; exact hfew1)
-  -- the new row of `e`
-  have hent : (addMove w1 e oldT row newT newMask).entities[e.id]? = some (newT, (w1.tbl newT).len) := by
-    rw [hL, if_pos rfl]
-  have htab : (addMove w1 e oldT row newT newMask).tables[newT]? =
-      some ((addMove w1 e oldT row newT newMask).tbl newT) := get_of_lt (by rw [tlen]; exact hnl)
-  have hidsN : ((addMove w1 e oldT row newT newMask).tbl newT).ids = newMask.toList w.kinds.length := by
-    rw [tNew, (copyRow_sameMeta _ _ _ _ _).ids, (Table.add_sameMeta _ e).ids]; exact fc.tblIds
-  have hw1w : ∀ j : Nat, SameEnt w w1 j := same_of_prefix h.idx fc.entities hsame
-  refine ⟨?_, ?_⟩
-  · refine
-      { cinv := hC'
-        unlocked := by
-          show (addMove w1 e oldT row newT newMask).locks.isLocked = w.locks.isLocked
-          rw [fu.locks, hu.locks]
-        kinds := fkinds.trans fc.kinds
-        pool := fpool.trans fc.pool
-        maxComps := fu.maxComps.trans hu.maxComps
-        aliveSame := by intro x; simp only [World.alive, fpool, fc.pool]
-        comps := by
-          simp only [compsOf, hent, hnm, if_false, htab, Option.map_some, hidsN]
-        vals := ?_
-        frame := ?_
-        tablesLen := by rw [tlen]; exact hlen1
-        entitiesLen := by rw [addMove_entities_len, fc.entities] }
-    · intro c hc hm
-      have hcN : (w1.tbl newT).has c = true := by
-        rw [Table.has_iff_mem, fc.tblIds, Mask.mem_toList]; exact ⟨hc, hm⟩
-      have hz : ∀ (c : Comp) (i j : Nat), (w1.tbl oldT).colIdx c = some i →
-          (w1.tbl newT).colIdx c = some j →
-          (w1.tbl newT).zst.getD j false = (w1.tbl oldT).zst.getD i false := by
-        intro c i j hi hj
-        rw [fc.sinv.toSInvMid.tbl_zst (get_of_lt hnl) hj, fc.sinv.toSInvMid.tbl_zst (get_of_lt hold1) hi]
-      rw [move_keeps_values hI1 newMask hne' he1 ht hnl hnm hb hz hcN, (hw1w e.id).1 c, htbl_old]
-      have hhas : (w.tbl oldT).has c = true ↔ (w.arch (w.tbl oldT).arch).mask.get c = true := by
-        rw [Table.has_iff_mem, hids, Mask.mem_toList]
-        exact ⟨fun hh => hh.2, fun hh => ⟨hc, hh⟩⟩
-      by_cases ho : (w.arch (w.tbl oldT).arch).mask.get c = true
-      · rw [if_pos ⟨hm, hhas.2 ho⟩, if_pos ho]
-      · rw [if_neg (fun hh => ho (hhas.1 hh.2)), if_neg ho]
-    · intro j hj
-      have := move_frame hI1 newMask hne' he1 ht hnl hb hj
-      exact (hw1w j).trans this
-  · have : (addMove w1 e oldT row newT newMask).arch a = w1.arch a := by simp only [arch, farchs]
-    rw [this]; exact fc.archMask
-
-/-! ## 6. `World.add` / `World.remove` -/
-
-/-- a component outside the component set reads `none` -/
-theorem valOf_none_of_comps {w : World} {i : Nat} {cs : List Comp} {c : Comp}
-    (h : compsOf w i = some cs) (hc : c ∉ cs) : valOf w i c = none := by
-  unfold compsOf at h
-  unfold valOf
-  cases hx : w.entities[i]? with
-  | none => rfl
-  | some p =>
-    obtain ⟨t, r⟩ := p
-    rw [hx] at h
-    simp only at h ⊢
-    by_cases ht : t = maxU32
-    · rw [if_pos ht]
-    · rw [if_neg ht] at h ⊢
-      cases hT : w.tables[t]? with
-      | none => rfl
-      | some T =>
-        rw [hT] at h
-        simp only [Option.map_some, Option.some.injEq] at h
-        subst h
-        simp only [Option.bind_some, Table.getComp]
-        cases hj : T.colIdx c with
-        | none => rfl
-        | some j => exact absurd (colIdx_some_iff_mem.mp ⟨j, hj⟩) hc
-
-/-- for a live entity the component set is the ascending list of the registered bits of its
-    archetype's mask -/
-theorem CInv.comps_of_live {w : World} {fl : List Nat} (h : CInv w fl) {e : Ent} (h2 : 2 ≤ e.id)
-    (hnf : e.id ∉ fl) (ha : w.alive e = true) :
-    compsOf w e.id = some ((w.maskOf e).toList w.kinds.length) ∧
-    (∀ c : Nat, (w.maskOf e).get c = true → c < w.kinds.length) := by
-  obtain ⟨t, r, he, ht, _⟩ := h.live_entry h2 hnf ha
-  obtain ⟨hlt, _, _, halt, hids, _⟩ := h.table_of_entry he ht
-  have hm : w.maskOf e = (w.arch (w.tbl t).arch).mask := by simp only [maskOf, index_of_get he]
-  constructor
-  · simp only [compsOf, he, ht, if_false, get_of_lt hlt, Option.map_some, hids, hm]
-  · intro c hc
-    rw [hm] at hc
-    exact h.sinv.maskReg _ _ (aget_of_lt halt) c hc
-
-namespace World
-
-theorem addCore_eq (e : Ent) (add : List Comp) (w : World) (hl : w.isLocked = false)
-    (ha : w.alive e = true) (hne : add ≠ []) {oldT row : Nat} (hix : w.index e.id = (oldT, row))
-    {t a : Nat} {m : Mask} {w1 : World}
-    (hfoc : findOrCreateTableAdd oldT (w.arch (w.tbl oldT).arch).mask add [] w = .ok (t, a, m) w1) :
-    addCore e add [] w =
-      .ok ((w.arch (w.tbl oldT).arch).mask, ((addMove w1 e oldT row t m).arch a).mask)
-        (addMove w1 e oldT row t m) := by
-  have hemp : add.isEmpty = false := by
-    cases add with
-    | nil => exact absurd rfl hne
-    | cons _ _ => rfl
-  simp only [addCore, bind, M.bind, checkLocked_unlocked w hl, M.get, M.assert, ha, if_true, hemp,
-    Bool.not_false, hix, hfoc, moveRow_eq, registerTargets, M.modify, List.foldl_nil, pure, M.pure]
-  rfl
-
-theorem removeCore_eq (run : ProbeRunner) (e : Ent) (rem : List Comp) (w : World)
-    (hl : w.isLocked = false) (ha : w.alive e = true) (hne : rem ≠ []) {oldT row : Nat}
-    (hix : w.index e.id = (oldT, row)) {t a : Nat} {m : Mask} {rr : Bool} {w1 : World}
-    (hfoc : findOrCreateTableRemove oldT (w.arch (w.tbl oldT).arch).mask rem w = .ok (t, a, m, rr) w1)
-    (hno : ∀ evt : Nat, w1.obs.hasObservers evt = false) :
-    removeCore run e rem w = .ok () (addMove w1 e oldT row t m) := by
-  have hemp : rem.isEmpty = false := by
-    cases rem with
-    | nil => exact absurd rfl hne
-    | cons _ _ => rfl
-  simp only [removeCore, bind, M.bind, checkLocked_unlocked w hl, M.get, M.assert, ha, if_true, hemp,
-    Bool.not_false, hix, hfoc, hno, Bool.and_false, Bool.or_false, Bool.false_eq_true, if_false,
-    moveRow_eq]
-  rfl
-
-/-- **rejection**: adding a component the entity already has (or one listed twice) panics
-    `alreadyHas` with the state unchanged -/
-theorem addCore_alreadyHas (e : Ent) (add : List Comp) (rels : List RelID) (w : World)
-    (hl : w.isLocked = false) (ha : w.alive e = true) (hne : add ≠ [])
-    (hb : ∀ (c : Comp), c ∈ add → c < 256)
-    (h : ¬ (add.Nodup ∧ ∀ (c : Comp), c ∈ add → (w.maskOf e).get c = false)) :
-    addCore e add rels w = .panic .alreadyHas w := by
-  have hemp : add.isEmpty = false := by
-    cases add with
-    | nil => exact absurd rfl hne
-    | cons _ _ => rfl
-  cases hix : w.index e.id with
-  | mk oldT row =>
-    have hm : w.maskOf e = (w.arch (w.tbl oldT).arch).mask := by simp only [maskOf, hix]
-    rw [hm] at h
-    simp only [addCore, bind, M.bind, checkLocked_unlocked w hl, M.get, M.assert, ha, if_true, hemp,
-      Bool.not_false, hix, findOrCreateTableAdd_reject' oldT _ add rels w hb h]
-
-/-- **rejection**: removing a component the entity lacks (or one listed twice) panics `missing`
-    with the state unchanged -/
-theorem removeCore_missing (run : ProbeRunner) (e : Ent) (rem : List Comp) (w : World)
-    (hl : w.isLocked = false) (ha : w.alive e = true) (hne : rem ≠ [])
-    (h : ¬ (rem.Nodup ∧ ∀ (c : Comp), c ∈ rem → (w.maskOf e).get c = true)) :
-    removeCore run e rem w = .panic .missing w := by
-  have hemp : rem.isEmpty = false := by
-    cases rem with
-    | nil => exact absurd rfl hne
-    | cons _ _ => rfl
-  cases hix : w.index e.id with
-  | mk oldT row =>
-    have hm : w.maskOf e = (w.arch (w.tbl oldT).arch).mask := by simp only [maskOf, hix]
-    rw [hm] at h
-    simp only [removeCore, bind, M.bind, checkLocked_unlocked w hl, M.get, M.assert, ha, if_true, hemp,
-      Bool.not_false, hix, findOrCreateTableRemove_reject oldT _ rem w h]
-
-end World
-
-/-- what `World.add(e, add)` guarantees -/
-structure AddPost (w : World) (fl : List Nat) (e : Ent) (add : List Comp) (w' : World) : Prop where
-  /-- the invariant is kept, with the same free list -/
-  cinv : CInv w' fl
-  unlocked : w'.isLocked = w.isLocked
-  kinds : w'.kinds = w.kinds
-  pool : w'.pool = w.pool
-  maxComps : w'.maxComps = w.maxComps
-  /-- `Alive` is unchanged for every handle -/
-  aliveSame : ∀ x : Ent, w'.alive x = w.alive x
-  /-- the component set is the enlarged mask -/
-  comps : compsOf w' e.id = some ((add.foldl Mask.set (w.maskOf e)).toList w.kinds.length)
-  /-- the components the entity had keep their values -/
-  kept : ∀ c : Comp, (w.maskOf e).get c = true → valOf w' e.id c = valOf w e.id c
-  /-- the added components read the zero value -/
-  added : ∀ c : Comp, c ∈ add → valOf w' e.id c = some 0
-  /-- every other entity is unchanged -/
-  frame : ∀ j : Nat, j ≠ e.id → SameEnt w w' j
-  tablesLen : w'.tables.length ≤ w.tables.length + 1
-  entitiesLen : w'.entities.length = w.entities.length
-
-/-- **addCore_spec** — `World.add(e, add)` for a live handle `e` (ID ≥ 2, not on the free list),
-    `add` non-empty, distinct, registered, none of them in the entity's mask, on an unlocked world
-    whose table count and row counts leave room for one more. -/
-theorem addCore_spec {w : World} {fl : List Nat} (h : CInv w fl) (hl : w.isLocked = false)
-    {e : Ent} (h2 : 2 ≤ e.id) (hnf : e.id ∉ fl) (ha : w.alive e = true)
-    {add : List Comp} (hne : add ≠ []) (hnd : add.Nodup)
-    (hreg : ∀ (c : Comp), c ∈ add → c < w.kinds.length)
-    (hnew : ∀ (c : Comp), c ∈ add → (w.maskOf e).get c = false)
-    (hfew : w.tables.length < maxU32) (hrows : ∀ t : Nat, (w.tbl t).len + 1 < 2 ^ 32) :
-    ∃ w', addCore e add [] w = .ok (w.maskOf e, add.foldl Mask.set (w.maskOf e)) w' ∧
-      AddPost w fl e add w' := by
-  obtain ⟨oldT, row, he, ht, _⟩ := h.live_entry h2 hnf ha
-  have hix := index_of_get he
-  have hm : w.maskOf e = (w.arch (w.tbl oldT).arch).mask := by simp only [maskOf, hix]
-  obtain ⟨holdlt, _, _, halt, _, _⟩ := h.table_of_entry he ht
-  have hb256 : ∀ (c : Comp), c ∈ add → c < 256 := fun c hc => h.reg_lt_256 (hreg c hc)
-  obtain ⟨t, a, w1, hok, fc, _, hsame, hneT⟩ :=
-    h.sinv.findOrCreateTableAdd_spec h.idx holdlt (startMask := w.maskOf e) hm (h.noRelArch' halt)
-      hnd hnew hreg (fun c _ => h.noRelKinds c)
-  have hu := findOrCreateTableAdd_untouched hok
-  have hlen1 := findOrCreateTableAdd_tables_len hok
-  obtain ⟨mp, hma⟩ := h.move_spec he ht fc hu hsame (hneT hne hb256) hlen1 hfew hrows
-  have hok' := hok
-  rw [hm] at hok'
-  have heq := addCore_eq e add w hl ha hne hix hok'
-  rw [← hm] at heq
-  rw [hma] at heq
-  refine ⟨_, heq, ?_⟩
-  · rw [← hm] at mp
-    exact
-      { cinv := mp.cinv
-        unlocked := mp.unlocked
-        kinds := mp.kinds
-        pool := mp.pool
-        maxComps := mp.maxComps
-        aliveSame := mp.aliveSame
-        comps := mp.comps
-        kept := by
-          intro c hc
-          have hlt := (h.comps_of_live h2 hnf ha).2 c hc
-          have hn : (add.foldl Mask.set (w.maskOf e)).get c = true := by
-            rw [Mask.get_ofList_foldl, hc]; rfl
-          rw [mp.vals c hlt hn, if_pos hc]
-        added := by
-          intro c hc
-          have hn : (add.foldl Mask.set (w.maskOf e)).get c = true := by
-            rw [Mask.get_ofList_foldl]; simp [hb256 c hc, hc]
-          rw [mp.vals c (hreg c hc) hn, if_neg (by rw [hnew c hc]; simp)]
-        frame := mp.frame
-        tablesLen := mp.tablesLen
-        entitiesLen := mp.entitiesLen }
-
-/-- what `World.remove(e, rem)` guarantees -/
-structure RemovePost (w : World) (fl : List Nat) (e : Ent) (rem : List Comp) (w' : World) : Prop where
-  cinv : CInv w' fl
-  unlocked : w'.isLocked = w.isLocked
-  kinds : w'.kinds = w.kinds
-  pool : w'.pool = w.pool
-  maxComps : w'.maxComps = w.maxComps
-  aliveSame : ∀ x : Ent, w'.alive x = w.alive x
-  /-- the component set is the reduced mask -/
-  comps : compsOf w' e.id = some ((rem.foldl Mask.clear (w.maskOf e)).toList w.kinds.length)
-  /-- the components that stay keep their values -/
-  kept : ∀ c : Comp, (w.maskOf e).get c = true → c ∉ rem → valOf w' e.id c = valOf w e.id c
-  /-- the removed components are gone -/
-  gone : ∀ c : Comp, c ∈ rem → valOf w' e.id c = none
-  frame : ∀ j : Nat, j ≠ e.id → SameEnt w w' j
-  tablesLen : w'.tables.length ≤ w.tables.length + 1
-  entitiesLen : w'.entities.length = w.entities.length
-
-/-- **removeCore_spec** — `World.remove(e, rem)` for a live handle, `rem` non-empty, distinct,
-    all of them in the entity's mask (no observers: the event block is skipped; the callback
-    runner is not consulted). -/
-theorem removeCore_spec (run : ProbeRunner) {w : World} {fl : List Nat} (h : CInv w fl)
-    (hl : w.isLocked = false) {e : Ent} (h2 : 2 ≤ e.id) (hnf : e.id ∉ fl) (ha : w.alive e = true)
-    {rem : List Comp} (hne : rem ≠ []) (hnd : rem.Nodup)
-    (hpres : ∀ (c : Comp), c ∈ rem → (w.maskOf e).get c = true)
-    (hfew : w.tables.length < maxU32) (hrows : ∀ t : Nat, (w.tbl t).len + 1 < 2 ^ 32) :
-    ∃ w', removeCore run e rem w = .ok () w' ∧ RemovePost w fl e rem w' := by
-  obtain ⟨oldT, row, he, ht, _⟩ := h.live_entry h2 hnf ha
-  have hix := index_of_get he
-  have hm : w.maskOf e = (w.arch (w.tbl oldT).arch).mask := by simp only [maskOf, hix]
-  obtain ⟨holdlt, _, _, halt, _, _⟩ := h.table_of_entry he ht
-  obtain ⟨t, a, w1, hok, fc, _, hu, hsame, hneT⟩ :=
-    h.sinv.findOrCreateTableRemove_spec h.idx h.noRelKinds holdlt (startMask := w.maskOf e) hm
-      hnd hpres
-  have hlen1 : w1.tables.length ≤ w.tables.length + 1 := by
-    have hrel0 : (w.tbl oldT).relIDs = [] := h.relIDs_nil holdlt
-    have hg := graphFindRemove_ok (w.maskOf e) rem w hpres hnd
-    rw [findOrCreateTableRemove_eq_add oldT _ _ rem w hg hrel0] at hok
-    cases hadd : findOrCreateTableAdd oldT (rem.foldl Mask.clear (w.maskOf e)) [] [] w with
-    | panic k s => rw [hadd] at hok; cases hok
-    | ok r s =>
-      rw [hadd] at hok
-      injection hok with _ hs
-      subst hs
-      exact findOrCreateTableAdd_tables_len hadd
-  obtain ⟨mp, _⟩ := h.move_spec he ht fc hu hsame (hneT hne) hlen1 hfew hrows
-  have hok' := hok
-  rw [hm] at hok'
-  have heq := removeCore_eq run e rem w hl ha hne hix hok' (by rw [hu.obs]; exact h.noObs)
-  rw [← hm] at heq
-  refine ⟨_, heq, ?_⟩
-  rw [← hm] at mp
-  have hgone : ∀ c : Comp, c ∈ rem → (rem.foldl Mask.clear (w.maskOf e)).get c = false := by
-    intro c hc; rw [Mask.get_foldl_clear]; simp [hc]
-  exact
-    { cinv := mp.cinv
-      unlocked := mp.unlocked
-      kinds := mp.kinds
-      pool := mp.pool
-      maxComps := mp.maxComps
-      aliveSame := mp.aliveSame
-      comps := mp.comps
-      kept := by
-        intro c hc hnr
-        have hlt := (h.comps_of_live h2 hnf ha).2 c hc
-        have hn : (rem.foldl Mask.clear (w.maskOf e)).get c = true := by
-          rw [Mask.get_foldl_clear, hc]; simp [hnr]
-        rw [mp.vals c hlt hn, if_pos hc]
-      gone := by
-        intro c hc
-        apply valOf_none_of_comps mp.comps
-        rw [Mask.mem_toList, hgone c hc]
-        simp
-      frame := mp.frame
-      tablesLen := mp.tablesLen
-      entitiesLen := mp.entitiesLen }
-
-/-! ## 7. writes: the value most recently written -/
-
-/-- the value of component `c` after the writes `vals` (in order), starting from `init`:
-    the last pair for `c` wins -/
-def applyVals (init : Val) (vals : List (Comp × Val)) (c : Comp) : Val :=
-  vals.foldl (fun acc (cv : Comp × Val) => if cv.1 = c then cv.2 else acc) init
-
-/-- the last value written to `c` in `vals`, if any -/
-def lastVal : List (Comp × Val) → Comp → Option Val
-  | [], _ => none
-  | cv :: rest, c =>
-    match lastVal rest c with
-    | some v => some v
-    | none => if cv.1 = c then some cv.2 else none
-
-theorem applyVals_cons (init : Val) (cv : Comp × Val) (vals : List (Comp × Val)) (c : Comp) :
-    applyVals init (cv :: vals) c = applyVals (if cv.1 = c then cv.2 else init) vals c := rfl
-
-theorem applyVals_eq_lastVal (vals : List (Comp × Val)) (c : Comp) : ∀ init : Val,
-    applyVals init vals c = (lastVal vals c).getD init := by
-  induction vals with
-  | nil => intro init; rfl
-  | cons cv rest ih =>
-    intro init
-    rw [applyVals_cons, ih]
-    simp only [lastVal]
-    cases lastVal rest c with
-    | some v => rfl
-    | none => by_cases hc : cv.1 = c <;> simp [hc]
-
-theorem lastVal_none_iff (vals : List (Comp × Val)) (c : Comp) :
-    lastVal vals c = none ↔ ∀ cv ∈ vals, cv.1 ≠ c := by
-  induction vals with
-  | nil => simp [lastVal]
-  | cons cv rest ih =>
-    simp only [lastVal, List.mem_cons, forall_eq_or_imp]
-    cases hl : lastVal rest c with
-    | some v =>
-      simp only [reduceCtorEq, false_iff]
-      intro hh
-      rw [ih.mpr hh.2] at hl; cases hl
-    | none =>
-      have := ih.mp hl
-      by_cases hc : cv.1 = c
-      · simp [hc]
-      · simp only [hc, if_false, ne_eq, not_false_eq_true, true_and, true_iff]
-        exact this
-
-/-- `lastVal` is the value of the LAST pair for `c` -/
-theorem lastVal_eq_some_iff (vals : List (Comp × Val)) (c : Comp) (v : Val) :
-    lastVal vals c = some v ↔
-      ∃ pre post, vals = pre ++ (c, v) :: post ∧ ∀ cv ∈ post, cv.1 ≠ c := by
-  induction vals with
-  | nil => simp [lastVal]
-  | cons cv rest ih =>
-    simp only [lastVal]
-    cases hl : lastVal rest c with
-    | some v' =>
-      simp only [Option.some.injEq]
-      constructor
-      · intro hv
-        subst hv
-        obtain ⟨pre, post, he, hp⟩ := ih.mp hl
-        exact ⟨cv :: pre, post, by rw [he]; rfl, hp⟩
-      · rintro ⟨pre, post, he, hp⟩
-        cases pre with
-        | nil =>
-          simp only [List.nil_append, List.cons.injEq] at he
-          have hnone := (lastVal_none_iff rest c).mpr (by rw [he.2]; exact hp)
-          rw [hnone] at hl; cases hl
-        | cons x pre =>
-          simp only [List.cons_append, List.cons.injEq] at he
-          have := ih.mpr ⟨pre, post, he.2, hp⟩
-          rw [hl] at this
-          exact Option.some.inj this
-    | none =>
-      have hnone := (lastVal_none_iff rest c).mp hl
-      by_cases hc : cv.1 = c
-      · simp only [hc, if_true, Option.some.injEq]
-        constructor
-        · intro hv
-          exact ⟨[], rest, by rw [← hv, ← hc]; rfl, hnone⟩
-        · rintro ⟨pre, post, he, hp⟩
-          cases pre with
-          | nil =>
-            simp only [List.nil_append, List.cons.injEq] at he
-            rw [he.1]
-          | cons x pre =>
-            simp only [List.cons_append, List.cons.injEq] at he
-            exact absurd rfl (hnone (c, v) (by rw [he.2]; simp))
-      · simp only [hc, if_false, reduceCtorEq, false_iff]
-        rintro ⟨pre, post, he, hp⟩
-        cases pre with
-        | nil =>
-          simp only [List.nil_append, List.cons.injEq] at he
-          rw [he.1] at hc; exact hc rfl
-        | cons x pre =>
-          simp only [List.cons_append, List.cons.injEq] at he
-          exact absurd rfl (hnone (c, v) (by rw [he.2]; simp))
-
-/-- the cell of component `c` (column `j`) in row `row` after a sequence of writes into that
-    row: unchanged for a zero-size column, otherwise the last value written to `c` -/
-theorem getComp_writeFold (c : Comp) (j row : Nat) : ∀ (vals : List (Comp × Val)) (T : Table),
-    T.Shape → T.colIdx c = some j → row < T.len →
-    (vals.foldl (fun T (cv : Comp × Val) => T.setComp cv.1 row cv.2) T).getComp c row =
-      some (if T.zst.getD j false = true then T.cell j row else applyVals (T.cell j row) vals c)
-  | [], T, _, hj, _ => by
-    simp only [List.foldl_nil, Table.getComp, hj, Option.map_some, applyVals, ite_self]
-  | cv :: vals, T, hS, hj, hrow => by
-    have hw := Table.setComp_writeRel T cv.1 row cv.2 hrow
-    simp only [List.foldl_cons]
-    rw [getComp_writeFold c j row vals _ (hw.shape hS) (by rw [hw.colIdx]; exact hj)
-      (by rw [hw.len]; exact hrow), hw.zst, applyVals_cons]
-    have hcell : (T.setComp cv.1 row cv.2).cell j row =
-        if T.zst.getD j false = true then T.cell j row
-        else if cv.1 = c then cv.2 else T.cell j row := by
-      by_cases hc : cv.1 = c
-      · rw [if_pos hc]
-        simp only [Table.setComp, hc, hj]
-        cases hz : T.zst.getD j false with
-        | true => rw [Table.setCell_zst T j row cv.2 hz]; rfl
-        | false =>
-          simp only [Bool.false_eq_true, if_false]
-          exact Table.setCell_cell_self hS j row cv.2 (Table.colIdx_lt hj) hz
-            (by have := hS.len_le; omega)
-      · rw [if_neg hc, ite_self]
-        have := getComp_setComp_ne T (c := c) (c' := cv.1) (fun hh => hc hh.symm) row cv.2 row
-        simp only [Table.getComp, hw.colIdx, hj, Option.map_some, Option.some.injEq] at this
-        exact this
-    rw [hcell]
-    cases hz : T.zst.getD j false with
-    | true => simp
-    | false => simp
-
-/-- **last write wins**: after `writeVals e vals`, a component `c` the entity has reads the
-    last value written to `c` in `vals` (its old value if `vals` does not mention it); a zero-size
-    component keeps reading what it read before (zero, see `valOf_zst`). -/
-theorem valOf_writeVals {w : World} (h : IdxInv w) (hS : SInvMid w) {e : Ent} {t row : Nat}
-    (he : w.entities[e.id]? = some (t, row)) (ht : t ≠ maxU32) (vals : List (Comp × Val))
-    {c : Comp} {v : Val} (hv : valOf w e.id c = some v) :
-    valOf (writeValsW w e vals) e.id c =
-      some (if (w.kinds.getD c {}).zst = true then v else applyVals v vals c) := by
-  obtain ⟨hT, hrow, _⟩ := h.indexed he ht
-  have hix := index_of_get he
-  have hWV : writeValsW w e vals = w.setTbl t
-      (vals.foldl (fun T (cv : Comp × Val) => T.setComp cv.1 row cv.2) (w.tbl t)) := by
-    simp only [writeValsW, hix]; rfl
-  have hTn : (writeValsW w e vals).tables[t]? = some
-      (vals.foldl (fun T (cv : Comp × Val) => T.setComp cv.1 row cv.2) (w.tbl t)) := by
-    rw [hWV]; exact setTbl_get_self _ (lt_of_get hT)
-  have hEn : (writeValsW w e vals).entities = w.entities := by rw [hWV]; rfl
-  simp only [valOf, he, ht, if_false, hT, Option.bind_some, Table.getComp] at hv
-  cases hj : (w.tbl t).colIdx c with
-  | none => rw [hj] at hv; cases hv
-  | some j =>
-    rw [hj] at hv
-    simp only [Option.map_some, Option.some.injEq] at hv
-    simp only [valOf, hEn, he, ht, if_false, hTn, Option.bind_some]
-    rw [getComp_writeFold c j row vals _ (h.shape t _ hT) hj hrow, hS.tbl_zst hT hj, hv]
-
-/-- a zero-size component reads zero -/
-theorem valOf_zst {w : World} (h : IdxInv w) (hS : SInvMid w) {i : Nat} {c : Comp} {v : Val}
-    (hv : valOf w i c = some v) (hz : (w.kinds.getD c {}).zst = true) : v = 0 := by
-  unfold valOf at hv
-  cases hx : w.entities[i]? with
-  | none => rw [hx] at hv; cases hv
-  | some p =>
-    obtain ⟨t, r⟩ := p
-    rw [hx] at hv
-    simp only at hv
-    by_cases ht : t = maxU32
-    · rw [if_pos ht] at hv; cases hv
-    · rw [if_neg ht] at hv
-      obtain ⟨T, hT, _, _⟩ := h.idxRow i t r hx ht
-      rw [hT] at hv
-      simp only [Option.bind_some, Table.getComp] at hv
-      cases hj : T.colIdx c with
-      | none => rw [hj] at hv; cases hv
-      | some j =>
-        rw [hj] at hv
-        simp only [Option.map_some, Option.some.injEq] at hv
-        rw [← hv]
-        exact (h.shape t T hT).zst_zero j (by rw [hS.tbl_zst hT hj]; exact hz) r
-
-/-- what `writeVals e vals` on a live entity guarantees -/
-structure WritePost (w : World) (fl : List Nat) (e : Ent) (vals : List (Comp × Val)) (w' : World) :
-    Prop where
-  cinv : CInv w' fl
-  unlocked : w'.isLocked = w.isLocked
-  kinds : w'.kinds = w.kinds
-  pool : w'.pool = w.pool
-  maxComps : w'.maxComps = w.maxComps
-  aliveSame : ∀ x : Ent, w'.alive x = w.alive x
-  comps : compsOf w' e.id = compsOf w e.id
-  /-- last write wins (zero-size components are not written) -/
-  vals : ∀ (c : Comp) (v : Val), valOf w e.id c = some v →
-    valOf w' e.id c = some (if (w.kinds.getD c {}).zst = true then v else applyVals v vals c)
-  /-- a component the entity lacks stays absent -/
-  absent : ∀ c : Comp, valOf w e.id c = none → valOf w' e.id c = none
-  frame : ∀ j : Nat, j ≠ e.id → SameEnt w w' j
-  tablesLen : w'.tables.length = w.tables.length
-  entitiesLen : w'.entities.length = w.entities.length
-  rowsLen : ∀ t : Nat, (w'.tbl t).len = (w.tbl t).len
-
-/-- `writeVals` on a live entity keeps the invariant, changes only that entity's values, and the
-    last value written to a component wins -/
-theorem CInv.writeVals {w : World} {fl : List Nat} (h : CInv w fl) {e : Ent} (h2 : 2 ≤ e.id)
-    (hnf : e.id ∉ fl) (ha : w.alive e = true) (vals : List (Comp × Val)) :
-    WritePost w fl e vals (writeValsW w e vals) := by
-  obtain ⟨t, row, he, ht, _⟩ := h.live_entry h2 hnf ha
-  obtain ⟨hT, hrow, _⟩ := h.idx.indexed he ht
-  have hlt := lt_of_get hT
-  have hix := index_of_get he
-  have hw := writeVals_writeRel (w.tbl t) row vals hrow
-  have hWV : writeValsW w e vals = w.setTbl t
-      (vals.foldl (fun T (cv : Comp × Val) => T.setComp cv.1 row cv.2) (w.tbl t)) := by
-    simp only [writeValsW, hix]; rfl
-  have hlen : (writeValsW w e vals).tables.length = w.tables.length := by
-    rw [hWV, setTbl_tables, List.length_set]
-  have htbl : ∀ t' : Nat, Table.SameMeta (w.tbl t') ((writeValsW w e vals).tbl t') ∧
-      ((writeValsW w e vals).tbl t').len = (w.tbl t').len := by
-    intro t'
-    by_cases htt : t' = t
-    · subst htt
-      rw [hWV, setTbl_tbl_self _ hlt]
-      exact ⟨writeFold_sameMeta row vals _, hw.len⟩
-    · rw [hWV, setTbl_tbl_ne w _ (Ne.symm htt)]
-      exact ⟨Table.SameMeta.refl _, rfl⟩
-  obtain ⟨f1, f2, f3⟩ := write_frame h.idx e vals he ht
-  have hI' := h.idx.writeVals e vals he ht
-  have hS' : SInv (writeValsW w e vals) :=
-    h.sinv.of_sameMeta rfl rfl hlen (fun t' _ => (htbl t').1)
-  exact
-    { cinv := h.transfer hI' hS' rfl ⟨rfl, fun _ => Or.inl rfl⟩ rfl ⟨rfl, rfl, rfl, rfl⟩
-        (by rw [hlen]; exact h.fewTables)
-      unlocked := rfl
-      kinds := rfl
-      pool := rfl
-      maxComps := rfl
-      aliveSame := fun _ => rfl
-      comps := f3
-      vals := fun c v hv => valOf_writeVals h.idx h.sinv.toSInvMid he ht vals hv
-      absent := by
-        intro c hc
-        cases hcs : compsOf w e.id with
-        | none =>
-          simp only [compsOf, he, ht, if_false, hT, Option.map_some] at hcs
-          cases hcs
-        | some cs =>
-          have hnm : c ∉ cs := by
-            intro hm
-            simp only [compsOf, he, ht, if_false, hT, Option.map_some, Option.some.injEq] at hcs
-            subst hcs
-            obtain ⟨j, hj⟩ := colIdx_some_iff_mem.mpr hm
-            simp only [valOf, he, ht, if_false, hT, Option.bind_some, Table.getComp, hj,
-              Option.map_some] at hc
-            cases hc
-          exact valOf_none_of_comps (f3.trans hcs) hnm
-      frame := f1
-      tablesLen := hlen
-      entitiesLen := rfl
-      rowsLen := fun t' => (htbl t').2 }
-
-/-! ## 8. creation and removal of an entity in an arbitrary table -/
-
-namespace World
-
-theorem placedW_fields (w : World) (t : Nat) (rt : Bool) :
-    (placedW w t rt).kinds = w.kinds ∧ (placedW w t rt).archetypes = w.archetypes ∧
-    (placedW w t rt).maxComps = w.maxComps := by
-  refine ⟨?_, ?_, ?_⟩ <;>
-  · simp only [placedW]
-    split <;> rfl
-
-theorem placedW_isTarget' (w : World) (t : Nat) (rt : Bool) :
-    (placedW w t rt).isTarget =
-      if (w.pool.get).2.id = w.entities.length then w.isTarget ++ [false]
-      else if rt = true then w.isTarget.set (w.pool.get).2.id false else w.isTarget := by
-  simp only [placedW]
-  by_cases hb : (w.pool.get).2.id = w.entities.length
-  · simp only [setTbl_entities, hb, beq_self_eq_true, if_true]; rfl
-  · have : ((w.pool.get).2.id == w.entities.length) = false := by simpa using hb
-    simp only [setTbl_entities, this, hb, if_false, Bool.false_eq_true]; rfl
-
-theorem removeRowOf_fields (w : World) (e : Ent) (t row : Nat) :
-    (removeRowOf w e t row).kinds = w.kinds ∧ (removeRowOf w e t row).archetypes = w.archetypes ∧
-    (removeRowOf w e t row).maxComps = w.maxComps := by
-  refine ⟨?_, ?_, ?_⟩ <;>
-  · simp only [removeRowOf]
-    split <;> rfl
-
-end World
-
-/-- what taking a handle from the pool and placing it in table `t` guarantees -/
-structure PlacedPost (w : World) (fl : List Nat) (t : Nat) (e : Ent) (w' : World) : Prop where
-  /-- the invariant is kept; the free list loses its head (if any) -/
-  cinv : CInv w' fl.tail
-  unlocked : w'.isLocked = w.isLocked
-  kinds : w'.kinds = w.kinds
-  maxComps : w'.maxComps = w.maxComps
-  pool : w'.pool = (w.pool.get).1
-  ge2 : 2 ≤ e.id
-  /-- the ID was not in use: a brand-new slot, or the head of the free list -/
-  unused : (e.id = w.entities.length ∧ fl = [] ∧ e.gen = 0) ∨
-    (e.id < w.entities.length ∧ fl = e.id :: fl.tail)
-  notin : e.id ∉ fl.tail
-  alive : w'.alive e = true
-  aliveFrame : ∀ h : Ent, h.id ≠ e.id → w'.alive h = w.alive h
-  frame : ∀ j : Nat, j ≠ e.id → SameEnt w w' j
-  /-- every previously alive handle is another entity, stays alive and keeps everything -/
-  live : ∀ h : Ent, h.id ∉ fl → w.alive h = true →
-    h ≠ e ∧ h.id ≠ e.id ∧ w'.alive h = true ∧ SameEnt w w' h.id
-  /-- the new entity has the components of table `t`, all reading zero -/
-  comps : compsOf w' e.id = some (w.tbl t).ids
-  zero : ∀ c : Comp, c ∈ (w.tbl t).ids → valOf w' e.id c = some 0
-  tablesLen : w'.tables.length = w.tables.length
-  entitiesLen : w'.entities.length ≤ w.entities.length + 1
-
-/-- **placement**: `placeNew t rt` (the body of `createEntity` / `newEntity`) for an existing
-    table `t` with room for one more row. -/
-theorem CInv.placed {w : World} {fl : List Nat} (h : CInv w fl) {t : Nat}
-    (hlt : t < w.tables.length) (rt : Bool) (hb : (w.tbl t).len + 1 < 2 ^ 32) :
-    PlacedPost w fl t (w.pool.get).2 (placedW w t rt) := by
-  have g := Pool.get_spec w.pool fl h.pool
-  obtain ⟨hE, hT⟩ := placedW_place w t rt
-  obtain ⟨fk, fa, fm⟩ := placedW_fields w t rt
-  have hTt := get_of_lt hlt
-  have hSt := h.idx.shape t _ hTt
-  have htm : t ≠ maxU32 := by have := h.fewTables; omega
-  have hle : (w.pool.get).2.id ≤ w.entities.length := by
-    rw [h.lenEq]; rcases g.cases with ⟨a, _⟩ | ⟨a, _⟩ <;> omega
-  have hL : ∀ i : Nat, (placedW w t rt).entities[i]? =
-      if i = (w.pool.get).2.id then some (t, (w.tbl t).len) else w.entities[i]? := by
-    intro i; rw [hE]; exact place_lookup w _ t hle i
-  have hlen : (placedW w t rt).entities.length =
-      if (w.pool.get).2.id = w.entities.length then w.entities.length + 1
-      else w.entities.length := by
-    rw [hE, place_entities]
-    split
-    · simp only [List.length_append, List.length_singleton]
-    · simp only [List.length_set]
-  have hmemfl : (w.pool.get).2.id = w.entities.length ∨ (w.pool.get).2.id ∈ fl := by
-    rcases g.cases with ⟨a, _⟩ | ⟨_, b, _⟩
-    · left; rw [h.lenEq]; exact a
-    · right; rw [b]; exact List.mem_cons_self
-  have hfree : ∀ t' r' : Nat, w.entities[(w.pool.get).2.id]? = some (t', r') →
-      w.tables.length ≤ t' := by
-    intro t' r' hx
-    rcases hmemfl with a | a
-    · rw [a, List.getElem?_eq_none (Nat.le_refl _)] at hx; cases hx
-    · obtain ⟨r, hr⟩ := h.freeUnindexed _ a
-      rw [hr] at hx
-      obtain ⟨rfl, _⟩ := Prod.mk.inj (Option.some.inj hx)
-      exact h.fewTables
-  have hidx : IdxInv (placedW w t rt) :=
-    (h.idx.place (w.pool.get).2 hlt hb hle (h.idx.fresh_of_free _ hfree)).congr hE hT
-  have hTab : (placedW w t rt).tables = w.tables.set t ((w.tbl t).add (w.pool.get).2).1 := by
-    rw [hT, place_tables]
-  have htlen : (placedW w t rt).tables.length = w.tables.length := by
-    rw [hTab, List.length_set]
-  have htblt : (placedW w t rt).tbl t = ((w.tbl t).add (w.pool.get).2).1 :=
-    tbl_of_get (by rw [hTab]; exact List.getElem?_set_self hlt)
-  have hsinv : SInv (placedW w t rt) := by
-    apply h.sinv.of_sameMeta fa fk htlen
-    intro t' _
-    by_cases htt : t' = t
-    · subst htt; rw [htblt]; exact Table.add_sameMeta _ _
-    · have : (placedW w t rt).tbl t' = w.tbl t' := by
-        simp only [tbl, hTab, List.getD_eq_getElem?_getD, List.getElem?_set_ne (Ne.symm htt)]
-      rw [this]; exact Table.SameMeta.refl _
-  have hst' : (placedW w t rt).pool.stale = [] := by rw [placedW_pool]; exact g.stale h.stale
-  have hliveNe : ∀ x : Ent, x.id ∉ fl → w.alive x = true → x.id ≠ (w.pool.get).2.id := by
-    intro x hnf ha heq
-    have hs := (h.aliveIff x hnf).mp ha
-    have hlt' : x.id < w.entities.length := by
-      rw [h.lenEq]; exact (List.getElem?_eq_some_iff.mp hs).1
-    rcases hmemfl with a | a
-    · omega
-    · exact hnf (heq ▸ a)
-  have hAF : ∀ x : Ent, x.id ≠ (w.pool.get).2.id → (placedW w t rt).alive x = w.alive x := by
-    intro x hx
-    exact Pool.alive_congr h.stale hst' x (by rw [placedW_pool]; exact g.other x.id hx)
-  have hFr : ∀ j : Nat, j ≠ (w.pool.get).2.id → SameEnt w (placedW w t rt) j :=
-    fun j hj => (same_place h.idx _ t hle hj).congr hE hT
-  have hcinv : CInv (placedW w t rt) fl.tail := by
-    refine
-      { idx := hidx
-        sinv := hsinv
-        pool := by rw [placedW_pool]; exact g.pinv
-        stale := hst'
-        lenEq := by rw [hlen, placedW_pool, g.length, h.lenEq]
-        tgtLen := ?_
-        freeUnindexed := ?_
-        reservedUnindexed := ?_
-        liveIndexed := ?_
-        fewTables := by rw [htlen]; exact h.fewTables
-        noRelKinds := by rw [fk]; exact h.noRelKinds
-        kindsLe := by rw [fk, fm]; exact h.kindsLe
-        noTargets := ?_
-        noObs := by intro evt; rw [placedW_obs]; exact h.noObs evt }
-    · rw [hlen, placedW_isTarget']
-      split
-      · simp only [List.length_append, List.length_singleton, h.tgtLen]
-      · split
-        · simp only [List.length_set, h.tgtLen]
-        · exact h.tgtLen
-    · intro i hi
-      have hne : i ≠ (w.pool.get).2.id := fun hh => g.notin (hh ▸ hi)
-      rw [hL, if_neg hne]
-      exact h.freeUnindexed i (List.mem_of_mem_tail hi)
-    · intro i hi
-      have hne : i ≠ (w.pool.get).2.id := by have := g.ge2; omega
-      rw [hL, if_neg hne]
-      exact h.reservedUnindexed i hi
-    · intro i h2 hlt' hnf
-      rw [hL]
-      by_cases hne : i = (w.pool.get).2.id
-      · rw [if_pos hne]
-        exact ⟨t, _, rfl, htm⟩
-      · rw [if_neg hne]
-        rw [hlen] at hlt'
-        rcases g.cases with ⟨a, b, _⟩ | ⟨a, b, _⟩
-        · rw [h.lenEq.symm] at a
-          rw [if_pos a] at hlt'
-          exact h.liveIndexed i h2 (by omega) (by rw [b]; simp)
-        · rw [h.lenEq.symm] at a
-          rw [if_neg (by omega)] at hlt'
-          refine h.liveIndexed i h2 hlt' ?_
-          rw [b]
-          intro hm
-          rcases List.mem_cons.mp hm with hm | hm
-          · exact hne hm
-          · exact hnf hm
-    · intro i
-      rw [placedW_isTarget']
-      split
-      · exact getD_false_append h.noTargets i
-      · split
-        · exact getD_false_set h.noTargets _ i
-        · exact h.noTargets i
-  have hentE : (placedW w t rt).entities[(w.pool.get).2.id]? = some (t, (w.tbl t).len) := by
-    rw [hL, if_pos rfl]
-  have htabE : (placedW w t rt).tables[t]? = some ((w.tbl t).add (w.pool.get).2).1 := by
-    rw [hTab]; exact List.getElem?_set_self hlt
-  refine
-    { cinv := hcinv
-      unlocked := by
-        show (placedW w t rt).locks.isLocked = w.locks.isLocked
-        rw [placedW_locks]
-      kinds := fk
-      maxComps := fm
-      pool := placedW_pool w t rt
-      ge2 := g.ge2
-      unused := ?_
-      notin := g.notin
-      alive := ?_
-      aliveFrame := hAF
-      frame := hFr
-      live := ?_
-      comps := ?_
-      zero := ?_
-      tablesLen := htlen
-      entitiesLen := by rw [hlen]; split <;> omega }
-  · rcases g.cases with ⟨a, b, c⟩ | ⟨a, b, _⟩
-    · exact Or.inl ⟨by rw [h.lenEq]; exact a, b, c⟩
-    · exact Or.inr ⟨by rw [h.lenEq]; exact a, b⟩
-  · exact (hcinv.aliveIff (w.pool.get).2 g.notin).mpr (by rw [placedW_pool]; exact g.slot)
-  · intro x hnf ha
-    have hne := hliveNe x hnf ha
-    exact ⟨fun hh => hne (by rw [hh]), hne, by rw [hAF x hne]; exact ha, hFr x.id hne⟩
-  · simp only [compsOf, hentE, htm, if_false, htabE, Option.map_some, Table.add_ids]
-  · intro c hc
-    obtain ⟨j, hj⟩ := colIdx_some_iff_mem.mpr hc
-    have hjN : ((w.tbl t).add (w.pool.get).2).1.colIdx c = some j := by
-      simp only [Table.colIdx, Table.add_ids]; exact hj
-    have hzero : ((w.tbl t).add (w.pool.get).2).1.cell j (w.tbl t).len = 0 := by
-      have := Table.add_new_row_zero hSt (w.pool.get).2 j
-      rw [Table.add_snd] at this; exact this
-    simp only [valOf, hentE, htm, if_false, htabE, Option.bind_some, Table.getComp, hjN,
-      Option.map_some, hzero]
-
-/-- what `RemoveEntity` of a live handle guarantees -/
-structure RemovedPost (w : World) (fl : List Nat) (e : Ent) (w' : World) : Prop where
-  /-- the invariant is kept; the ID is pushed on the free list -/
-  cinv : CInv w' (e.id :: fl)
-  unlocked : w'.isLocked = w.isLocked
-  kinds : w'.kinds = w.kinds
-  maxComps : w'.maxComps = w.maxComps
-  pool : w'.pool = w.pool.recycle e
-  dead : w'.alive e = false
-  aliveFrame : ∀ h : Ent, h.id ≠ e.id → w'.alive h = w.alive h
-  frame : ∀ j : Nat, j ≠ e.id → SameEnt w w' j
-  live : ∀ h : Ent, h.id ∉ fl → w.alive h = true → h ≠ e →
-    h.id ≠ e.id ∧ w'.alive h = true ∧ SameEnt w w' h.id
-  unindexed : (∀ c : Comp, valOf w' e.id c = none) ∧ compsOf w' e.id = none
-  tablesLen : w'.tables.length = w.tables.length
-  entitiesLen : w'.entities.length = w.entities.length
-
-/-- **removal**: the removal block of `RemoveEntity` for a live handle in any table. -/
-theorem CInv.removed {w : World} {fl : List Nat} (h : CInv w fl) {e : Ent} (h2 : 2 ≤ e.id)
-    (hnf : e.id ∉ fl) (ha : w.alive e = true) :
-    ∃ t row, w.index e.id = (t, row) ∧ RemovedPost w fl e (removeRowOf w e t row) := by
-  obtain ⟨t, row, he, ht, hs⟩ := h.live_entry h2 hnf ha
-  refine ⟨t, row, index_of_get he, ?_⟩
-  obtain ⟨hTt, hrow, hid⟩ := h.idx.indexed he ht
-  have hlt := lt_of_get hTt
-  obtain ⟨fk, fa, fm⟩ := removeRowOf_fields w e t row
-  obtain ⟨rp, rslot, rother, rlen, rstale, _⟩ := Pool.recycle_spec w.pool fl e h.pool h2 hnf hs
-  have hE := removeRowOf_entities w e t row
-  have hT := removeRowOf_tables w e t row
-  have hP := removeRowOf_pool w e t row
-  have hse := h.idx.rowIdx t _ ((w.tbl t).len - 1) hTt (by omega)
-  have hL : ∀ i : Nat, i ≠ e.id →
-      ((removeRowOf w e t row).entities[i]? = some (t, row) ∧
-        w.entities[i]? = some (t, (w.tbl t).len - 1)) ∨
-      (removeRowOf w e t row).entities[i]? = w.entities[i]? := by
-    intro i hi
-    rw [hE, unplace_lookup h.idx he ht i, if_neg hi]
-    by_cases hc : row ≠ (w.tbl t).len - 1 ∧ i = ((w.tbl t).getEntity ((w.tbl t).len - 1)).id
-    · rw [if_pos hc]; left; exact ⟨rfl, by rw [hc.2]; exact hse⟩
-    · rw [if_neg hc]; right; rfl
-  have hLe : (removeRowOf w e t row).entities[e.id]? = some (maxU32, row) := by
-    rw [hE, unplace_lookup h.idx he ht e.id, if_pos rfl]
-  have hlen : (removeRowOf w e t row).entities.length = w.entities.length := by
-    rw [hE, unplace_entities]; split <;> simp only [List.length_modify]
-  have hTab : (removeRowOf w e t row).tables = w.tables.set t ((w.tbl t).remove row).1 := by
-    rw [hT, unplace_tables]
-  have htlen : (removeRowOf w e t row).tables.length = w.tables.length := by
-    rw [hTab, List.length_set]
-  have hsinv : SInv (removeRowOf w e t row) := by
-    apply h.sinv.of_sameMeta fa fk htlen
-    intro t' _
-    by_cases htt : t' = t
-    · subst htt
-      have : (removeRowOf w e t' row).tbl t' = ((w.tbl t').remove row).1 :=
-        tbl_of_get (by rw [hTab]; exact List.getElem?_set_self hlt)
-      rw [this]; exact Table.remove_sameMeta _ _
-    · have : (removeRowOf w e t row).tbl t' = w.tbl t' := by
-        simp only [tbl, hTab, List.getD_eq_getElem?_getD, List.getElem?_set_ne (Ne.symm htt)]
-      rw [this]; exact Table.SameMeta.refl _
-  have hst' : (removeRowOf w e t row).pool.stale = [] := by rw [hP, rstale]; exact h.stale
-  have hAF : ∀ x : Ent, x.id ≠ e.id → (removeRowOf w e t row).alive x = w.alive x := by
-    intro x hx
-    exact Pool.alive_congr h.stale hst' x (by rw [hP]; exact rother x.id hx)
-  have hFr : ∀ j : Nat, j ≠ e.id → SameEnt w (removeRowOf w e t row) j :=
-    fun j hj => remove_frame h.idx he ht hj
-  have hcinv : CInv (removeRowOf w e t row) (e.id :: fl) := by
-    refine
-      { idx := h.idx.removeRowOf he ht
-        sinv := hsinv
-        pool := by rw [hP]; exact rp
-        stale := hst'
-        lenEq := by rw [hlen, hP, rlen]; exact h.lenEq
-        tgtLen := by rw [hlen, removeRowOf_isTarget]; exact h.tgtLen
-        freeUnindexed := ?_
-        reservedUnindexed := ?_
-        liveIndexed := ?_
-        fewTables := by rw [htlen]; exact h.fewTables
-        noRelKinds := by rw [fk]; exact h.noRelKinds
-        kindsLe := by rw [fk, fm]; exact h.kindsLe
-        noTargets := by intro i; rw [removeRowOf_isTarget]; exact h.noTargets i
-        noObs := by intro evt; rw [removeRowOf_obs]; exact h.noObs evt }
-    · intro i hi
-      rcases List.mem_cons.mp hi with rfl | hi
-      · exact ⟨row, hLe⟩
-      · have hne : i ≠ e.id := fun hh => hnf (hh ▸ hi)
-        obtain ⟨r, hr⟩ := h.freeUnindexed i hi
-        rcases hL i hne with ⟨_, b⟩ | b
-        · rw [hr] at b
-          exact absurd (Prod.mk.inj (Option.some.inj b)).1.symm ht
-        · exact ⟨r, by rw [b]; exact hr⟩
-    · intro i hi
-      have hne : i ≠ e.id := by omega
-      obtain ⟨r, hr⟩ := h.reservedUnindexed i hi
-      rcases hL i hne with ⟨_, b⟩ | b
-      · rw [hr] at b
-        exact absurd (Prod.mk.inj (Option.some.inj b)).1.symm ht
-      · exact ⟨r, by rw [b]; exact hr⟩
-    · intro i hi2 hlt' hnf'
-      have hne : i ≠ e.id := fun hh => hnf' (by rw [hh]; exact List.mem_cons_self)
-      have hnf'' : i ∉ fl := fun hh => hnf' (List.mem_cons_of_mem _ hh)
-      rcases hL i hne with ⟨a, _⟩ | b
-      · exact ⟨t, row, a, ht⟩
-      · rw [b]; exact h.liveIndexed i hi2 (by rw [← hlen]; exact hlt') hnf''
-  refine
-    { cinv := hcinv
-      unlocked := by
-        show (removeRowOf w e t row).locks.isLocked = w.locks.isLocked
-        rw [removeRowOf_locks]
-      kinds := fk
-      maxComps := fm
-      pool := hP
-      dead := ?_
-      aliveFrame := hAF
-      frame := hFr
-      live := ?_
-      unindexed := ⟨fun c => remove_unindexed h.idx he ht c, ?_⟩
-      tablesLen := htlen
-      entitiesLen := hlen }
-  · show (removeRowOf w e t row).pool.alive e = false
-    rw [Pool.alive_eq hst', hP, rslot]
-    show (e.gen + 1 == e.gen) = false
-    simp
-  · intro x hxf hxa hxe
-    have hxs := (h.aliveIff x hxf).mp hxa
-    have hne : x.id ≠ e.id := by
-      intro heq
-      rw [heq, hs] at hxs
-      exact hxe (Option.some.inj hxs).symm
-    exact ⟨hne, by rw [hAF x hne]; exact hxa, hFr x.id hne⟩
-  · simp only [compsOf, hLe, if_true]
-
-/-! ## 9. the operations of the API: `Add`, `Remove`, `NewEntity`, `RemoveEntity`, `Set` -/
-
-namespace World
-
-theorem fireAddIfHas_none (run : ProbeRunner) (evt : Nat) (e : Ent) (old new : Mask) (w : World)
-    (h : w.obs.hasObservers evt = false) : fireAddIfHas run evt e old new w = .ok () w := by
-  simp only [fireAddIfHas, bind, M.bind, M.get, h, Bool.false_eq_true, if_false, pure, M.pure]
-
-/-- without observers, `Add` through any path is `World.add` followed by the writes -/
-theorem opAdd_eq (run : ProbeRunner) (p : Path) (e : Ent) (ids : List Comp)
-    (vals : List (Comp × Val)) (w : World) (ha : w.alive e = true) {old new : Mask} {w' : World}
-    (hcore : addCore e ids [] w = .ok (old, new) w')
-    (hno : ∀ evt : Nat, w'.obs.hasObservers evt = false) :
-    opAdd run p e ids vals [] w = .ok () (writeValsW w' e vals) := by
-  have hno2 : ∀ evt : Nat, (writeValsW w' e vals).obs.hasObservers evt = false := hno
-  cases p <;>
-  simp [opAdd, preCheck, preCheckMap, preCheckTyped, M.forM', bind, M.bind, M.get, M.assert, ha,
-    hcore, writeVals_eq, fireAddIfHas_none, hno, hno2, pure, M.pure]
-
-/-- a panic of `World.add` is the panic of `Add` (same state) -/
-theorem opAdd_panic (run : ProbeRunner) (p : Path) (e : Ent) (ids : List Comp)
-    (vals : List (Comp × Val)) (w : World) (ha : w.alive e = true) {k : PanicKind} {w' : World}
-    (hcore : addCore e ids [] w = .panic k w') :
-    opAdd run p e ids vals [] w = .panic k w' := by
-  cases p <;>
-  simp [opAdd, preCheck, preCheckMap, preCheckTyped, M.forM', bind, M.bind, M.get, M.assert, ha,
-    hcore, pure, M.pure]
-
-theorem opRemove_eq (run : ProbeRunner) (p : Path) (e : Ent) (ids : List Comp) (w : World)
-    (ha : w.alive e = true) : opRemove run p e ids w = removeCore run e ids w := by
-  cases p <;> simp [opRemove, bind, M.bind, M.get, M.assert, ha]
-
-/-- **rejection**: `Add` on a dead handle (the paths that check `Alive` first) -/
-theorem opAdd_dead (run : ProbeRunner) (p : Path) (e : Ent) (ids : List Comp)
-    (vals : List (Comp × Val)) (rels : List RelID) (w : World) (hp : p ≠ .typed)
-    (hd : w.alive e = false) : opAdd run p e ids vals rels w = .panic .deadEntity w := by
-  cases p <;>
-  first
-  | exact absurd rfl hp
-  | simp [opAdd, bind, M.bind, M.get, M.assert, hd]
-
-/-- **rejection**: `Remove` on a dead handle -/
-theorem opRemove_dead (run : ProbeRunner) (p : Path) (e : Ent) (ids : List Comp) (w : World)
-    (hp : p ≠ .typed) (hd : w.alive e = false) :
-    opRemove run p e ids w = .panic .deadEntity w := by
-  cases p <;>
-  first
-  | exact absurd rfl hp
-  | simp [opRemove, bind, M.bind, M.get, M.assert, hd]
-
-/-- without observers, `NewEntity(ids…)` through any path is: table lookup, `placeNew`, writes -/
-theorem opNewEntity_eq (run : ProbeRunner) (p : Path) (ids : List Comp)
-    (vals : List (Comp × Val)) (w : World) (hl : w.isLocked = false) {t a : Nat} {m : Mask}
-    {w1 : World} (hfoc : findOrCreateTableAdd 0 Mask.empty ids [] w = .ok (t, a, m) w1)
-    (hno : ∀ evt : Nat, w1.obs.hasObservers evt = false) :
-    opNewEntity run p ids vals [] w =
-      .ok (w1.pool.get).2 (writeValsW (placedW w1 t false) (w1.pool.get).2 vals) := by
-  have hno1 : ∀ evt : Nat, (placedW w1 t false).obs.hasObservers evt = false := by
-    intro evt; rw [placedW_obs]; exact hno evt
-  have hno2 : ∀ evt : Nat,
-      (writeValsW (placedW w1 t false) (w1.pool.get).2 vals).obs.hasObservers evt = false := hno1
-  cases p <;>
-  simp [opNewEntity, newEntityCore, preCheck, preCheckMap, preCheckTyped, M.forM', bind, M.bind,
-    M.get, checkLocked_unlocked w hl, hfoc, placeNew_eq, registerTargets, M.modify, writeVals_eq,
-    fireCreateEntityIfHas_none, hno1, hno2, pure, M.pure]
-
-/-- **rejection**: `NewEntity` with a component listed twice panics `alreadyHas`, state unchanged -/
-theorem opNewEntity_dup (run : ProbeRunner) (p : Path) (ids : List Comp)
-    (vals : List (Comp × Val)) (w : World) (hl : w.isLocked = false)
-    (hb : ∀ (c : Comp), c ∈ ids → c < 256) (hd : ¬ ids.Nodup) :
-    opNewEntity run p ids vals [] w = .panic .alreadyHas w := by
-  have hrej := findOrCreateTableAdd_reject' 0 Mask.empty ids [] w hb (fun hh => hd hh.1)
-  cases p <;>
-  simp [opNewEntity, newEntityCore, preCheck, preCheckMap, preCheckTyped, M.forM', bind, M.bind,
-    checkLocked_unlocked w hl, hrej, pure, M.pure]
-
-end World
-
-/-- a component of the component set reads some value -/
-theorem valOf_some_of_comps {w : World} {i : Nat} {cs : List Comp} {c : Comp}
-    (h : compsOf w i = some cs) (hc : c ∈ cs) : ∃ v, valOf w i c = some v := by
-  unfold compsOf at h
-  unfold valOf
-  cases hx : w.entities[i]? with
-  | none => rw [hx] at h; cases h
-  | some p =>
-    obtain ⟨t, r⟩ := p
-    rw [hx] at h
-    simp only at h ⊢
-    by_cases ht : t = maxU32
-    · rw [if_pos ht] at h; cases h
-    · rw [if_neg ht] at h ⊢
-      cases hT : w.tables[t]? with
-      | none => rw [hT] at h; cases h
-      | some T =>
-        rw [hT] at h
-        simp only [Option.map_some, Option.some.injEq] at h
-        subst h
-        obtain ⟨j, hj⟩ := colIdx_some_iff_mem.mpr hc
-        exact ⟨T.cell j r, by simp only [Option.bind_some, Table.getComp, hj, Option.map_some]⟩
-
-/-- for a live entity: the table has a column for `c` iff `c` is in the entity's mask -/
-theorem CInv.has_iff {w : World} {fl : List Nat} (h : CInv w fl) {e : Ent} (h2 : 2 ≤ e.id)
-    (hnf : e.id ∉ fl) (ha : w.alive e = true) (c : Comp) :
-    (w.tbl (w.index e.id).1).has c = true ↔ (w.maskOf e).get c = true := by
-  obtain ⟨t, r, he, ht, _⟩ := h.live_entry h2 hnf ha
-  obtain ⟨_, _, _, halt, hids, _⟩ := h.table_of_entry he ht
-  have hm : w.maskOf e = (w.arch (w.tbl t).arch).mask := by simp only [maskOf, index_of_get he]
-  rw [index_of_get he, Table.has_iff_mem, hids, Mask.mem_toList, hm]
-  exact ⟨fun hh => hh.2, fun hh => ⟨h.sinv.maskReg _ _ (aget_of_lt halt) c hh, hh⟩⟩
-
-/-- what `Add(e, add…)` with the values `vals` guarantees -/
-structure OpAddPost (w : World) (fl : List Nat) (e : Ent) (add : List Comp)
-    (vals : List (Comp × Val)) (w' : World) : Prop where
-  cinv : CInv w' fl
-  unlocked : w'.isLocked = w.isLocked
-  kinds : w'.kinds = w.kinds
-  pool : w'.pool = w.pool
-  maxComps : w'.maxComps = w.maxComps
-  aliveSame : ∀ x : Ent, w'.alive x = w.alive x
-  comps : compsOf w' e.id = some ((add.foldl Mask.set (w.maskOf e)).toList w.kinds.length)
-  /-- a component the entity had: its old value, overwritten by the last write to it (if any) -/
-  kept : ∀ (c : Comp) (v : Val), (w.maskOf e).get c = true → valOf w e.id c = some v →
-    valOf w' e.id c = some (if (w.kinds.getD c {}).zst = true then v else applyVals v vals c)
-  /-- an added component: the last value written to it, zero if none (always zero if zero-size) -/
-  added : ∀ c : Comp, c ∈ add →
-    valOf w' e.id c = some (if (w.kinds.getD c {}).zst = true then 0 else applyVals 0 vals c)
-  frame : ∀ j : Nat, j ≠ e.id → SameEnt w w' j
-  tablesLen : w'.tables.length ≤ w.tables.length + 1
-  entitiesLen : w'.entities.length = w.entities.length
-
-/-- **opAdd_spec** — `Add` through any of the three paths (no relations, no observers): the
-    callback runner is not consulted; `World.add`, then the values are written. -/
-theorem opAdd_spec (run : ProbeRunner) (p : Path) {w : World} {fl : List Nat} (h : CInv w fl)
-    (hl : w.isLocked = false) {e : Ent} (h2 : 2 ≤ e.id) (hnf : e.id ∉ fl) (ha : w.alive e = true)
-    {add : List Comp} (hne : add ≠ []) (hnd : add.Nodup)
-    (hreg : ∀ (c : Comp), c ∈ add → c < w.kinds.length)
-    (hnew : ∀ (c : Comp), c ∈ add → (w.maskOf e).get c = false) (vals : List (Comp × Val))
-    (hfew : w.tables.length < maxU32) (hrows : ∀ t : Nat, (w.tbl t).len + 1 < 2 ^ 32) :
-    ∃ w', opAdd run p e add vals [] w = .ok () w' ∧ OpAddPost w fl e add vals w' := by
-  obtain ⟨w1, hcore, ap⟩ := addCore_spec h hl h2 hnf ha hne hnd hreg hnew hfew hrows
-  have ha1 : w1.alive e = true := by rw [ap.aliveSame]; exact ha
-  have wp := ap.cinv.writeVals h2 hnf ha1 vals
-  refine ⟨_, opAdd_eq run p e add vals w ha hcore ap.cinv.noObs, ?_⟩
-  exact
-    { cinv := wp.cinv
-      unlocked := wp.unlocked.trans ap.unlocked
-      kinds := wp.kinds.trans ap.kinds
-      pool := wp.pool.trans ap.pool
-      maxComps := wp.maxComps.trans ap.maxComps
-      aliveSame := fun x => (wp.aliveSame x).trans (ap.aliveSame x)
-      comps := wp.comps.trans ap.comps
-      kept := by
-        intro c v hc hv
-        rw [wp.vals c v (by rw [ap.kept c hc]; exact hv), ap.kinds]
-      added := by
-        intro c hc
-        rw [wp.vals c 0 (ap.added c hc), ap.kinds]
-      frame := fun j hj => (ap.frame j hj).trans (wp.frame j hj)
-      tablesLen := by rw [wp.tablesLen]; exact ap.tablesLen
-      entitiesLen := wp.entitiesLen.trans ap.entitiesLen }
-
-/-- **opRemove_spec** — `Remove` through any of the three paths -/
-theorem opRemove_spec (run : ProbeRunner) (p : Path) {w : World} {fl : List Nat} (h : CInv w fl)
-    (hl : w.isLocked = false) {e : Ent} (h2 : 2 ≤ e.id) (hnf : e.id ∉ fl) (ha : w.alive e = true)
-    {rem : List Comp} (hne : rem ≠ []) (hnd : rem.Nodup)
-    (hpres : ∀ (c : Comp), c ∈ rem → (w.maskOf e).get c = true)
-    (hfew : w.tables.length < maxU32) (hrows : ∀ t : Nat, (w.tbl t).len + 1 < 2 ^ 32) :
-    ∃ w', opRemove run p e rem w = .ok () w' ∧ RemovePost w fl e rem w' := by
-  rw [opRemove_eq run p e rem w ha]
-  exact removeCore_spec run h hl h2 hnf ha hne hnd hpres hfew hrows
-
-/-- what `NewEntity(ids…)` with the values `vals` guarantees -/
-structure NewPost (w : World) (fl : List Nat) (ids : List Comp) (vals : List (Comp × Val))
-    (e : Ent) (w' : World) : Prop where
-  /-- the invariant is kept; the free list loses its head (if any) -/
-  cinv : CInv w' fl.tail
-  unlocked : w'.isLocked = w.isLocked
-  kinds : w'.kinds = w.kinds
-  maxComps : w'.maxComps = w.maxComps
-  pool : w'.pool = (w.pool.get).1
-  ge2 : 2 ≤ e.id
-  unused : (e.id = w.entities.length ∧ fl = [] ∧ e.gen = 0) ∨
-    (e.id < w.entities.length ∧ fl = e.id :: fl.tail)
-  notin : e.id ∉ fl.tail
-  alive : w'.alive e = true
-  aliveFrame : ∀ h : Ent, h.id ≠ e.id → w'.alive h = w.alive h
-  frame : ∀ j : Nat, j ≠ e.id → SameEnt w w' j
-  live : ∀ h : Ent, h.id ∉ fl → w.alive h = true →
-    h ≠ e ∧ h.id ≠ e.id ∧ w'.alive h = true ∧ SameEnt w w' h.id
-  /-- exactly the requested components -/
-  comps : compsOf w' e.id = some ((Mask.ofList ids).toList w.kinds.length)
-  /-- each reads the last value written to it, zero if none (always zero if zero-size) -/
-  vals : ∀ c : Comp, c ∈ ids →
-    valOf w' e.id c = some (if (w.kinds.getD c {}).zst = true then 0 else applyVals 0 vals c)
-  tablesLen : w'.tables.length ≤ w.tables.length + 1
-  entitiesLen : w'.entities.length ≤ w.entities.length + 1
-
-/-- **opNewEntity_spec** — creation with the distinct registered components `ids` and the
-    values `vals` through any of the three paths (no relations, no observers). -/
-theorem opNewEntity_spec (run : ProbeRunner) (p : Path) {w : World} {fl : List Nat} (h : CInv w fl)
-    (hl : w.isLocked = false) {ids : List Comp} (hnd : ids.Nodup)
-    (hreg : ∀ (c : Comp), c ∈ ids → c < w.kinds.length) (vals : List (Comp × Val))
-    (hfew : w.tables.length < maxU32) (hrows : ∀ t : Nat, (w.tbl t).len + 1 < 2 ^ 32) :
-    ∃ w', opNewEntity run p ids vals [] w = .ok (w.pool.get).2 w' ∧
-      NewPost w fl ids vals (w.pool.get).2 w' := by
-  obtain ⟨t, a, w1, hok, fc, hI1, hsame, _⟩ :=
-    h.sinv.findOrCreateTableAdd_spec_new h.idx hnd hreg (fun c _ => h.noRelKinds c)
-  have hu := findOrCreateTableAdd_untouched hok
-  have hlen1 := findOrCreateTableAdd_tables_len hok
-  have hfew1 : w1.tables.length ≤ maxU32 := by omega
-  have h1 : CInv w1 fl := h.transfer hI1 fc.sinv fc.pool
-    ⟨by rw [fc.entities], fun i => Or.inl (by rw [fc.entities])⟩ fc.kinds hu hfew1
-  have hb : (w1.tbl t).len + 1 < 2 ^ 32 := by
-    rcases Nat.lt_or_ge t w.tables.length with h1 | h1
-    · have : w1.tbl t = w.tbl t := by
-        simp only [tbl, List.getD_eq_getElem?_getD, hsame t h1]
-      rw [this]; exact hrows t
-    · rw [fc.newEmpty h1]; decide
-  have pp := h1.placed fc.tblLt false hb
-  have wp := pp.cinv.writeVals pp.ge2 pp.notin pp.alive vals
-  have hw1w : ∀ j : Nat, SameEnt w w1 j := same_of_prefix h.idx fc.entities hsame
-  have hal1 : ∀ x : Ent, w1.alive x = w.alive x := by
-    intro x; simp only [World.alive, fc.pool]
-  have heq := opNewEntity_eq run p ids vals w hl hok (by rw [hu.obs]; exact h.noObs)
-  rw [fc.pool] at heq pp wp
-  refine ⟨_, heq, ?_⟩
-  have hmem : ∀ c : Comp, c ∈ ids → c ∈ (w1.tbl t).ids := by
-    intro c hc
-    rw [fc.tblIds, Mask.mem_toList, Mask.get_ofList]
-    exact ⟨hreg c hc, by simp [h.reg_lt_256 (hreg c hc), hc]⟩
-  exact
-    { cinv := wp.cinv
-      unlocked := by
-        rw [wp.unlocked, pp.unlocked]
-        show w1.locks.isLocked = w.locks.isLocked
-        rw [hu.locks]
-      kinds := wp.kinds.trans (pp.kinds.trans fc.kinds)
-      maxComps := wp.maxComps.trans (pp.maxComps.trans hu.maxComps)
-      pool := by
-        show (placedW w1 t false).pool = _
-        rw [pp.pool, fc.pool]
-      ge2 := pp.ge2
-      unused := by rw [← fc.entities]; exact pp.unused
-      notin := pp.notin
-      alive := by rw [wp.aliveSame]; exact pp.alive
-      aliveFrame := fun x hx => by rw [wp.aliveSame, pp.aliveFrame x hx, hal1]
-      frame := fun j hj => ((hw1w j).trans (pp.frame j hj)).trans (wp.frame j hj)
-      live := by
-        intro x hxf hxa
-        obtain ⟨a1, a2, a3, a4⟩ := pp.live x hxf (by rw [hal1]; exact hxa)
-        exact ⟨a1, a2, by rw [wp.aliveSame]; exact a3, ((hw1w x.id).trans a4).trans (wp.frame x.id a2)⟩
-      comps := by rw [wp.comps, pp.comps, fc.tblIds]
-      vals := by
-        intro c hc
-        rw [wp.vals c 0 (pp.zero c (hmem c hc)), pp.kinds, fc.kinds]
-      tablesLen := by rw [wp.tablesLen, pp.tablesLen]; exact hlen1
-      entitiesLen := by rw [wp.entitiesLen, ← fc.entities]; exact pp.entitiesLen }
-
-/-- **opNewEntity0_spec** — `World.NewEntity()` (no components) under `CInv` -/
-theorem opNewEntity0_spec (run : ProbeRunner) {w : World} {fl : List Nat} (h : CInv w fl)
-    (hl : w.isLocked = false) (hb : (w.tbl 0).len + 1 < 2 ^ 32) :
-    ∃ w', opNewEntity0 run w = .ok (w.pool.get).2 w' ∧ PlacedPost w fl 0 (w.pool.get).2 w' ∧
-      compsOf w' (w.pool.get).2.id = some [] := by
-  obtain ⟨h0, h1, hm⟩ := h.sinv.root
-  have pp := h.placed h0 true hb
-  refine ⟨_, opNewEntity0_eq run w hl (h.noObs _), pp, ?_⟩
-  rw [pp.comps]
-  obtain ⟨A, hA, e1, _⟩ := h.sinv.tblArch 0 _ (get_of_lt h0)
-  rw [h1] at hA
-  rw [e1, (h.sinv.comps 0 A hA).1]
-  rw [arch_of_get hA] at hm
-  rw [hm]
-  simp [Mask.toList]
-
-/-- **opRemoveEntity_spec** — `RemoveEntity` of a live handle under `CInv` -/
-theorem opRemoveEntity_spec (run : ProbeRunner) {w : World} {fl : List Nat} (h : CInv w fl)
-    (hl : w.isLocked = false) {e : Ent} (h2 : 2 ≤ e.id) (hnf : e.id ∉ fl) (ha : w.alive e = true) :
-    ∃ w', opRemoveEntity run e w = .ok () w' ∧ RemovedPost w fl e w' := by
-  obtain ⟨t, row, hix, rp⟩ := h.removed h2 hnf ha
-  exact ⟨_, opRemoveEntity_eq run w e hl ha hix h.noObs (h.noTargets _), rp⟩
-
-/-- **opSet_spec** — `Map.Set` / `MapN.Set` on a live entity that has all the components `ids`:
-    the values are written, the last write to a component wins -/
-theorem opSet_spec_c (run : ProbeRunner) {w : World} {fl : List Nat} (h : CInv w fl) {e : Ent}
-    (h2 : 2 ≤ e.id) (hnf : e.id ∉ fl) (ha : w.alive e = true) {ids : List Comp}
-    (hhas : ∀ (c : Comp), c ∈ ids → (w.maskOf e).get c = true) (vals : List (Comp × Val)) :
-    ∃ w', opSet run e ids vals w = .ok () w' ∧ WritePost w fl e vals w' := by
-  refine ⟨_, opSet_eq run w e ids vals ha ?_ (h.noObs _), h.writeVals h2 hnf ha vals⟩
-  rw [List.all_eq_true]
-  intro c hc
-  exact (h.has_iff h2 hnf ha c).mpr (hhas c hc)
-
-/-- **rejection**: `Set` naming a component the entity lacks panics `missing`, state unchanged -/
-theorem opSet_missing_c (run : ProbeRunner) {w : World} {fl : List Nat} (h : CInv w fl) {e : Ent}
-    (h2 : 2 ≤ e.id) (hnf : e.id ∉ fl) (ha : w.alive e = true) {ids : List Comp}
-    (hmiss : ¬ ∀ (c : Comp), c ∈ ids → (w.maskOf e).get c = true) (vals : List (Comp × Val)) :
-    opSet run e ids vals w = .panic .missing w := by
-  apply opSet_missing run w e ids vals ha
-  cases hall : (ids.all fun c => (w.tbl (w.index e.id).1).has c) with
-  | false => rfl
-  | true =>
-    exfalso
-    apply hmiss
-    intro c hc
-    exact (h.has_iff h2 hnf ha c).mp (List.all_eq_true.mp hall c hc)
-
-/-- **registerComponent** keeps the invariant (a non-relation component type) -/
-theorem CInv.registerComponent {w w' : World} {fl : List Nat} (h : CInv w fl) {k : CompKind}
-    (hk : k.isRel = false) {n : Nat} (hr : World.registerComponent k w = .ok n w') :
-    CInv w' fl ∧ n = w.kinds.length ∧ w'.kinds = w.kinds ++ [k] ∧ w'.isLocked = w.isLocked ∧
-    (∀ x : Ent, w'.alive x = w.alive x) ∧ (∀ j : Nat, SameEnt w w' j) ∧
-    w'.tables = w.tables ∧ w'.entities = w.entities ∧ w'.pool = w.pool ∧
-    w'.maxComps = w.maxComps := by
-  obtain ⟨hn, hks, harch, htab, hent, hpool, _⟩ := registerComponent_ok hr
-  have hfields : w'.obs = w.obs ∧ w'.locks = w.locks ∧ w'.isTarget = w.isTarget ∧
-      w'.maxComps = w.maxComps ∧ w.kinds.length < w.maxComps := by
-    unfold World.registerComponent at hr
-    simp only at hr
-    split at hr
-    · cases hr
-    · rename_i hlt
-      split at hr
-      · cases hr
-      · injection hr with _ h2; subst h2
-        exact ⟨rfl, rfl, rfl, rfl, by omega⟩
-  obtain ⟨fo, fl', ft, fm, hlt⟩ := hfields
-  refine ⟨?_, hn, hks, by show w'.locks.isLocked = w.locks.isLocked; rw [fl'],
-    fun x => by simp only [World.alive, hpool],
-    fun j => ⟨fun c => valOf_congr hent htab j c, compsOf_congr hent htab j⟩, htab, hent, hpool, fm⟩
-  exact
-    { idx := h.idx.registerComponent hr
-      sinv := h.sinv.registerComponent hr
-      pool := by rw [hpool]; exact h.pool
-      stale := by rw [hpool]; exact h.stale
-      lenEq := by rw [hent, hpool]; exact h.lenEq
-      tgtLen := by rw [ft, hent]; exact h.tgtLen
-      freeUnindexed := by rw [hent]; exact h.freeUnindexed
-      reservedUnindexed := by rw [hent]; exact h.reservedUnindexed
-      liveIndexed := by rw [hent]; exact h.liveIndexed
-      fewTables := by rw [htab]; exact h.fewTables
-      noRelKinds := by
-        intro c
-        rw [hks]
-        rcases Nat.lt_trichotomy c w.kinds.length with h1 | h1 | h1
-        · rw [getD_append_left' _ _ _ _ h1]; exact h.noRelKinds c
-        · subst h1
-          simp only [List.getD_eq_getElem?_getD, List.getElem?_concat_length, Option.getD_some]
-          exact hk
-        · simp only [List.getD_eq_getElem?_getD]
-          rw [List.getElem?_eq_none (by simp only [List.length_append, List.length_singleton]; omega)]
-          rfl
-      kindsLe := by
-        rw [hks, fm]
-        simp only [List.length_append, List.length_singleton]
-        exact ⟨by omega, h.kindsLe.2⟩
-      noTargets := by rw [ft]; exact h.noTargets
-      noObs := by rw [fo]; exact h.noObs }
 
 /-! ## 10. the abstract specification and the history machine -/
 
@@ -2241,45 +68,80 @@ def del : Spec → Ent → Spec
 inductive Op
   /-- register a (non-relation) component type of the given size -/
   | reg (size : Nat) (zst : Bool)
-  /-- `NewEntity` with the components `ids`, then write `vals` -/
-  | new (ids : List Comp) (vals : Comps)
-  /-- `Add(e, ids…)`, then write `vals` -/
-  | add (e : Ent) (ids : List Comp) (vals : Comps)
-  /-- `Remove(e, ids…)` -/
-  | rem (e : Ent) (ids : List Comp)
+  /-- `NewEntity` with the components `ids` through the access path `p` (`Unsafe.NewEntity` +
+      writes, `Map.NewEntity`, `MapN.NewEntity`), writing `vals` -/
+  | new (p : Path) (ids : List Comp) (vals : Comps)
+  /-- `World.NewEntity()`: an entity without components -/
+  | new0
+  /-- `Add(e, ids…)` through the access path `p`, writing `vals` -/
+  | add (p : Path) (e : Ent) (ids : List Comp) (vals : Comps)
+  /-- `Remove(e, ids…)` through the access path `p` -/
+  | rem (p : Path) (e : Ent) (ids : List Comp)
+  /-- `Exchange(e, add, rem)` through the access path `p` (`Unsafe.Exchange` + writes,
+      `ExchangeN.Exchange`): remove `rem`, add `add`, writing `vals` -/
+  | xchg (p : Path) (e : Ent) (add rem : List Comp) (vals : Comps)
   /-- `Set(e, …)` for the components mentioned in `vals` -/
   | set (e : Ent) (vals : Comps)
   /-- `RemoveEntity(e)` -/
   | del (e : Ent)
+  /-- `CopyEntity(e)`: a new entity with the components and values of `e` -/
+  | copy (e : Ent)
+  /-- `World.Shrink` (`bounded`: stop after the first table with work) -/
+  | shrink (bounded : Bool)
+  /-- `World.Reset`: removes all entities; registry, archetypes and tables are kept -/
+  | reset
   deriving Repr
+
+/-- the precondition of `Exchange(e, add, rem)` on an entity with the components `cs` (`n`
+    registered component types), as `graph.Find` enforces it: not both lists empty; `rem` distinct
+    and all present; `add` distinct, registered and all absent — absent from the entity as it is
+    BEFORE the removal, so a component that is both removed and added is refused -/
+def XchgOK (n : Nat) (cs : Comps) (add rem : List Comp) : Prop :=
+  ¬ (add = [] ∧ rem = []) ∧ rem.Nodup ∧ (∀ c ∈ rem, c ∈ keys cs) ∧ add.Nodup ∧
+    ∀ c ∈ add, c < n ∧ c ∉ keys cs
+
+instance (n : Nat) (cs : Comps) (add rem : List Comp) : Decidable (XchgOK n cs add rem) :=
+  inferInstanceAs (Decidable (¬ (add = [] ∧ rem = []) ∧ rem.Nodup ∧ (∀ c ∈ rem, c ∈ keys cs) ∧
+    add.Nodup ∧ ∀ c ∈ add, c < n ∧ c ∉ keys cs))
 
 /-- the specification state: entities, and the registry (zero-size flag per component ID) -/
 structure SS where
   ents : Spec
   zst : List Bool
 
-/-- **the specification step.**  `fresh` is the handle a successful `new` returns.  An operation
-    whose precondition fails (unknown/dead handle, component present/absent, empty or duplicate
-    list, unregistered component, registry full) leaves the specification unchanged. -/
+/-- **the specification step.**  `fresh` is the handle a successful `new`/`new0`/`copy` returns.
+    An operation whose precondition fails (unknown/dead handle, component present/absent, a
+    component both removed and added, empty or duplicate list, unregistered component, registry
+    full) leaves the specification unchanged.  `shrink` is invisible; `reset` removes every entity
+    and keeps the registry. -/
 def specStep (ss : SS) (fresh : Ent) : Op → SS
   | .reg _ z => if ss.zst.length < 256 then { ss with zst := ss.zst ++ [z] } else ss
-  | .new ids vals =>
+  | .new _ ids vals =>
     if ids.Nodup ∧ ∀ c ∈ ids, c < ss.zst.length then
       { ss with ents := (fresh, writeComps ss.zst vals (zeros ids)) :: ss.ents }
     else ss
-  | .add e ids vals =>
+  | .new0 => { ss with ents := (fresh, []) :: ss.ents }
+  | .add _ e ids vals =>
     match find ss.ents e with
     | none => ss
     | some cs =>
       if ids ≠ [] ∧ ids.Nodup ∧ ∀ c ∈ ids, c < ss.zst.length ∧ c ∉ keys cs then
         { ss with ents := upd ss.ents e fun cs => writeComps ss.zst vals (cs ++ zeros ids) }
       else ss
-  | .rem e ids =>
+  | .rem _ e ids =>
     match find ss.ents e with
     | none => ss
     | some cs =>
       if ids ≠ [] ∧ ids.Nodup ∧ ∀ c ∈ ids, c ∈ keys cs then
         { ss with ents := upd ss.ents e fun cs => cs.filter fun cv => decide (cv.1 ∉ ids) }
+      else ss
+  | .xchg _ e add rem vals =>
+    match find ss.ents e with
+    | none => ss
+    | some cs =>
+      if XchgOK ss.zst.length cs add rem then
+        { ss with ents := upd ss.ents e fun cs =>
+            writeComps ss.zst vals ((cs.filter fun cv => decide (cv.1 ∉ rem)) ++ zeros add) }
       else ss
   | .set e vals =>
     match find ss.ents e with
@@ -2291,23 +153,38 @@ def specStep (ss : SS) (fresh : Ent) : Op → SS
     match find ss.ents e with
     | none => ss
     | some _ => { ss with ents := del ss.ents e }
+  | .copy e =>
+    match find ss.ents e with
+    | none => ss
+    | some cs => { ss with ents := (fresh, cs) :: ss.ents }
+  | .shrink _ => ss
+  | .reset => { ss with ents := [] }
 
-/-- run one model operation (through the `Unsafe` path); the result carries the returned handle -/
+/-- run one model operation (through the access path the operation names, without relations);
+    the result carries the returned handle -/
 def exec (run : ProbeRunner) (w : World) : Op → Res World (Option Ent)
   | .reg size z =>
     match registerComponent { isRel := false, zst := z, size := size } w with
     | .ok _ w' => .ok none w'
     | .panic k w' => .panic k w'
-  | .new ids vals =>
-    match opNewEntity run .unsafe_ ids vals [] w with
+  | .new p ids vals =>
+    match opNewEntity run p ids vals [] w with
     | .ok e w' => .ok (some e) w'
     | .panic k w' => .panic k w'
-  | .add e ids vals =>
-    match opAdd run .unsafe_ e ids vals [] w with
+  | .new0 =>
+    match opNewEntity0 run w with
+    | .ok e w' => .ok (some e) w'
+    | .panic k w' => .panic k w'
+  | .add p e ids vals =>
+    match opAdd run p e ids vals [] w with
     | .ok _ w' => .ok none w'
     | .panic k w' => .panic k w'
-  | .rem e ids =>
-    match opRemove run .unsafe_ e ids w with
+  | .rem p e ids =>
+    match opRemove run p e ids w with
+    | .ok _ w' => .ok none w'
+    | .panic k w' => .panic k w'
+  | .xchg p e add rem vals =>
+    match opExchange run p e add vals rem [] w with
     | .ok _ w' => .ok none w'
     | .panic k w' => .panic k w'
   | .set e vals =>
@@ -2316,6 +193,18 @@ def exec (run : ProbeRunner) (w : World) : Op → Res World (Option Ent)
     | .panic k w' => .panic k w'
   | .del e =>
     match opRemoveEntity run e w with
+    | .ok _ w' => .ok none w'
+    | .panic k w' => .panic k w'
+  | .copy e =>
+    match opCopyEntity run e w with
+    | .ok e' w' => .ok (some e') w'
+    | .panic k w' => .panic k w'
+  | .shrink bounded =>
+    match opShrink bounded w with
+    | .ok _ w' => .ok none w'
+    | .panic k w' => .panic k w'
+  | .reset =>
+    match opReset w with
     | .ok _ w' => .ok none w'
     | .panic k w' => .panic k w'
 
@@ -2330,16 +219,37 @@ structure St where
     component IDs it obtained by registration.  Other calls are not steps of the machine. -/
 def guard (s : St) : Op → Bool
   | .reg _ _ => true
-  | .new ids _ => ids.all fun c => decide (c < s.ss.zst.length)
-  | .add e ids _ => decide (e ∈ s.issued) && ids.all fun c => decide (c < s.ss.zst.length)
-  | .rem e _ => decide (e ∈ s.issued)
+  | .new _ ids _ => ids.all fun c => decide (c < s.ss.zst.length)
+  | .new0 => true
+  | .add _ e ids _ => decide (e ∈ s.issued) && ids.all fun c => decide (c < s.ss.zst.length)
+  | .rem _ e _ => decide (e ∈ s.issued)
+  | .xchg _ e add _ _ => decide (e ∈ s.issued) && add.all fun c => decide (c < s.ss.zst.length)
   | .set e _ => decide (e ∈ s.issued)
   | .del e => decide (e ∈ s.issued)
+  | .copy e => decide (e ∈ s.issued)
+  | .shrink _ => true
+  | .reset => true
 
 /-- the handle returned, if any -/
 def retOf : Res World (Option Ent) → Option Ent
   | .ok r _ => r
   | .panic _ _ => none
+
+/-- `Reset` is the one operation that is about the whole world -/
+def Op.isReset : Op → Bool
+  | .reset => true
+  | _ => false
+
+/-- the handles the client holds after a call: a creating call adds the returned handle; a
+    successful `Reset` ends the epoch — every handle issued so far is dead, and `NewEntity` will
+    issue the very same handles (ID and generation) again, so the ghost history starts afresh -/
+def issuedAfter (issued : List Ent) (op : Op) : Res World (Option Ent) → List Ent
+  | .panic _ _ => issued
+  | .ok ret _ =>
+    if op.isReset = true then [] else
+    match ret with
+    | some e => e :: issued
+    | none => issued
 
 /-- one step in lock step: the model operation and the specification step.  A panic keeps the
     state the model reached (Go `recover`); that a rejected call leaves the world unchanged is
@@ -2347,8 +257,7 @@ def retOf : Res World (Option Ent) → Option Ent
 def step (run : ProbeRunner) (s : St) (op : Op) : St :=
   if guard s op = true then
     let r := exec run s.w op
-    ⟨r.state, (match retOf r with | some e => e :: s.issued | none => s.issued),
-      specStep s.ss ((retOf r).getD default) op⟩
+    ⟨r.state, issuedAfter s.issued op r, specStep s.ss ((retOf r).getD default) op⟩
   else s
 
 def runOps (run : ProbeRunner) (s : St) (ops : List Op) : St := ops.foldl (step run) s
@@ -2592,12 +501,17 @@ def St.ps (s : St) : Pool.PS := ⟨s.w.pool, s.issued, s.ss.ents.map (·.1)⟩
 /-- the precondition of an operation, in terms of the specification only -/
 def pre (ss : SS) : Op → Prop
   | .reg _ _ => ss.zst.length < 256
-  | .new ids _ => ids.Nodup ∧ ∀ c ∈ ids, c < ss.zst.length
-  | .add e ids _ => ∃ cs, find ss.ents e = some cs ∧
+  | .new _ ids _ => ids.Nodup ∧ ∀ c ∈ ids, c < ss.zst.length
+  | .new0 => True
+  | .add _ e ids _ => ∃ cs, find ss.ents e = some cs ∧
       (ids ≠ [] ∧ ids.Nodup ∧ ∀ c ∈ ids, c < ss.zst.length ∧ c ∉ keys cs)
-  | .rem e ids => ∃ cs, find ss.ents e = some cs ∧ (ids ≠ [] ∧ ids.Nodup ∧ ∀ c ∈ ids, c ∈ keys cs)
+  | .rem _ e ids => ∃ cs, find ss.ents e = some cs ∧ (ids ≠ [] ∧ ids.Nodup ∧ ∀ c ∈ ids, c ∈ keys cs)
+  | .xchg _ e add rem _ => ∃ cs, find ss.ents e = some cs ∧ XchgOK ss.zst.length cs add rem
   | .set e vals => ∃ cs, find ss.ents e = some cs ∧ ∀ cv ∈ vals, cv.1 ∈ keys cs
   | .del e => ∃ cs, find ss.ents e = some cs
+  | .copy e => ∃ cs, find ss.ents e = some cs
+  | .shrink _ => True
+  | .reset => True
 
 /-- the inductive invariant of the history machine -/
 structure HInv (s : St) (fl : List Nat) : Prop where
@@ -2669,8 +583,8 @@ theorem id_inj (H : HInv s fl) {x y : Ent} {cs cs' : Comps} (hx : (x, cs) ∈ s.
 /-- the mask of a specified entity is the key set of its entry -/
 theorem mask_iff (H : HInv s fl) {e : Ent} {cs : Comps} (hm : (e, cs) ∈ s.ss.ents) (c : Comp) :
     (s.w.maskOf e).get c = true ↔ c ∈ keys cs := by
-  obtain ⟨_, ha, h2, hnf, _, _⟩ := H.live_facts hm
-  obtain ⟨hc, hreg⟩ := H.cinv.comps_of_live h2 hnf ha
+  obtain ⟨_, ha, h2, hnf, _, hsl⟩ := H.live_facts hm
+  obtain ⟨hc, hreg⟩ := H.cinv.comps_of_live h2 hnf ha (List.getElem?_eq_some_iff.mp hsl).1
   have ok := H.ok e cs hm
   have heq : (s.w.maskOf e).toList s.w.kinds.length = sortedIds s.w.kinds.length (keys cs) :=
     Option.some.inj (hc.symm.trans ok.comps)
@@ -2721,27 +635,48 @@ theorem update (H : HInv s fl) {e : Ent} {cs : Comps} (hm : (e, cs) ∈ s.ss.ent
 
 end HInv
 
+/-- what one operation does to the entity pool: nothing, one `Get`, one `Recycle` of a handle that
+    sits in its slot, or `Reset` -/
+def PoolStep (p p' : Pool) : Prop :=
+  p' = p ∨ p' = (p.get).1 ∨ (∃ e : Ent, p.ents[e.id]? = some e ∧ p' = p.recycle e) ∨ p' = p.reset
+
 /-- the conclusion of every step lemma: the invariant is kept, at most one table and one index
     slot are created, a call whose precondition fails is rejected with the world unchanged, a
-    call whose precondition holds succeeds -/
+    call whose precondition holds succeeds, and the pool makes at most one move -/
 def StepGoal (run : ProbeRunner) (s : St) (op : Op) : Prop :=
   (∃ fl', HInv (step run s op) fl') ∧
   (step run s op).w.tables.length ≤ s.w.tables.length + 1 ∧
   (step run s op).w.entities.length ≤ s.w.entities.length + 1 ∧
   (guard s op = true → ¬ pre s.ss op → ∃ k, exec run s.w op = .panic k s.w) ∧
-  (guard s op = true → pre s.ss op → ∃ r w', exec run s.w op = .ok r w')
+  (guard s op = true → pre s.ss op → ∃ r w', exec run s.w op = .ok r w') ∧
+  PoolStep s.w.pool (step run s op).w.pool
 
 theorem step_of_guard {run : ProbeRunner} {s : St} {op : Op} (hg : guard s op = true) :
+    step run s op = ⟨(exec run s.w op).state, issuedAfter s.issued op (exec run s.w op),
+      specStep s.ss ((retOf (exec run s.w op)).getD default) op⟩ := by
+  rw [step, if_pos hg]
+
+/-- for every operation but `Reset` the returned handle (if any) is added to the issued ones -/
+theorem issuedAfter_nr (issued : List Ent) {op : Op} (hr : op.isReset = false)
+    (r : Res World (Option Ent)) :
+    issuedAfter issued op r = match retOf r with | some e => e :: issued | none => issued := by
+  cases r with
+  | panic k w => rfl
+  | ok ret w => simp only [issuedAfter, hr, Bool.false_eq_true, if_false, retOf]
+
+theorem step_of_guard_nr {run : ProbeRunner} {s : St} {op : Op} (hg : guard s op = true)
+    (hr : op.isReset = false) :
     step run s op = ⟨(exec run s.w op).state,
       (match retOf (exec run s.w op) with | some e => e :: s.issued | none => s.issued),
       specStep s.ss ((retOf (exec run s.w op)).getD default) op⟩ := by
-  rw [step, if_pos hg]
+  rw [step_of_guard hg, issuedAfter_nr _ hr]
 
 theorem stepGoal_no_guard {run : ProbeRunner} {s : St} {fl : List Nat} (H : HInv s fl) {op : Op}
     (hg : ¬ guard s op = true) : StepGoal run s op := by
   have : step run s op = s := by rw [step, if_neg hg]
   refine ⟨⟨fl, by rw [this]; exact H⟩, by rw [this]; exact Nat.le_succ _,
-    by rw [this]; exact Nat.le_succ _, fun h => absurd h hg, fun h => absurd h hg⟩
+    by rw [this]; exact Nat.le_succ _, fun h => absurd h hg, fun h => absurd h hg,
+    by rw [this]; exact Or.inl rfl⟩
 
 /-- a rejected call: the world and the specification are unchanged -/
 theorem stepGoal_rejected {run : ProbeRunner} {s : St} {fl : List Nat} (H : HInv s fl) {op : Op}
@@ -2750,9 +685,10 @@ theorem stepGoal_rejected {run : ProbeRunner} {s : St} {fl : List Nat} (H : HInv
     StepGoal run s op := by
   have : step run s op = s := by
     rw [step_of_guard hg, hex]
-    simp only [Res.state, retOf, hspec]
+    simp only [Res.state, retOf, issuedAfter, hspec]
   refine ⟨⟨fl, by rw [this]; exact H⟩, by rw [this]; exact Nat.le_succ _,
-    by rw [this]; exact Nat.le_succ _, fun _ _ => ⟨k, hex⟩, fun _ hp => absurd hp hnp⟩
+    by rw [this]; exact Nat.le_succ _, fun _ _ => ⟨k, hex⟩, fun _ hp => absurd hp hnp,
+    by rw [this]; exact Or.inl rfl⟩
 
 /-! ### `reg` -/
 
@@ -2767,13 +703,14 @@ theorem step_reg (run : ProbeRunner) {s : St} {fl : List Nat} (H : HInv s fl) (s
       H.cinv.registerComponent (k := { isRel := false, zst := z, size := size }) rfl hr
     have hex : exec run s.w (.reg size z) = .ok none w' := by simp only [exec, hr]
     have hstep : step run s (.reg size z) = ⟨w', s.issued, ⟨s.ss.ents, s.ss.zst ++ [z]⟩⟩ := by
-      rw [step_of_guard hg, hex]
+      rw [step_of_guard_nr hg rfl, hex]
       simp only [Res.state, retOf, specStep, if_pos hlt]
     have hklen : w'.kinds.length = s.w.kinds.length + 1 := by
       rw [hks]; simp only [List.length_append, List.length_singleton]
     refine ⟨⟨fl, ?_⟩, by rw [hstep]; show w'.tables.length ≤ _; rw [htab]; exact Nat.le_succ _,
       by rw [hstep]; show w'.entities.length ≤ _; rw [hent]; exact Nat.le_succ _,
-      fun _ hnp => absurd hlt hnp, fun _ _ => ⟨_, _, hex⟩⟩
+      fun _ hnp => absurd hlt hnp, fun _ _ => ⟨_, _, hex⟩,
+      by rw [hstep]; exact Or.inl hpool⟩
     rw [hstep]
     exact
       { cinv := hc
@@ -2812,25 +749,26 @@ theorem mask_ofList_iff {ids : List Comp} {n : Nat} (hn : n ≤ 256) (c : Nat) (
 
 theorem step_new (run : ProbeRunner) {s : St} {fl : List Nat} (H : HInv s fl)
     (hfew : s.w.tables.length < maxU32) (hent : s.w.entities.length + 1 < 2 ^ 32)
-    (ids : List Comp) (vals : Comps) : StepGoal run s (.new ids vals) := by
-  by_cases hg : guard s (.new ids vals) = true
+    (p : Path) (ids : List Comp) (vals : Comps) : StepGoal run s (.new p ids vals) := by
+  by_cases hg : guard s (.new p ids vals) = true
   case neg => exact stepGoal_no_guard H hg
   have hreg : ∀ c ∈ ids, c < s.ss.zst.length := by
     simpa only [guard, List.all_eq_true, decide_eq_true_eq] using hg
   have hreg' : ∀ (c : Comp), c ∈ ids → c < s.w.kinds.length := by rw [← H.zlen]; exact hreg
   have hb256 : ∀ (c : Comp), c ∈ ids → c < 256 := fun c hc => H.cinv.reg_lt_256 (hreg' c hc)
   by_cases hnd : ids.Nodup
-  · obtain ⟨w', hop, post⟩ := opNewEntity_spec run .unsafe_ H.cinv H.unlocked hnd hreg' vals hfew
+  · obtain ⟨w', hop, post⟩ := opNewEntity_spec run p H.cinv H.unlocked hnd hreg' vals hfew
       (H.hrows hent)
-    have hex : exec run s.w (.new ids vals) = .ok (some (s.w.pool.get).2) w' := by
+    have hex : exec run s.w (.new p ids vals) = .ok (some (s.w.pool.get).2) w' := by
       simp only [exec, hop]
-    have hstep : step run s (.new ids vals) =
+    have hstep : step run s (.new p ids vals) =
         ⟨w', (s.w.pool.get).2 :: s.issued,
           ⟨((s.w.pool.get).2, writeComps s.ss.zst vals (zeros ids)) :: s.ss.ents, s.ss.zst⟩⟩ := by
-      rw [step_of_guard hg, hex]
+      rw [step_of_guard_nr hg rfl, hex]
       simp only [Res.state, retOf, specStep, if_pos (And.intro hnd hreg), Option.getD_some]
     refine ⟨⟨fl.tail, ?_⟩, by rw [hstep]; exact post.tablesLen, by rw [hstep]; exact post.entitiesLen,
-      fun _ hnp => absurd (And.intro hnd hreg) hnp, fun _ _ => ⟨_, _, hex⟩⟩
+      fun _ hnp => absurd (And.intro hnd hreg) hnp, fun _ _ => ⟨_, _, hex⟩,
+      by rw [hstep]; exact Or.inr (Or.inl post.pool)⟩
     rw [hstep]
     have g := Pool.get_spec s.w.pool fl H.cinv.pool
     have hfresh : (s.w.pool.get).2 ∉ s.issued := by
@@ -2886,15 +824,97 @@ theorem step_new (run : ProbeRunner) {s : St} {fl : List Nat} (H : HInv s fl)
                   injection hcv' with h1 h2
                   rw [← h1] at hval ⊢
                   rw [post.vals c hc, hval, ← h2, H.zget] }
-          · obtain ⟨_, ha, _, hnf, _, _⟩ := H.live_facts hx'
-            obtain ⟨_, _, _, hs⟩ := post.live x hnf ha
+          · obtain ⟨_, ha, _, hnf, _, hsl⟩ := H.live_facts hx'
+            obtain ⟨_, _, _, hs⟩ := post.live x hnf ha (List.getElem?_eq_some_iff.mp hsl).1
             exact (H.ok x cs hx').frame hs }
-  · have hop := opNewEntity_dup run .unsafe_ ids vals s.w H.unlocked hb256 hnd
+  · have hop := opNewEntity_dup run p ids vals s.w H.unlocked hb256 hnd
     exact stepGoal_rejected H hg (k := .alreadyHas) (by simp only [exec, hop])
       (fun hp => hnd hp.1)
       (fun _ => by
         have hn : ¬ (ids.Nodup ∧ ∀ c ∈ ids, c < s.ss.zst.length) := fun hp => hnd hp.1
         simp only [specStep, if_neg hn])
+
+/-! ### `new0` -/
+
+theorem sortedIds_nil (n : Nat) : sortedIds n [] = [] := by
+  simp [sortedIds]
+
+/-- the ghost pool history after a successful creation: the returned handle is fresh, the pool
+    invariant continues with the tail of the free list -/
+theorem HInv.fresh_get {s : St} {fl : List Nat} (H : HInv s fl) : (s.w.pool.get).2 ∉ s.issued := by
+  have g := Pool.get_spec s.w.pool fl H.cinv.pool
+  intro hm
+  obtain ⟨_, sl, hsl, hle, hlt⟩ := H.ginv.issued_bound _ hm
+  have hsl' : s.w.pool.ents[(s.w.pool.get).2.id]? = some sl := hsl
+  rcases g.cases with ⟨a, _, _⟩ | ⟨_, b, sl', hsl'', hgen⟩
+  · rw [a, List.getElem?_eq_none (Nat.le_refl _)] at hsl'; cases hsl'
+  · have hmem : (s.w.pool.get).2.id ∈ fl := by rw [b]; exact List.mem_cons_self
+    have := hlt hmem
+    rw [hsl''] at hsl'
+    have : sl' = sl := Option.some.inj hsl'
+    subst this
+    omega
+
+/-- **creation step**: the world `w'` results from taking the handle `(s.w.pool.get).2` from the
+    pool (`PlacedPost`-style facts), and the specification gets the new entry `cs` -/
+theorem HInv.created {s : St} {fl : List Nat} (H : HInv s fl) {w' : World} {cs : Comps}
+    (hc : CInv w' fl.tail) (hpool : w'.pool = (s.w.pool.get).1)
+    (hl : w'.isLocked = s.w.isLocked) (hk : w'.kinds = s.w.kinds)
+    (hmax : w'.maxComps = s.w.maxComps)
+    (hlive : ∀ h : Ent, h.id ∉ fl → s.w.alive h = true → h.id < s.w.pool.ents.length →
+      SameEnt s.w w' h.id)
+    (hok : EntOK w' s.w.kinds.length (s.w.pool.get).2 cs) :
+    HInv ⟨w', (s.w.pool.get).2 :: s.issued, ⟨((s.w.pool.get).2, cs) :: s.ss.ents, s.ss.zst⟩⟩
+      fl.tail := by
+  obtain ⟨fl1, g1⟩ := Pool.step_inv s.ps fl H.ginv .get
+  have hps : s.ps.step .get =
+      (⟨w', (s.w.pool.get).2 :: s.issued, ⟨((s.w.pool.get).2, cs) :: s.ss.ents, s.ss.zst⟩⟩ : St).ps := by
+    show (⟨s.w.pool.get.1, _, _⟩ : Pool.PS) = ⟨w'.pool, _, _⟩
+    rw [hpool]; rfl
+  rw [hps] at g1
+  have hfl : fl1 = fl.tail := g1.pinv.unique hc.pool
+  subst hfl
+  exact
+    { cinv := hc
+      ginv := g1
+      unlocked := hl.trans H.unlocked
+      nodup := List.nodup_cons.mpr ⟨H.fresh_get, H.nodup⟩
+      zstEq := by show s.ss.zst = w'.kinds.map (·.zst); rw [hk]; exact H.zstEq
+      maxc := hmax.trans H.maxc
+      ok := by
+        intro x cs' hx
+        show EntOK w' w'.kinds.length x cs'
+        rw [hk]
+        rcases List.mem_cons.mp hx with heq | hx'
+        · injection heq with h1 h2
+          subst h1; subst h2
+          exact hok
+        · obtain ⟨_, ha, _, hnf, _, hsl⟩ := H.live_facts hx'
+          exact (H.ok x cs' hx').frame (hlive x hnf ha (List.getElem?_eq_some_iff.mp hsl).1) }
+
+theorem step_new0 (run : ProbeRunner) {s : St} {fl : List Nat} (H : HInv s fl)
+    (hent : s.w.entities.length + 1 < 2 ^ 32) : StepGoal run s .new0 := by
+  have hg : guard s .new0 = true := rfl
+  obtain ⟨w', hop, post, hcomps⟩ := opNewEntity0_spec run H.cinv H.unlocked (H.hrows hent 0)
+  have hex : exec run s.w .new0 = .ok (some (s.w.pool.get).2) w' := by
+    simp only [exec, hop]
+  have hstep : step run s .new0 =
+      ⟨w', (s.w.pool.get).2 :: s.issued, ⟨((s.w.pool.get).2, []) :: s.ss.ents, s.ss.zst⟩⟩ := by
+    rw [step_of_guard_nr hg rfl, hex]
+    simp only [Res.state, retOf, specStep, Option.getD_some]
+  refine ⟨⟨fl.tail, ?_⟩,
+    by rw [hstep]; exact Nat.le_trans (Nat.le_of_eq post.tablesLen) (Nat.le_succ _),
+    by rw [hstep]; exact post.entitiesLen,
+    fun _ hnp => absurd trivial hnp, fun _ _ => ⟨_, _, hex⟩,
+    by rw [hstep]; exact Or.inr (Or.inl post.pool)⟩
+  rw [hstep]
+  refine H.created post.cinv post.pool post.unlocked post.kinds post.maxComps
+    (fun x hnf ha hxin => (post.live x hnf ha hxin).2.2.2) ?_
+  exact
+    { nodup := List.nodup_nil
+      reg := by intro c hc; cases hc
+      comps := by rw [hcomps]; show some [] = some (sortedIds _ []); rw [sortedIds_nil]
+      vals := by intro cv hcv; cases hcv }
 
 /-! ### `del` -/
 
@@ -2911,15 +931,17 @@ theorem step_del (run : ProbeRunner) {s : St} {fl : List Nat} (H : HInv s fl) (e
       (by rintro ⟨cs, hcs⟩; rw [hf] at hcs; cases hcs) (fun _ => by simp only [specStep, hf])
   | true =>
     obtain ⟨cs, hf, hm⟩ := H.find_of_alive hi ha
-    obtain ⟨_, _, h2, hnf, _, _⟩ := H.live_facts hm
-    obtain ⟨w', hop, post⟩ := opRemoveEntity_spec run H.cinv H.unlocked h2 hnf ha
+    obtain ⟨_, _, h2, hnf, _, hsl⟩ := H.live_facts hm
+    have hin := (List.getElem?_eq_some_iff.mp hsl).1
+    obtain ⟨w', hop, post⟩ := opRemoveEntity_spec run H.cinv H.unlocked h2 hnf ha hin
     have hex : exec run s.w (.del e) = .ok none w' := by simp only [exec, hop]
     have hstep : step run s (.del e) = ⟨w', s.issued, ⟨del s.ss.ents e, s.ss.zst⟩⟩ := by
-      rw [step_of_guard hg, hex]
+      rw [step_of_guard_nr hg rfl, hex]
       simp only [Res.state, retOf, specStep, hf]
     refine ⟨⟨e.id :: fl, ?_⟩, by rw [hstep]; exact Nat.le_trans (Nat.le_of_eq post.tablesLen) (Nat.le_succ _),
       by rw [hstep]; exact Nat.le_trans (Nat.le_of_eq post.entitiesLen) (Nat.le_succ _),
-      fun _ hnp => absurd ⟨cs, hf⟩ hnp, fun _ _ => ⟨_, _, hex⟩⟩
+      fun _ hnp => absurd ⟨cs, hf⟩ hnp, fun _ _ => ⟨_, _, hex⟩,
+      by rw [hstep]; exact Or.inr (Or.inr (Or.inl ⟨e, hsl, post.pool⟩))⟩
     rw [hstep]
     obtain ⟨fl1, g1⟩ := Pool.step_inv s.ps fl H.ginv (.recycle e)
     have hps : s.ps.step (.recycle e) = (⟨w', s.issued, ⟨del s.ss.ents e, s.ss.zst⟩⟩ : St).ps := by
@@ -2947,9 +969,124 @@ theorem step_del (run : ProbeRunner) {s : St} {fl : List Nat} (H : HInv s fl) (e
             have hk : x ∈ (del s.ss.ents x).map (·.1) := List.mem_map.mpr ⟨(x, cs'), hx, rfl⟩
             rw [del_keys] at hk
             exact List.Nodup.not_mem_erase H.ginv.live_nodup hk
-          obtain ⟨_, hxa, _, hxnf, _, _⟩ := H.live_facts hx'
-          obtain ⟨_, _, hs⟩ := post.live x hxnf hxa hne
+          obtain ⟨_, hxa, _, hxnf, _, hxsl⟩ := H.live_facts hx'
+          obtain ⟨_, _, hs⟩ := post.live x hxnf hxa (List.getElem?_eq_some_iff.mp hxsl).1 hne
           exact (H.ok x cs' hx').frame hs }
+
+/-! ### `copy` -/
+
+theorem step_copy (run : ProbeRunner) {s : St} {fl : List Nat} (H : HInv s fl)
+    (hent : s.w.entities.length + 1 < 2 ^ 32) (e : Ent) : StepGoal run s (.copy e) := by
+  by_cases hg : guard s (.copy e) = true
+  case neg => exact stepGoal_no_guard H hg
+  have hi : e ∈ s.issued := by simpa only [guard, decide_eq_true_eq] using hg
+  cases ha : s.w.alive e with
+  | false =>
+    have hop := opCopyEntity_dead run s.w H.unlocked e ha
+    have hf := H.find_of_dead hi ha
+    exact stepGoal_rejected H hg (k := .deadEntity) (by simp only [exec, hop])
+      (by rintro ⟨cs, hcs⟩; rw [hf] at hcs; cases hcs) (fun _ => by simp only [specStep, hf])
+  | true =>
+    obtain ⟨cs, hf, hm⟩ := H.find_of_alive hi ha
+    obtain ⟨_, _, h2, hnf, _, hsl⟩ := H.live_facts hm
+    have hin := (List.getElem?_eq_some_iff.mp hsl).1
+    have ok := H.ok e cs hm
+    obtain ⟨w', hop, post⟩ := opCopyEntity_spec run H.cinv H.unlocked h2 hnf ha hin (H.hrows hent)
+    have hex : exec run s.w (.copy e) = .ok (some (s.w.pool.get).2) w' := by
+      simp only [exec, hop]
+    have hstep : step run s (.copy e) =
+        ⟨w', (s.w.pool.get).2 :: s.issued, ⟨((s.w.pool.get).2, cs) :: s.ss.ents, s.ss.zst⟩⟩ := by
+      rw [step_of_guard_nr hg rfl, hex]
+      simp only [Res.state, retOf, specStep, hf, Option.getD_some]
+    refine ⟨⟨fl.tail, ?_⟩,
+      by rw [hstep]; exact Nat.le_trans (Nat.le_of_eq post.tablesLen) (Nat.le_succ _),
+      by rw [hstep]; exact post.entitiesLen,
+      fun _ hnp => absurd ⟨cs, hf⟩ hnp, fun _ _ => ⟨_, _, hex⟩,
+      by rw [hstep]; exact Or.inr (Or.inl post.pool)⟩
+    rw [hstep]
+    refine H.created post.cinv post.pool post.unlocked post.kinds post.maxComps
+      (fun x hxf hxa hxin => (post.live x hxf hxa hxin).2.2.2) ?_
+    exact
+      { nodup := ok.nodup
+        reg := ok.reg
+        comps := by rw [post.comps]; exact ok.comps
+        vals := fun cv hcv => by rw [post.vals]; exact ok.vals cv hcv }
+
+/-! ### `shrink` -/
+
+theorem step_shrink (run : ProbeRunner) {s : St} {fl : List Nat} (H : HInv s fl)
+    (hent : s.w.entities.length + 1 < 2 ^ 32) (bounded : Bool) :
+    StepGoal run s (.shrink bounded) := by
+  have hg : guard s (.shrink bounded) = true := rfl
+  obtain ⟨b, w', hop, post⟩ := opShrink_spec H.cinv H.unlocked (H.hrows hent) bounded
+  have hex : exec run s.w (.shrink bounded) = .ok none w' := by simp only [exec, hop]
+  have hstep : step run s (.shrink bounded) = ⟨w', s.issued, s.ss⟩ := by
+    rw [step_of_guard_nr hg rfl, hex]
+    simp only [Res.state, retOf, specStep]
+  refine ⟨⟨fl, ?_⟩,
+    by rw [hstep]; exact Nat.le_trans (Nat.le_of_eq post.tablesLen) (Nat.le_succ _),
+    by rw [hstep]; show w'.entities.length ≤ _; rw [post.entities]; exact Nat.le_succ _,
+    fun _ hnp => absurd trivial hnp, fun _ _ => ⟨_, _, hex⟩,
+    by rw [hstep]; exact Or.inl post.pool⟩
+  rw [hstep]
+  exact
+    { cinv := post.cinv
+      ginv := by
+        have : (⟨w', s.issued, s.ss⟩ : St).ps = s.ps := by simp only [St.ps, post.pool]
+        rw [this]; exact H.ginv
+      unlocked := post.unlocked.trans H.unlocked
+      nodup := H.nodup
+      zstEq := by show s.ss.zst = w'.kinds.map (·.zst); rw [post.kinds]; exact H.zstEq
+      maxc := post.maxComps.trans H.maxc
+      ok := by
+        intro x cs hx
+        show EntOK w' w'.kinds.length x cs
+        rw [post.kinds]
+        exact (H.ok x cs hx).frame (post.same x.id) }
+
+/-! ### `reset` -/
+
+/-- the ghost pool history of a new epoch: nothing issued, nothing live -/
+theorem ginv_reset {p : Pool} {fl : List Nat} (h : Pool.PInv p fl) :
+    Pool.GInv ⟨p.reset, [], []⟩ [] := by
+  have hl : (p.ents.take Pool.reserved).length = 2 := by
+    rw [List.length_take]; have := h.len2; show min 2 _ = 2; omega
+  refine ⟨h.reset, ?_, List.nodup_nil, (fun x hx => by cases hx), (fun x hx => by cases hx), ?_⟩
+  · intro x
+    constructor
+    · intro hx; cases hx
+    · rintro ⟨h2, _, hs⟩
+      have hs' : (p.ents.take Pool.reserved)[x.id]? = some x := hs
+      have := (List.getElem?_eq_some_iff.mp hs').1
+      omega
+  · show (p.ents.take Pool.reserved).length = 2 + 0 + 0
+    omega
+
+theorem step_reset (run : ProbeRunner) {s : St} {fl : List Nat} (H : HInv s fl) :
+    StepGoal run s .reset := by
+  have hg : guard s .reset = true := rfl
+  obtain ⟨w', hop, post⟩ := opReset_spec H.cinv H.unlocked
+  have hex : exec run s.w .reset = .ok none w' := by simp only [exec, hop]
+  have hstep : step run s .reset = ⟨w', [], ⟨[], s.ss.zst⟩⟩ := by
+    rw [step_of_guard hg, hex]
+    simp only [Res.state, issuedAfter, Op.isReset, if_true, specStep]
+  have h2 : 2 ≤ s.w.entities.length := by rw [H.cinv.lenEq]; exact H.cinv.pool.len2
+  refine ⟨⟨[], ?_⟩,
+    by rw [hstep]; exact Nat.le_trans (Nat.le_of_eq post.tablesLen) (Nat.le_succ _),
+    by rw [hstep]; show w'.entities.length ≤ _; rw [post.entitiesLen]; omega,
+    fun _ hnp => absurd trivial hnp, fun _ _ => ⟨_, _, hex⟩,
+    by rw [hstep]; exact Or.inr (Or.inr (Or.inr post.pool))⟩
+  rw [hstep]
+  exact
+    { cinv := post.cinv
+      ginv := by
+        show Pool.GInv ⟨w'.pool, [], []⟩ []
+        rw [post.pool]; exact ginv_reset H.cinv.pool
+      unlocked := post.unlocked
+      nodup := List.nodup_nil
+      zstEq := by show s.ss.zst = w'.kinds.map (·.zst); rw [post.kinds]; exact H.zstEq
+      maxc := post.maxComps.trans H.maxc
+      ok := by intro x cs hx; cases hx }
 
 /-! ### `add` -/
 
@@ -2958,8 +1095,8 @@ theorem keys_append (a b : Comps) : keys (a ++ b) = keys a ++ keys b := by
 
 theorem step_add (run : ProbeRunner) {s : St} {fl : List Nat} (H : HInv s fl)
     (hfew : s.w.tables.length < maxU32) (hent : s.w.entities.length + 1 < 2 ^ 32)
-    (e : Ent) (ids : List Comp) (vals : Comps) : StepGoal run s (.add e ids vals) := by
-  by_cases hg : guard s (.add e ids vals) = true
+    (p : Path) (e : Ent) (ids : List Comp) (vals : Comps) : StepGoal run s (.add p e ids vals) := by
+  by_cases hg : guard s (.add p e ids vals) = true
   case neg => exact stepGoal_no_guard H hg
   have hg' : e ∈ s.issued ∧ ∀ c ∈ ids, c < s.ss.zst.length := by
     simpa only [guard, Bool.and_eq_true, List.all_eq_true, decide_eq_true_eq] using hg
@@ -2968,13 +1105,14 @@ theorem step_add (run : ProbeRunner) {s : St} {fl : List Nat} (H : HInv s fl)
   have hb256 : ∀ (c : Comp), c ∈ ids → c < 256 := fun c hc => H.cinv.reg_lt_256 (hreg' c hc)
   cases ha : s.w.alive e with
   | false =>
-    have hop := opAdd_dead run .unsafe_ e ids vals [] s.w (by decide) ha
+    have hop := opAdd_dead_any run p e ids vals s.w H.unlocked ha
     have hf := H.find_of_dead hi ha
     exact stepGoal_rejected H hg (k := .deadEntity) (by simp only [exec, hop])
       (by rintro ⟨cs, hcs, _⟩; rw [hf] at hcs; cases hcs) (fun _ => by simp only [specStep, hf])
   | true =>
     obtain ⟨cs, hf, hm⟩ := H.find_of_alive hi ha
-    obtain ⟨_, _, h2, hnf, _, _⟩ := H.live_facts hm
+    obtain ⟨_, _, h2, hnf, _, hsl⟩ := H.live_facts hm
+    have hin := (List.getElem?_eq_some_iff.mp hsl).1
     have ok := H.ok e cs hm
     by_cases hv : ids ≠ [] ∧ ids.Nodup ∧ ∀ c ∈ ids, c < s.ss.zst.length ∧ c ∉ keys cs
     · obtain ⟨hne, hnd, hall⟩ := hv
@@ -2983,17 +1121,18 @@ theorem step_add (run : ProbeRunner) {s : St} {fl : List Nat} (H : HInv s fl)
         cases hgc : (s.w.maskOf e).get c with
         | false => rfl
         | true => exact absurd ((H.mask_iff hm c).mp hgc) (hall c hc).2
-      obtain ⟨w', hop, post⟩ := opAdd_spec run .unsafe_ H.cinv H.unlocked h2 hnf ha hne hnd hreg'
+      obtain ⟨w', hop, post⟩ := opAdd_spec run p H.cinv H.unlocked h2 hnf ha hin hne hnd hreg'
         hnew vals hfew (H.hrows hent)
-      have hex : exec run s.w (.add e ids vals) = .ok none w' := by simp only [exec, hop]
-      have hstep : step run s (.add e ids vals) =
+      have hex : exec run s.w (.add p e ids vals) = .ok none w' := by simp only [exec, hop]
+      have hstep : step run s (.add p e ids vals) =
           ⟨w', s.issued, ⟨upd s.ss.ents e fun cs => writeComps s.ss.zst vals (cs ++ zeros ids),
             s.ss.zst⟩⟩ := by
-        rw [step_of_guard hg, hex]
+        rw [step_of_guard_nr hg rfl, hex]
         simp only [Res.state, retOf, specStep, hf, if_pos (And.intro hne (And.intro hnd hall))]
       refine ⟨⟨fl, ?_⟩, by rw [hstep]; exact post.tablesLen,
         by rw [hstep]; exact Nat.le_trans (Nat.le_of_eq post.entitiesLen) (Nat.le_succ _),
-        fun _ hnp => absurd ⟨cs, hf, hne, hnd, hall⟩ hnp, fun _ _ => ⟨_, _, hex⟩⟩
+        fun _ hnp => absurd ⟨cs, hf, hne, hnd, hall⟩ hnp, fun _ _ => ⟨_, _, hex⟩,
+        by rw [hstep]; exact Or.inl post.pool⟩
       rw [hstep]
       have hk : keys (writeComps s.ss.zst vals (cs ++ zeros ids)) = keys cs ++ ids := by
         rw [keys_writeComps, keys_append, keys_zeros]
@@ -3027,7 +1166,7 @@ theorem step_add (run : ProbeRunner) {s : St} {fl : List Nat} (H : HInv s fl)
               injection hcv' with h3 h4
               rw [← h3] at hval ⊢
               rw [post.added c hc, hval, ← h4, H.zget] }
-    · have hpanic : ∃ k, opAdd run .unsafe_ e ids vals [] s.w = .panic k s.w := by
+    · have hpanic : ∃ k, opAdd run p e ids vals [] s.w = .panic k s.w := by
         by_cases hne : ids = []
         · subst hne
           exact ⟨_, opAdd_panic run _ e [] vals s.w ha (addCore_noComponents s.w H.unlocked e ha [])⟩
@@ -3059,35 +1198,37 @@ theorem mem_keys_filter {cs : Comps} {ids : List Comp} {c : Comp} :
 
 theorem step_rem (run : ProbeRunner) {s : St} {fl : List Nat} (H : HInv s fl)
     (hfew : s.w.tables.length < maxU32) (hent : s.w.entities.length + 1 < 2 ^ 32)
-    (e : Ent) (ids : List Comp) : StepGoal run s (.rem e ids) := by
-  by_cases hg : guard s (.rem e ids) = true
+    (p : Path) (e : Ent) (ids : List Comp) : StepGoal run s (.rem p e ids) := by
+  by_cases hg : guard s (.rem p e ids) = true
   case neg => exact stepGoal_no_guard H hg
   have hi : e ∈ s.issued := by simpa only [guard, decide_eq_true_eq] using hg
   cases ha : s.w.alive e with
   | false =>
-    have hop := opRemove_dead run .unsafe_ e ids s.w (by decide) ha
+    have hop := opRemove_dead_any run p e ids s.w H.unlocked ha
     have hf := H.find_of_dead hi ha
     exact stepGoal_rejected H hg (k := .deadEntity) (by simp only [exec, hop])
       (by rintro ⟨cs, hcs, _⟩; rw [hf] at hcs; cases hcs) (fun _ => by simp only [specStep, hf])
   | true =>
     obtain ⟨cs, hf, hm⟩ := H.find_of_alive hi ha
-    obtain ⟨_, _, h2, hnf, _, _⟩ := H.live_facts hm
+    obtain ⟨_, _, h2, hnf, _, hsl⟩ := H.live_facts hm
+    have hin := (List.getElem?_eq_some_iff.mp hsl).1
     have ok := H.ok e cs hm
     by_cases hv : ids ≠ [] ∧ ids.Nodup ∧ ∀ c ∈ ids, c ∈ keys cs
     · obtain ⟨hne, hnd, hall⟩ := hv
       have hpres : ∀ (c : Comp), c ∈ ids → (s.w.maskOf e).get c = true :=
         fun c hc => (H.mask_iff hm c).mpr (hall c hc)
-      obtain ⟨w', hop, post⟩ := opRemove_spec run .unsafe_ H.cinv H.unlocked h2 hnf ha hne hnd
+      obtain ⟨w', hop, post⟩ := opRemove_spec run p H.cinv H.unlocked h2 hnf ha hin hne hnd
         hpres hfew (H.hrows hent)
-      have hex : exec run s.w (.rem e ids) = .ok none w' := by simp only [exec, hop]
-      have hstep : step run s (.rem e ids) =
+      have hex : exec run s.w (.rem p e ids) = .ok none w' := by simp only [exec, hop]
+      have hstep : step run s (.rem p e ids) =
           ⟨w', s.issued, ⟨upd s.ss.ents e fun cs => cs.filter fun cv => decide (cv.1 ∉ ids),
             s.ss.zst⟩⟩ := by
-        rw [step_of_guard hg, hex]
+        rw [step_of_guard_nr hg rfl, hex]
         simp only [Res.state, retOf, specStep, hf, if_pos (And.intro hne (And.intro hnd hall))]
       refine ⟨⟨fl, ?_⟩, by rw [hstep]; exact post.tablesLen,
         by rw [hstep]; exact Nat.le_trans (Nat.le_of_eq post.entitiesLen) (Nat.le_succ _),
-        fun _ hnp => absurd ⟨cs, hf, hne, hnd, hall⟩ hnp, fun _ _ => ⟨_, _, hex⟩⟩
+        fun _ hnp => absurd ⟨cs, hf, hne, hnd, hall⟩ hnp, fun _ _ => ⟨_, _, hex⟩,
+        by rw [hstep]; exact Or.inl post.pool⟩
       rw [hstep]
       refine H.update hm _ post.cinv post.pool post.unlocked post.kinds post.maxComps post.frame ?_
       exact
@@ -3107,7 +1248,7 @@ theorem step_rem (run : ProbeRunner) {s : St} {fl : List Nat} (H : HInv s fl)
             have hkey : cv.1 ∈ keys cs := List.mem_map.mpr ⟨cv, h1, rfl⟩
             rw [post.kept cv.1 ((H.mask_iff hm cv.1).mpr hkey) hnot]
             exact ok.vals cv h1 }
-    · have hpanic : ∃ k, opRemove run .unsafe_ e ids s.w = .panic k s.w := by
+    · have hpanic : ∃ k, opRemove run p e ids s.w = .panic k s.w := by
         rw [opRemove_eq run _ e ids s.w ha]
         by_cases hne : ids = []
         · subst hne
@@ -3115,6 +1256,115 @@ theorem step_rem (run : ProbeRunner) {s : St} {fl : List Nat} (H : HInv s fl)
         · refine ⟨_, removeCore_missing run e ids s.w H.unlocked ha hne ?_⟩
           rintro ⟨hnd, hp⟩
           exact hv ⟨hne, hnd, fun c hc => (H.mask_iff hm c).mp (hp c hc)⟩
+      obtain ⟨k, hop⟩ := hpanic
+      exact stepGoal_rejected H hg (k := k) (by simp only [exec, hop])
+        (by
+          rintro ⟨cs', hcs', hp⟩
+          rw [hf] at hcs'
+          rw [← Option.some.inj hcs'] at hp
+          exact hv hp)
+        (fun _ => by simp only [specStep, hf, if_neg hv])
+
+/-! ### `xchg` -/
+
+theorem step_xchg (run : ProbeRunner) {s : St} {fl : List Nat} (H : HInv s fl)
+    (hfew : s.w.tables.length < maxU32) (hent : s.w.entities.length + 1 < 2 ^ 32)
+    (p : Path) (e : Ent) (add rem : List Comp) (vals : Comps) :
+    StepGoal run s (.xchg p e add rem vals) := by
+  by_cases hg : guard s (.xchg p e add rem vals) = true
+  case neg => exact stepGoal_no_guard H hg
+  have hg' : e ∈ s.issued ∧ ∀ c ∈ add, c < s.ss.zst.length := by
+    simpa only [guard, Bool.and_eq_true, List.all_eq_true, decide_eq_true_eq] using hg
+  obtain ⟨hi, hreg⟩ := hg'
+  have hreg' : ∀ (c : Comp), c ∈ add → c < s.w.kinds.length := by rw [← H.zlen]; exact hreg
+  have hb256 : ∀ (c : Comp), c ∈ add → c < 256 := fun c hc => H.cinv.reg_lt_256 (hreg' c hc)
+  cases ha : s.w.alive e with
+  | false =>
+    have hop := opExchange_dead_any run p e add vals rem s.w H.unlocked ha
+    have hf := H.find_of_dead hi ha
+    exact stepGoal_rejected H hg (k := .deadEntity) (by simp only [exec, hop])
+      (by rintro ⟨cs, hcs, _⟩; rw [hf] at hcs; cases hcs) (fun _ => by simp only [specStep, hf])
+  | true =>
+    obtain ⟨cs, hf, hm⟩ := H.find_of_alive hi ha
+    obtain ⟨_, _, h2, hnf, _, hsl⟩ := H.live_facts hm
+    have hin := (List.getElem?_eq_some_iff.mp hsl).1
+    have ok := H.ok e cs hm
+    by_cases hv : XchgOK s.ss.zst.length cs add rem
+    · obtain ⟨hne, hrnd, hrall, hand, hall⟩ := hv
+      have hpres : ∀ (c : Comp), c ∈ rem → (s.w.maskOf e).get c = true :=
+        fun c hc => (H.mask_iff hm c).mpr (hrall c hc)
+      have hnew : ∀ (c : Comp), c ∈ add → (s.w.maskOf e).get c = false := by
+        intro c hc
+        cases hgc : (s.w.maskOf e).get c with
+        | false => rfl
+        | true => exact absurd ((H.mask_iff hm c).mp hgc) (hall c hc).2
+      obtain ⟨w', hop, post⟩ := opExchange_spec run p H.cinv H.unlocked h2 hnf ha hin hne hrnd hpres
+        hand hreg' hnew vals hfew (H.hrows hent)
+      have hex : exec run s.w (.xchg p e add rem vals) = .ok none w' := by simp only [exec, hop]
+      have hv' : XchgOK s.ss.zst.length cs add rem := ⟨hne, hrnd, hrall, hand, hall⟩
+      have hstep : step run s (.xchg p e add rem vals) =
+          ⟨w', s.issued, ⟨upd s.ss.ents e fun cs =>
+            writeComps s.ss.zst vals ((cs.filter fun cv => decide (cv.1 ∉ rem)) ++ zeros add),
+            s.ss.zst⟩⟩ := by
+        rw [step_of_guard_nr hg rfl, hex]
+        simp only [Res.state, retOf, specStep, hf, if_pos hv']
+      refine ⟨⟨fl, ?_⟩, by rw [hstep]; exact post.tablesLen,
+        by rw [hstep]; exact Nat.le_trans (Nat.le_of_eq post.entitiesLen) (Nat.le_succ _),
+        fun _ hnp => absurd ⟨cs, hf, hv'⟩ hnp, fun _ _ => ⟨_, _, hex⟩,
+        by rw [hstep]; exact Or.inl post.pool⟩
+      rw [hstep]
+      have hk : keys (writeComps s.ss.zst vals
+          ((cs.filter fun cv => decide (cv.1 ∉ rem)) ++ zeros add)) =
+          keys (cs.filter fun cv => decide (cv.1 ∉ rem)) ++ add := by
+        rw [keys_writeComps, keys_append, keys_zeros]
+      refine H.update hm _ post.cinv post.pool post.unlocked post.kinds post.maxComps post.frame ?_
+      exact
+        { nodup := by
+            rw [hk]
+            exact List.nodup_append.mpr
+              ⟨List.Nodup.sublist (List.Sublist.map _ List.filter_sublist) ok.nodup, hand,
+                fun a ha b hb hab => (hall b hb).2 (hab ▸ (mem_keys_filter.mp ha).1)⟩
+          reg := by
+            rw [hk]
+            intro c hc
+            rcases List.mem_append.mp hc with h1 | h1
+            · exact ok.reg c (mem_keys_filter.mp h1).1
+            · exact hreg' c h1
+          comps := by
+            rw [post.comps, hk]
+            congr 1
+            apply toList_eq_sortedIds
+            intro c hc
+            have hc256 : c < 256 := by have := H.cinv.kindsLe; omega
+            rw [Mask.get_ofList_foldl, Mask.get_foldl_clear, List.mem_append, mem_keys_filter,
+              Bool.or_eq_true, Bool.and_eq_true, H.mask_iff hm c]
+            simp [hc256]
+          vals := by
+            intro cv hcv
+            obtain ⟨v, hv, hval⟩ := mem_writeComps hcv
+            rcases List.mem_append.mp hv with h1 | h1
+            · obtain ⟨h1, h3⟩ := List.mem_filter.mp h1
+              have hnot : cv.1 ∉ rem := by simpa using h3
+              have hkey : cv.1 ∈ keys cs := List.mem_map.mpr ⟨(cv.1, v), h1, rfl⟩
+              rw [post.kept cv.1 v ((H.mask_iff hm cv.1).mpr hkey) hnot (ok.vals (cv.1, v) h1),
+                hval, H.zget]
+            · simp only [zeros, List.mem_map] at h1
+              obtain ⟨c, hc, hcv'⟩ := h1
+              injection hcv' with h3 h4
+              rw [← h3] at hval ⊢
+              rw [post.added c hc, hval, ← h4, H.zget] }
+    · have hpanic : ∃ k, opExchange run p e add vals rem [] s.w = .panic k s.w := by
+        by_cases hne : add = [] ∧ rem = []
+        · obtain ⟨rfl, rfl⟩ := hne
+          exact ⟨_, opExchange_panic run _ e [] vals [] s.w ha
+            (exchangeCore_noComponents run s.w H.unlocked e ha [])⟩
+        · obtain ⟨k, _, hk⟩ := exchangeCore_reject run e add rem [] s.w H.unlocked ha hne hb256 (by
+            rintro ⟨hrnd, hpres, hand, hnew⟩
+            refine hv ⟨hne, hrnd, fun c hc => (H.mask_iff hm c).mp (hpres c hc), hand,
+              fun c hc => ⟨hreg c hc, fun hk => ?_⟩⟩
+            have := (H.mask_iff hm c).mpr hk
+            rw [hnew c hc] at this; cases this)
+          exact ⟨k, opExchange_panic run _ e add vals rem s.w ha hk⟩
       obtain ⟨k, hop⟩ := hpanic
       exact stepGoal_rejected H hg (k := k) (by simp only [exec, hop])
         (by
@@ -3139,7 +1389,8 @@ theorem step_set (run : ProbeRunner) {s : St} {fl : List Nat} (H : HInv s fl)
       (by rintro ⟨cs, hcs, _⟩; rw [hf] at hcs; cases hcs) (fun _ => by simp only [specStep, hf])
   | true =>
     obtain ⟨cs, hf, hm⟩ := H.find_of_alive hi ha
-    obtain ⟨_, _, h2, hnf, _, _⟩ := H.live_facts hm
+    obtain ⟨_, _, h2, hnf, _, hsl⟩ := H.live_facts hm
+    have hin := (List.getElem?_eq_some_iff.mp hsl).1
     have ok := H.ok e cs hm
     have hiff : (∀ (c : Comp), c ∈ keys vals → (s.w.maskOf e).get c = true) ↔
         ∀ cv ∈ vals, cv.1 ∈ keys cs := by
@@ -3150,16 +1401,17 @@ theorem step_set (run : ProbeRunner) {s : St} {fl : List Nat} (H : HInv s fl)
         obtain ⟨cv, hcv, rfl⟩ := List.mem_map.mp hc
         exact (H.mask_iff hm cv.1).mpr (hh cv hcv)
     by_cases hv : ∀ cv ∈ vals, cv.1 ∈ keys cs
-    · obtain ⟨w', hop, post⟩ := opSet_spec_c run H.cinv h2 hnf ha (hiff.mpr hv) vals
+    · obtain ⟨w', hop, post⟩ := opSet_spec_c run H.cinv h2 hnf ha hin (hiff.mpr hv) vals
       have hex : exec run s.w (.set e vals) = .ok none w' := by simp only [exec, hop]
       have hstep : step run s (.set e vals) =
           ⟨w', s.issued, ⟨upd s.ss.ents e (writeComps s.ss.zst vals), s.ss.zst⟩⟩ := by
-        rw [step_of_guard hg, hex]
+        rw [step_of_guard_nr hg rfl, hex]
         simp only [Res.state, retOf, specStep, hf, if_pos hv]
       refine ⟨⟨fl, ?_⟩,
         by rw [hstep]; exact Nat.le_trans (Nat.le_of_eq post.tablesLen) (Nat.le_succ _),
         by rw [hstep]; exact Nat.le_trans (Nat.le_of_eq post.entitiesLen) (Nat.le_succ _),
-        fun _ hnp => absurd ⟨cs, hf, hv⟩ hnp, fun _ _ => ⟨_, _, hex⟩⟩
+        fun _ hnp => absurd ⟨cs, hf, hv⟩ hnp, fun _ _ => ⟨_, _, hex⟩,
+        by rw [hstep]; exact Or.inl post.pool⟩
       rw [hstep]
       refine H.update hm _ post.cinv post.pool post.unlocked post.kinds post.maxComps post.frame ?_
       exact
@@ -3170,7 +1422,7 @@ theorem step_set (run : ProbeRunner) {s : St} {fl : List Nat} (H : HInv s fl)
             intro cv hcv
             obtain ⟨v, hv', hval⟩ := mem_writeComps hcv
             rw [post.vals cv.1 v (ok.vals (cv.1, v) hv'), hval, H.zget] }
-    · have hop := opSet_missing_c run H.cinv h2 hnf ha (ids := keys vals)
+    · have hop := opSet_missing_c run H.cinv h2 hnf ha hin (ids := keys vals)
         (fun hh => hv (hiff.mp hh)) vals
       exact stepGoal_rejected H hg (k := .missing) (by simp only [exec, hop])
         (by
@@ -3187,11 +1439,16 @@ theorem step_goal (run : ProbeRunner) {s : St} {fl : List Nat} (H : HInv s fl)
     StepGoal run s op := by
   cases op with
   | reg size z => exact step_reg run H size z
-  | new ids vals => exact step_new run H hfew hent ids vals
-  | add e ids vals => exact step_add run H hfew hent e ids vals
-  | rem e ids => exact step_rem run H hfew hent e ids
+  | new p ids vals => exact step_new run H hfew hent p ids vals
+  | new0 => exact step_new0 run H hent
+  | add p e ids vals => exact step_add run H hfew hent p e ids vals
+  | rem p e ids => exact step_rem run H hfew hent p e ids
+  | xchg p e add rem vals => exact step_xchg run H hfew hent p e add rem vals
   | set e vals => exact step_set run H e vals
   | del e => exact step_del run H e
+  | copy e => exact step_copy run H hent e
+  | shrink bounded => exact step_shrink run H hent bounded
+  | reset => exact step_reset run H
 
 /-- the invariant holds after every history that stays within the size bounds; every operation
     creates at most one table and one index slot -/
@@ -3232,6 +1489,149 @@ theorem reach_snoc (run : ProbeRunner) (cap rel : Nat) (ops : List Op) (op : Op)
     reach run cap rel (ops ++ [op]) = step run (reach run cap rel ops) op := by
   simp only [reach, runOps, List.foldl_append, List.foldl_cons, List.foldl_nil]
 
+/-! ### the access path does not matter -/
+
+/-- the same operation through the access path `p` (operations without a path are unchanged) -/
+def Op.withPath (p : Path) : Op → Op
+  | .new _ ids vals => .new p ids vals
+  | .add _ e ids vals => .add p e ids vals
+  | .rem _ e ids => .rem p e ids
+  | .xchg _ e adds rems vals => .xchg p e adds rems vals
+  | op => op
+
+/-- **any access path** — on an unlocked world without observers the model gives the same result
+    (world, returned handle, or panic) whichever access path the operation takes -/
+theorem exec_path_indep (run : ProbeRunner) (w : World) (hl : w.isLocked = false)
+    (hno : ∀ evt : Nat, w.obs.hasObservers evt = false) (p : Path) (op : Op) :
+    exec run w (op.withPath p) = exec run w op := by
+  cases op with
+  | new q ids vals => simp only [Op.withPath, exec, opNewEntity_path_indep run p q ids vals w hno]
+  | add q e ids vals => simp only [Op.withPath, exec, opAdd_path_indep run p q e ids vals w hl hno]
+  | rem q e ids => simp only [Op.withPath, exec, opRemove_path_indep run p q e ids w hl]
+  | xchg q e add rem vals =>
+    simp only [Op.withPath, exec, opExchange_path_indep run p q e add vals rem w hl hno]
+  | reg _ _ => rfl
+  | new0 => rfl
+  | set _ _ => rfl
+  | del _ => rfl
+  | copy _ => rfl
+  | shrink _ => rfl
+  | reset => rfl
+
+/-- … and so does the machine: specification step and guard do not look at the path -/
+theorem step_path_indep (run : ProbeRunner) {s : St} {fl : List Nat} (H : HInv s fl) (p : Path)
+    (op : Op) : step run s (op.withPath p) = step run s op := by
+  have hex := exec_path_indep run s.w H.unlocked H.cinv.noObs p op
+  have hgd : guard s (op.withPath p) = guard s op := by cases op <;> rfl
+  have hsp : ∀ fresh, specStep s.ss fresh (op.withPath p) = specStep s.ss fresh op := by
+    intro fresh; cases op <;> rfl
+  have hir : (op.withPath p).isReset = op.isReset := by cases op <;> rfl
+  have hia : ∀ r, issuedAfter s.issued (op.withPath p) r = issuedAfter s.issued op r := by
+    intro r; cases r <;> simp only [issuedAfter, hir]
+  simp only [step, hgd, hex, hsp, hia]
+
+/-! ### generations are bounded by the length of the history -/
+
+/-- no generation of a non-reserved pool slot exceeds `n` -/
+def GenBound (n : Nat) (p : Pool) : Prop :=
+  ∀ (i : Nat) (e : Ent), p.ents[i]? = some e → 2 ≤ i → e.gen ≤ n
+
+theorem GenBound.step {n : Nat} {p p' : Pool} (h : GenBound n p) (hs : PoolStep p p') :
+    GenBound (n + 1) p' := by
+  rcases hs with rfl | rfl | ⟨x, hx, rfl⟩ | rfl
+  · intro i e he h2; exact Nat.le_succ_of_le (h i e he h2)
+  · intro i e he h2
+    by_cases hav : p.available = 0
+    · have hget : p.get = p.getNew := by simp [Pool.get, hav]
+      rw [hget] at he
+      simp only [Pool.getNew] at he
+      rcases Nat.lt_or_ge i p.ents.length with h1 | h1
+      · rw [List.getElem?_append_left h1] at he
+        exact Nat.le_succ_of_le (h i e he h2)
+      · rw [List.getElem?_append_right h1] at he
+        cases hk : i - p.ents.length with
+        | zero =>
+          rw [hk] at he
+          simp only [List.getElem?_cons_zero, Option.some.injEq] at he
+          rw [← he]; exact Nat.zero_le _
+        | succ k => rw [hk] at he; simp at he
+    · have hget : p.get = p.getRecycled := by simp [Pool.get, hav]
+      rw [hget] at he
+      simp only [Pool.getRecycled] at he
+      by_cases hi : p.next = i
+      · have hlt : i < p.ents.length := by
+          have := (List.getElem?_eq_some_iff.mp he).1
+          simpa using this
+        rw [hi, List.getElem?_set_self hlt] at he
+        have hsl : p.ents[i]? = some (p.ents.getD i default) := by
+          rw [List.getD_eq_getElem?_getD, List.getElem?_eq_getElem hlt]; rfl
+        have := h i _ hsl h2
+        rw [← Option.some.inj he]
+        exact Nat.le_succ_of_le this
+      · rw [List.getElem?_set_ne hi] at he
+        exact Nat.le_succ_of_le (h i e he h2)
+  · intro i e he h2
+    simp only [Pool.recycle] at he
+    by_cases hi : x.id = i
+    · have hlt : i < p.ents.length := by
+        have := (List.getElem?_eq_some_iff.mp he).1
+        simpa using this
+      rw [hi, List.getElem?_set_self hlt] at he
+      have hgd : p.ents.getD i default = x := by
+        rw [List.getD_eq_getElem?_getD, ← hi, hx]; rfl
+      rw [← Option.some.inj he]
+      show (p.ents.getD i default).gen + 1 ≤ n + 1
+      rw [hgd]
+      exact Nat.succ_le_succ (h x.id x hx (by rw [hi]; exact h2))
+    · rw [List.getElem?_set_ne hi] at he
+      exact Nat.le_succ_of_le (h i e he h2)
+  · intro i e he h2
+    have he' : (p.ents.take Pool.reserved)[i]? = some e := he
+    have := (List.getElem?_eq_some_iff.mp he').1
+    rw [List.length_take] at this
+    have : i < 2 := Nat.lt_of_lt_of_le this (Nat.min_le_left _ _)
+    omega
+
+theorem run_genBound (run : ProbeRunner) (ops : List Op) : ∀ (s : St) (fl : List Nat) (n : Nat),
+    HInv s fl → s.w.tables.length + ops.length ≤ maxU32 → s.w.entities.length + ops.length < 2 ^ 32 →
+    GenBound n s.w.pool → GenBound (n + ops.length) (runOps run s ops).w.pool := by
+  induction ops with
+  | nil => intro s fl n _ _ _ hb; exact hb
+  | cons op ops ih =>
+    intro s fl n h hb1 hb2 hb
+    simp only [List.length_cons] at hb1 hb2 ⊢
+    obtain ⟨⟨fl1, h1⟩, g1, g2, _, _, hp⟩ := step_goal run h (by omega) (by omega) op
+    have := ih _ fl1 (n + 1) h1 (by omega) (by omega) (hb.step hp)
+    rw [show n + (ops.length + 1) = n + 1 + ops.length by omega]
+    exact this
+
+/-- after a history of `n` operations no generation exceeds `n`; in particular (the history bound)
+    no handle that was issued carries the sentinel generation `maxU32` -/
+theorem reach_genBound (run : ProbeRunner) (cap rel : Nat) (ops : List Op)
+    (hlen : ops.length < 2 ^ 32 - 2) :
+    GenBound ops.length (reach run cap rel ops).w.pool ∧
+    ∀ h ∈ (reach run cap rel ops).issued, h.gen ≤ ops.length ∧ h.gen ≠ maxU32 := by
+  have hb : GenBound ops.length (reach run cap rel ops).w.pool := by
+    have := run_genBound run ops _ [] 0 (hinv_init cap rel)
+      (by show 1 + ops.length ≤ maxU32; simp only [maxU32]; omega)
+      (by show 2 + ops.length < 2 ^ 32; omega)
+      (by
+        intro i e he h2
+        have he' : ([⟨0, maxU32⟩, ⟨1, maxU32⟩] : List Ent)[i]? = some e := he
+        have := (List.getElem?_eq_some_iff.mp he').1
+        simp only [List.length_cons, List.length_nil] at this
+        omega)
+    rw [Nat.zero_add] at this
+    exact this
+  refine ⟨hb, fun h hi => ?_⟩
+  obtain ⟨fl, hinv⟩ := reach_hinv run cap rel ops hlen
+  obtain ⟨h2, sl, hsl, hle, _⟩ := hinv.ginv.issued_bound h hi
+  have := hb h.id sl hsl h2
+  have hle' : h.gen ≤ ops.length := Nat.le_trans hle this
+  refine ⟨hle', ?_⟩
+  simp only [maxU32]
+  omega
+
 /-! ### specification-level facts: rejected steps, frame -/
 
 /-- an operation whose precondition fails leaves the specification unchanged -/
@@ -3239,13 +1639,19 @@ theorem specStep_of_not_pre (ss : SS) (fresh : Ent) (op : Op) (h : ¬ pre ss op)
     specStep ss fresh op = ss := by
   cases op with
   | reg size z => simp only [specStep]; exact if_neg h
-  | new ids vals => simp only [specStep]; exact if_neg h
-  | add e ids vals =>
+  | new p ids vals => simp only [specStep]; exact if_neg h
+  | new0 => exact absurd trivial h
+  | add p e ids vals =>
     simp only [specStep]
     cases hf : find ss.ents e with
     | none => rfl
     | some cs => exact if_neg (fun hv => h ⟨cs, hf, hv⟩)
-  | rem e ids =>
+  | rem p e ids =>
+    simp only [specStep]
+    cases hf : find ss.ents e with
+    | none => rfl
+    | some cs => exact if_neg (fun hv => h ⟨cs, hf, hv⟩)
+  | xchg p e add rem vals =>
     simp only [specStep]
     cases hf : find ss.ents e with
     | none => rfl
@@ -3260,28 +1666,44 @@ theorem specStep_of_not_pre (ss : SS) (fresh : Ent) (op : Op) (h : ¬ pre ss op)
     cases hf : find ss.ents e with
     | none => rfl
     | some cs => exact absurd ⟨cs, hf⟩ h
+  | copy e =>
+    simp only [specStep]
+    cases hf : find ss.ents e with
+    | none => rfl
+    | some cs => exact absurd ⟨cs, hf⟩ h
+  | shrink bounded => rfl
+  | reset => exact absurd trivial h
 
 /-- the entity an operation is about (`fresh` = the handle a successful `new` returns) -/
 def target (fresh : Ent) : Op → Option Ent
   | .reg _ _ => none
-  | .new _ _ => some fresh
-  | .add e _ _ => some e
-  | .rem e _ => some e
+  | .new _ _ _ => some fresh
+  | .new0 => some fresh
+  | .add _ e _ _ => some e
+  | .rem _ e _ => some e
+  | .xchg _ e _ _ _ => some e
   | .set e _ => some e
   | .del e => some e
+  | .copy _ => some fresh
+  | .shrink _ => none
+  | .reset => none
 
-/-- **frame** (specification): the step for an operation on `e` changes only `e`'s entry -/
-theorem specStep_frame (ss : SS) (fresh : Ent) (op : Op) (x : Ent)
+/-- **frame** (specification): the step for an operation on `e` changes only `e`'s entry
+    (`Reset`, the one operation about the whole world, is excluded) -/
+theorem specStep_frame (ss : SS) (fresh : Ent) (op : Op) (x : Ent) (hr : op.isReset = false)
     (hx : target fresh op ≠ some x) : find (specStep ss fresh op).ents x = find ss.ents x := by
   cases op with
   | reg size z => simp only [specStep]; split <;> rfl
-  | new ids vals =>
+  | new p ids vals =>
     have hne : fresh ≠ x := fun hh => hx (by rw [hh]; rfl)
     simp only [specStep]
     split
     · simp only [find, if_neg hne]
     · rfl
-  | add e ids vals =>
+  | new0 =>
+    have hne : fresh ≠ x := fun hh => hx (by rw [hh]; rfl)
+    simp only [specStep, find, if_neg hne]
+  | add p e ids vals =>
     have hne : x ≠ e := fun hh => hx (by rw [hh]; rfl)
     simp only [specStep]
     cases find ss.ents e with
@@ -3292,7 +1714,18 @@ theorem specStep_frame (ss : SS) (fresh : Ent) (op : Op) (x : Ent)
       · dsimp only
         exact find_upd_ne ss.ents _ hne
       · rfl
-  | rem e ids =>
+  | rem p e ids =>
+    have hne : x ≠ e := fun hh => hx (by rw [hh]; rfl)
+    simp only [specStep]
+    cases find ss.ents e with
+    | none => rfl
+    | some cs =>
+      simp only
+      split
+      · dsimp only
+        exact find_upd_ne ss.ents _ hne
+      · rfl
+  | xchg p e add rem vals =>
     have hne : x ≠ e := fun hh => hx (by rw [hh]; rfl)
     simp only [specStep]
     cases find ss.ents e with
@@ -3320,6 +1753,14 @@ theorem specStep_frame (ss : SS) (fresh : Ent) (op : Op) (x : Ent)
     cases find ss.ents e with
     | none => rfl
     | some cs => exact find_del_ne _ hne
+  | copy e =>
+    have hne : fresh ≠ x := fun hh => hx (by rw [hh]; rfl)
+    simp only [specStep]
+    cases find ss.ents e with
+    | none => rfl
+    | some cs => simp only [find, if_neg hne]
+  | shrink bounded => rfl
+  | reset => cases hr
 
 theorem sortedIds_add {n : Nat} {ks : List Comp} (h : ∀ c ∈ ks, c < n) (k : Nat) :
     sortedIds (n + k) ks = sortedIds n ks := by
